@@ -1234,6 +1234,94 @@ Proof.
   - apply (life_ok_var s s' V), HI.
 Qed.
 
+(** * No operation of a clean history crashes *)
+Definition nocrash {A} (m : res A) : Prop := forall c, m <> Crash c.
+
+Lemma nc_Ok {A} (a : A) : nocrash (Ok a).
+Proof. intros c H. discriminate. Qed.
+Lemma nc_fuel {A} : nocrash (@OutOfFuel A).
+Proof. intros c H. discriminate. Qed.
+Lemma nc_ex {A} (m : res A) : (exists a, m = Ok a) -> nocrash m.
+Proof. intros [a ->]. apply nc_Ok. Qed.
+
+Lemma nc_rbind {A B} (m : res A) (k : A -> res B) :
+  nocrash m -> (forall a, m = Ok a -> nocrash (k a)) -> nocrash (rbind m k).
+Proof.
+  intros Hm Hk c. destruct m as [a|c'|]; simpl.
+  - apply (Hk a eq_refl).
+  - intros _. apply (Hm c'). reflexivity.
+  - discriminate.
+Qed.
+
+Lemma nc_ebind (m : M) (k : state -> M) :
+  nocrash m -> (forall s, m = Ok (s, None) -> nocrash (k s)) -> nocrash (ebind m k).
+Proof.
+  intros Hm Hk. unfold ebind. apply nc_rbind; [exact Hm|]. intros [s e] E.
+  destruct e; [apply nc_Ok|apply Hk, E].
+Qed.
+
+Lemma nc_lift (m : res state) : nocrash m -> nocrash (lift m).
+Proof. intros H. unfold lift. apply nc_rbind; [exact H|]. intros s _. apply nc_Ok. Qed.
+
+Lemma nc_ok s : nocrash (ok s). Proof. apply nc_Ok. Qed.
+Lemma nc_fail s x : nocrash (fail s x). Proof. apply nc_Ok. Qed.
+
+Lemma nc_rfold {A S} (I : list A -> S -> Prop) (f : S -> A -> res S) l s :
+  I l s ->
+  (forall a l' s, I (a :: l') s -> nocrash (f s a) /\ forall s1, f s a = Ok s1 -> I l' s1) ->
+  nocrash (rfold f l s).
+Proof.
+  intros HI Hstep. revert s HI. induction l as [|a l IH]; intros s HI; simpl; [apply nc_Ok|].
+  destruct (Hstep a l s HI) as [Hn Hp]. apply nc_rbind; [exact Hn|]. intros s1 E. apply IH, Hp, E.
+Qed.
+
+Lemma nc_efold {A} (I : list A -> state -> Prop) (f : state -> A -> M) l s :
+  I l s ->
+  (forall a l' s, I (a :: l') s -> nocrash (f s a) /\ forall s1, f s a = Ok (s1, None) -> I l' s1) ->
+  nocrash (efold f l s).
+Proof.
+  intros HI Hstep. revert s HI. induction l as [|a l IH]; intros s HI; simpl; [apply nc_Ok|].
+  destruct (Hstep a l s HI) as [Hn Hp]. apply nc_ebind; [exact Hn|]. intros s1 E. apply IH, Hp, E.
+Qed.
+
+(** ** heap primitives *)
+Lemma nc_heapAdd s n : hinv (heap s) -> inHeap s n = false -> 0 <= height (nd s n) -> nocrash (heapAdd s n).
+Proof. intros H1 H2 H3. apply nc_ex, heapAdd_total; assumption. Qed.
+
+Lemma nc_heapRemove s n : hinv (heap s) -> inHeap s n = true -> nocrash (heapRemove s n).
+Proof. intros H1 H2. apply nc_ex, heapRemove_total; assumption. Qed.
+
+Lemma nc_heapFix s n : hinv (heap s) -> inHeap s n = true -> 0 <= height (nd s n) -> nocrash (heapFix s n).
+Proof. intros H1 H2 H3. apply nc_ex, heapFix_total; assumption. Qed.
+
+Lemma nc_heapAddIfNotPresent s n : hinv (heap s) -> 0 <= height (nd s n) -> nocrash (heapAddIfNotPresent s n).
+Proof.
+  intros H1 H3. unfold heapAddIfNotPresent. destruct (inHeap s n) eqn:E; [apply nc_Ok|apply nc_heapAdd; assumption].
+Qed.
+
+Lemma nc_setStale s n : hreg_ok s -> heap_ok s -> nocrash (setStale s n).
+Proof.
+  intros Hr [Hi _]. unfold setStale. destruct (Z.eqb_spec (height (nd s n)) unset) as [|Hu]; [apply nc_Ok|].
+  set (s1 := upd s n (set setAt (fun _ => stabNum s))).
+  destruct (inHeap s1 n) eqn:E; [apply nc_Ok|]. apply nc_heapAdd; [exact Hi|exact E|].
+  unfold s1. rewrite nd_upd_proj by reflexivity. apply (Hr n Hu).
+Qed.
+
+Lemma nc_varSet s v x : hreg_ok s -> heap_ok s -> nocrash (varSet s v x).
+Proof.
+  intros Hr Hk. unfold varSet. destruct (_ && _ && _); [apply nc_Ok|]. destruct (status s =? 1); [apply nc_Ok|].
+  set (s1 := upd s v (set value (fun _ => x))).
+  assert (Hr1 : hreg_ok s1).
+  { intros n. unfold s1. rewrite !nd_upd_proj by reflexivity. apply Hr. }
+  assert (Hk1 : heap_ok s1).
+  { apply (heap_ok_ext s s1); auto; intros n; unfold s1; apply nd_upd_proj; reflexivity. }
+  destruct (isNecessary (nd s1 v)); [apply nc_setStale; assumption|apply nc_Ok].
+Qed.
+
+Lemma nc_varUpdate s v d : hreg_ok s -> heap_ok s -> nocrash (varUpdate s v d).
+Proof. intros. unfold varUpdate. apply nc_varSet; assumption. Qed.
+
+
 Theorem Inv_step_setvar s o s' e :
   Inv s -> op_ok s o = true -> is_setvar o = true -> step s o = Ok (s', e) -> Inv s'.
 Proof.
@@ -1245,6 +1333,15 @@ Proof.
     eapply Inv_var_step; eauto.
   - destruct (varUpdate_spec s v d s' Hr (inv_heap s HI) H) as (V & Hk & Hsd). rewrite Hst in Hsd.
     eapply Inv_var_step; eauto.
+Qed.
+
+Theorem nc_step_setvar s o : Inv s -> is_setvar o = true -> nocrash (step s o).
+Proof.
+  intros HI Hg.
+  assert (Hr : hreg_ok s) by (apply Inv_hreg; apply HI).
+  destruct o; try discriminate; simpl; apply nc_lift.
+  - apply nc_varSet; [exact Hr|apply HI].
+  - apply nc_varUpdate; [exact Hr|apply HI].
 Qed.
 
 (** * Teardown: [removeParents] / [checkIfUnnecessary] / [removeNode] *)
@@ -1736,6 +1833,78 @@ Proof.
   - eapply (proj2 (teardown_frame fuel)); eauto.
 Qed.
 
+(** ** teardown *)
+Lemma nc_zeroNode s n : hinv (heap s) -> nocrash (zeroNode s n).
+Proof.
+  intros Hi. unfold zeroNode. apply nc_rbind; [|intros s1 _; apply nc_Ok].
+  destruct (inHeap s n) eqn:E; [apply nc_heapRemove; assumption|apply nc_Ok].
+Qed.
+
+Lemma nc_removeNode s n : hinv (heap s) -> nocrash (removeNode s n).
+Proof.
+  intros Hi. unfold removeNode. apply nc_zeroNode. destruct (inGraph (nd s n)); exact Hi.
+Qed.
+
+Definition RP_nc (fuel : nat) : Prop :=
+  forall s c W, TInv (c :: W) noE s ->
+    (forall q, q ∈ parents (nd s c) <-> q ∈ decl (nd s c)) -> nocrash (removeParents fuel s c).
+Definition CK_nc (fuel : nat) : Prop :=
+  forall s p W, TInv W (eq p) s -> p ∉ W -> nocrash (checkIfUnnecessary fuel s p).
+
+Lemma CK_nc_from_RP fuel : RP_nc fuel -> CK_nc fuel.
+Proof.
+  intros RP s p W T Hw. rewrite checkIfUnnecessary_unfold.
+  destruct (isNecessary (nd s p)) eqn:En; [apply nc_Ok|].
+  destruct (inGraph (nd s p)) eqn:Eg; simpl; [|apply nc_Ok].
+  pose proof (TInv_push W s p T Hw En Eg) as T2.
+  set (s2 := emit (EvUnnec p) s) in *.
+  assert (Hpar : forall q, q ∈ parents (nd s2 p) <-> q ∈ decl (nd s2 p)).
+  { intros q. change (nd s2 p) with (nd s p). rewrite (t_par _ _ _ T p Hw Eg). reflexivity. }
+  apply nc_rbind; [apply (RP s2 p W T2 Hpar)|]. intros s3 H3.
+  destruct (proj1 (teardown_spec fuel) s2 p W s3 T2 Hpar H3) as (T3 & _).
+  apply nc_removeNode. apply (t_heap _ _ _ T3).
+Qed.
+
+Lemma RP_nc_S fuel : CK_nc fuel -> RP_nc (S fuel).
+Proof.
+  intros CK s c W T Hpar. rewrite removeParents_S.
+  pose (I := fun (rest : list nid) (st : state) =>
+    TInv (c :: W) noE st /\ NoDup rest /\
+    (forall q, q ∈ parents (nd st c) <-> q ∈ rest)).
+  apply (nc_rfold I).
+  - split; [exact T|]. split; [apply NoDup_dedup_first|].
+    intros q. rewrite Hpar, elem_of_dedup_first_nil. reflexivity.
+  - intros p rest st (Tst & Hnd & Hiff).
+    apply stdpp.list.NoDup_cons in Hnd as [Hp_rest Hnd].
+    assert (Hp_par : p ∈ parents (nd st c)) by (apply Hiff; left).
+    assert (Hp_nec : isNecessary (nd st p) = true).
+    { apply isNecessary_true. right; left. intros E.
+      apply (edges_parent_child st c p (t_edges _ _ _ Tst)) in Hp_par. rewrite E in Hp_par. inversion Hp_par. }
+    assert (Hp_W : p ∉ c :: W).
+    { intros Hin. destruct (t_W _ _ _ Tst p Hin) as [_ Hu]. congruence. }
+    pose proof (TInv_unlink (c :: W) st c p Tst ltac:(left)) as T1.
+    split; [apply (CK (unlink st c p) p (c :: W) T1 Hp_W)|].
+    intros s1 Hck.
+    destruct (proj2 (teardown_spec fuel) (unlink st c p) p (c :: W) s1 T1 Hp_W Hck) as [T2 Hf2 Hv2 Hm2].
+    split; [exact T2|]. split; [exact Hnd|].
+    intros q. rewrite (Hf2 c ltac:(left)), parents_nd_unlink, decide_True by reflexivity.
+    rewrite elem_of_rm, Hiff, elem_of_cons. split.
+    + intros [[->|Hq] Hne]; [congruence|exact Hq].
+    + intros Hq. split; [auto|]. intros ->. contradiction.
+Qed.
+
+Lemma nc_teardown fuel : RP_nc fuel /\ CK_nc fuel.
+Proof.
+  induction fuel as [|fuel [IH1 IH2]].
+  - assert (RP_nc 0) as R by (intros s c W _ _; apply nc_fuel).
+    split; [exact R|apply CK_nc_from_RP, R].
+  - pose proof (RP_nc_S fuel IH2) as R. split; [exact R|apply CK_nc_from_RP, R].
+Qed.
+
+Lemma nc_checkIfUnnecessary fuel s p W : TInv W (eq p) s -> p ∉ W -> nocrash (checkIfUnnecessary fuel s p).
+Proof. apply (proj2 (nc_teardown fuel)). Qed.
+
+
 (** ** Assembling [Inv] from the teardown invariant and the clauses teardown does not touch *)
 Record Rest (s : state) : Prop := {
   r_ids : ids_ok s;
@@ -1830,14 +1999,13 @@ Qed.
 (** ** Unobserve *)
 Definition is_unobserve (o : op) : bool := match o with Unobserve _ => true | _ => false end.
 
-Theorem Inv_step_unobserve s o s' e :
-  Inv s -> op_ok s o = true -> is_unobserve o = true -> step s o = Ok (s', e) -> Inv s'.
+Lemma unobserve_setup s o n :
+  Inv s -> obs s !! o = Some n ->
+  let s1 := s <| obs := delete o (obs s) |> <| numNodes := numNodes s - 1 |> <| handlers := rm o (handlers s) |> in
+  let s2 := upd s1 n (set observers (rm o)) in
+  Rest s2 /\ TInv [] (eq n) s2.
 Proof.
-  intros HI Hok Hg Hstep. destruct o as [| | | | | | | | | | | |o| | | | | | |]; try discriminate.
-  simpl in Hstep. apply lift_inv in Hstep as [H _]. unfold unobserve in H.
-  destruct (obs s !! o) as [n|] eqn:Eo; [|injection H as <-; exact HI].
-  set (s1 := s <| obs := delete o (obs s) |> <| numNodes := numNodes s - 1 |> <| handlers := rm o (handlers s) |>) in *.
-  set (s2 := upd s1 n (set observers (rm o))) in *.
+  intros HI Eo s1 s2.
   pose proof (Inv_TInv s HI) as T. pose proof (Inv_Rest s HI) as R.
   assert (Hn : has s n).
   { apply (has_observers s n o). apply (ob_iff s (inv_obs s HI)), Eo. }
@@ -1909,8 +2077,29 @@ Proof.
     - intros m _. rewrite (Hfield _ inGraph) by reflexivity. apply t_life0. intros Hx; inversion Hx.
     - intros w Hw. inversion Hw.
     - constructor. }
+  split; [exact R2|exact T2].
+Qed.
+
+Theorem Inv_step_unobserve s o s' e :
+  Inv s -> op_ok s o = true -> is_unobserve o = true -> step s o = Ok (s', e) -> Inv s'.
+Proof.
+  intros HI Hok Hg Hstep. destruct o as [| | | | | | | | | | | |o| | | | | | |]; try discriminate.
+  simpl in Hstep. apply lift_inv in Hstep as [H _]. unfold unobserve in H.
+  destruct (obs s !! o) as [n|] eqn:Eo; [|injection H as <-; exact HI].
+  set (s1 := s <| obs := delete o (obs s) |> <| numNodes := numNodes s - 1 |> <| handlers := rm o (handlers s) |>) in *.
+  set (s2 := upd s1 n (set observers (rm o))) in *.
+  destruct (unobserve_setup s o n HI Eo) as [R2 T2]. fold s1 s2 in R2, T2.
   destruct (checkIfUnnecessary_spec _ s2 n [] s' T2 ltac:(intros Hx; inversion Hx) H) as [[T' _ Hv Hm] F].
   apply TInv_Rest_Inv; [exact T'|]. eapply Rest_td_frame; eauto.
+Qed.
+
+Theorem nc_step_unobserve s o : Inv s -> is_unobserve o = true -> nocrash (step s o).
+Proof.
+  intros HI Hg. destruct o as [| | | | | | | | | | | |o| | | | | | |]; try discriminate.
+  simpl. apply nc_lift. unfold unobserve.
+  destruct (obs s !! o) as [n|] eqn:Eo; [|apply nc_Ok].
+  destruct (unobserve_setup s o n HI Eo) as [R2 T2].
+  apply (nc_checkIfUnnecessary _ _ n [] T2). intros Hx; inversion Hx.
 Qed.
 
 (** ** [TInv] / [Rest] under steps that keep the structure *)
@@ -1994,15 +2183,12 @@ Proof.
     intros e. apply texp_wf_ext; intros; [apply Hh; assumption|apply Hs|apply Hk; assumption].
 Qed.
 
-Theorem Inv_step_removeinput s o s' e :
-  Inv s -> op_ok s o = true -> is_removeinput o = true -> step s o = Ok (s', e) -> Inv s'.
+Lemma removeinput_setup s n a fn :
+  Inv s -> has s n -> nkind (nd s n) = KMapN fn ->
+  let s3 := upd (upd (upd s n (set decl (rm a))) n (set parents (rm a))) a (set children (rm n)) in
+  TInv [] (eq a) s3 /\ Rest s3.
 Proof.
-  intros HI Hok Hg Hstep. destruct o as [| | | | | | | | | | | | | | | |n a| | |]; try discriminate.
-  simpl in Hstep, Hok. apply lift_inv in Hstep as [H _]. unfold removeInput in H.
-  destruct (bool_decide (a ∈ decl (nd s n))) eqn:Ea; simpl in H; [|injection H as <-; exact HI].
-  apply andb_true_iff in Hok as [Hn _]. apply isMapN_true in Hn as [Hn [fn Hkn]].
-  apply rbind_ok in H as (s4 & H4 & H).
-  set (s3 := upd (upd (upd s n (set decl (rm a))) n (set parents (rm a))) a (set children (rm n))) in *.
+  intros HI Hn Hkn s3.
   pose proof (Inv_TInv s HI) as T. pose proof (Inv_Rest s HI) as R.
   (* field equations of s3 *)
   assert (Hfield : forall {A} (g : node -> A),
@@ -2057,6 +2243,19 @@ Proof.
     - apply (shape_ok_ext s s3); auto.
     - apply (stamps_ok_ext s s3); auto; apply Hfield; reflexivity.
     - intros m. rewrite Hv. apply r_inval0. }
+  split; [exact T3|exact R3].
+Qed.
+
+Theorem Inv_step_removeinput s o s' e :
+  Inv s -> op_ok s o = true -> is_removeinput o = true -> step s o = Ok (s', e) -> Inv s'.
+Proof.
+  intros HI Hok Hg Hstep. destruct o as [| | | | | | | | | | | | | | | |n a| | |]; try discriminate.
+  simpl in Hstep, Hok. apply lift_inv in Hstep as [H _]. unfold removeInput in H.
+  destruct (bool_decide (a ∈ decl (nd s n))) eqn:Ea; simpl in H; [|injection H as <-; exact HI].
+  apply andb_true_iff in Hok as [Hn _]. apply isMapN_true in Hn as [Hn [fn Hkn]].
+  apply rbind_ok in H as (s4 & H4 & H).
+  set (s3 := upd (upd (upd s n (set decl (rm a))) n (set parents (rm a))) a (set children (rm n))) in *.
+  destruct (removeinput_setup s n a fn HI Hn Hkn) as [T3 R3]. fold s3 in T3, R3.
   (* setStale *)
   destruct (setStale_spec s3 n s4) as (V & Hk4 & Hsd); try assumption.
   { apply Inv_hreg; apply T3. }
@@ -2065,6 +2264,21 @@ Proof.
   assert (R4 : Rest s4) by (apply (Rest_var_step s3 s4 V Hsd R3)).
   destruct (checkIfUnnecessary_spec _ s4 a [] s' T4 ltac:(intros Hx; inversion Hx) H) as [[T' _ Hv Hm] F].
   apply TInv_Rest_Inv; [exact T'|]. eapply Rest_td_frame; eauto.
+Qed.
+
+Theorem nc_step_removeinput s o : Inv s -> op_ok s o = true -> is_removeinput o = true -> nocrash (step s o).
+Proof.
+  intros HI Hok Hg. destruct o as [| | | | | | | | | | | | | | | |n a| | |]; try discriminate.
+  simpl in Hok |- *. apply nc_lift. unfold removeInput.
+  destruct (bool_decide (a ∈ decl (nd s n))) eqn:Ea; simpl; [|apply nc_Ok].
+  apply andb_true_iff in Hok as [Hn _]. apply isMapN_true in Hn as [Hn [fn Hkn]].
+  destruct (removeinput_setup s n a fn HI Hn Hkn) as [T3 R3].
+  set (s3 := upd (upd (upd s n (set decl (rm a))) n (set parents (rm a))) a (set children (rm n))) in *.
+  assert (Hr3 : hreg_ok s3) by (apply Inv_hreg; apply T3).
+  apply nc_rbind; [apply (nc_setStale s3 n Hr3), T3|]. intros s4 H4.
+  destruct (setStale_spec s3 n s4 Hr3 (t_heap _ _ _ T3) H4) as (V & Hk4 & Hsd).
+  assert (T4 : TInv [] (eq a) s4) by (apply (TInv_struct _ _ s3 s4); [apply V|apply V|exact Hk4|exact T3]).
+  apply (nc_checkIfUnnecessary _ _ a [] T4). intros Hx; inversion Hx.
 Qed.
 
 (** * Becoming necessary: [becameNecessaryRecursive] *)
@@ -3008,6 +3222,136 @@ Proof.
   - apply ok_inv in H as [-> ->]. apply Post4; [apply only_heap_refl|apply B4|auto].
 Qed.
 
+(** ** becoming necessary *)
+Lemma nc_setHeight s n h : nocrash (setHeight s n h).
+Proof. unfold setHeight. destruct (h >? maxHeight s - 1); apply nc_Ok. Qed.
+
+Definition BN_nc (fuel : nat) : Prop :=
+  forall s n X, Sta s -> BInv (n :: X) s -> has s n -> inGraph (nd s n) = false ->
+    isNecessary (nd s n) = true -> valid (nd s n) = true ->
+    (forall c, c ∈ children (nd s n) -> c ∈ X) ->
+    (forall b, scope (nd s n) = Some b -> inGraph (nd s b) = true) ->
+    (forall x, x ∈ X -> exists m, dreach s x m /\ n ∈ decl (nd s m)) ->
+    nocrash (becameNecessaryRecursive fuel s n).
+
+Section bn_nc.
+  Context (fuel : nat) (IH : BN_nc fuel).
+  Context (s : state) (n : nid) (X : list nid).
+  Hypothesis (St : Sta s) (Hn : has s n) (Hgn : inGraph (nd s n) = false) (Hvn : valid (nd s n) = true).
+  Hypothesis (Hchi : forall c, c ∈ children (nd s n) -> c ∈ X).
+  Hypothesis (HX : forall x, x ∈ X -> exists m, dreach s x m /\ n ∈ decl (nd s m)).
+
+  Lemma bn_body_nc p rest st : BJ s n X (p :: rest) st -> nocrash (bn_body fuel n st p).
+  Proof.
+    intros J.
+    pose proof (j_frame _ _ _ _ _ J) as F.
+    pose proof (Sta_bn_frame s st F St) as Sst.
+    assert (Hd : forall m, decl (nd st m) = decl (nd s m)) by (intros m; apply (bf_static _ _ F m)).
+    assert (Hsc : forall m, scope (nd st m) = scope (nd s m)) by (intros m; apply (bf_static _ _ F m)).
+    assert (Hvv : forall m, valid (nd st m) = valid (nd s m)) by (intros m; apply (bf_static _ _ F m)).
+    assert (Hhas : forall m, has st m <-> has s m) by apply F.
+    assert (Hpd : p ∈ decl (nd s n)).
+    { rewrite <- (j_par _ _ _ _ _ J). apply elem_of_app. right. left. }
+    assert (Hp : has s p) by (apply (io_decl s (sta_ids s St) n p Hpd)).
+    assert (Hvp : valid (nd s p) = true) by (apply (sta_vc s St n p Hvn Hpd)).
+    assert (Hpn : p <> n).
+    { intros ->. apply (no_cycle s n n St (dr_refl s n) Hpd). }
+    assert (HpX : p ∉ n :: X).
+    { rewrite not_elem_of_cons. split; [exact Hpn|]. intros Hx. destruct (HX p Hx) as (m & Hm1 & Hm2).
+      apply (no_cycle s n m St); [|exact Hm2]. eapply dreach_decl; eauto. }
+    destruct J as [Jinv _ Jtouch Jinvq Jreg Jpar Jh Jhs Jhp Jchi Jheapn Jheight Jheap Jnew].
+    unfold bn_body. set (st1 := link st n p) in *.
+    assert (Hv1 : valid (nd st1 p) = true) by (unfold st1; rewrite valid_nd_link, Hvv; exact Hvp).
+    rewrite Hv1.
+    assert (Hn' : has st n) by (apply Hhas, Hn). assert (Hp' : has st p) by (apply Hhas, Hp).
+    pose proof (BInv_link X st n p Jinv Hn' Hp' Jreg) as B1.
+    assert (F1 : bn_frame st st1) by apply bn_frame_link.
+    assert (Hchi1 : children (nd st1 p) = children (nd st p) ++ [n]).
+    { unfold st1. rewrite children_nd_link, decide_True by auto. reflexivity. }
+    assert (Hg1 : forall m, inGraph (nd st1 m) = inGraph (nd st m)) by (intros; apply inGraph_nd_link).
+    apply nc_ebind; [|intros st3 _; destruct (_ >=? _); [apply nc_setHeight|apply nc_Ok]].
+    destruct (isNecessary (nd st p)) eqn:Enec; [apply nc_Ok|].
+    assert (Hgp : inGraph (nd st p) = false) by (rewrite (b_nec _ _ Jinv p HpX); exact Enec).
+    assert (St1 : Sta st1) by (apply (Sta_bn_frame st st1 F1 Sst)).
+    assert (Hd1 : forall m, decl (nd st1 m) = decl (nd s m)).
+    { intros m. unfold st1. rewrite decl_nd_link. apply Hd. }
+    assert (Hdr1 : forall a b, dreach s a b -> dreach st1 a b) by (intros a b; apply dreach_ext, Hd1).
+    apply (IH st1 p (n :: X) St1 B1); try assumption.
+    - apply has_link, Hp'.
+    - rewrite Hg1. exact Hgp.
+    - apply isNecessary_true. right; left. rewrite Hchi1.
+      intros E. apply app_eq_nil in E as [_ E]. discriminate.
+    - intros c. rewrite Hchi1. destruct (b_zero2 _ _ Jinv p HpX Hgp) as [-> _].
+      intros ->%elem_of_list_singleton. left.
+    - intros b Hb. rewrite Hg1. unfold st1 in Hb. rewrite scope_nd_link, Hsc in Hb.
+      destruct (sc_decl s (sta_scoping s St) n p Hpd) as [E|[E|(b' & Hk & Hb' & Hr)]].
+      + congruence.
+      + apply (b_sreg _ _ Jinv n b Jreg). rewrite Hsc. congruence.
+      + assert (b' = b) as -> by congruence.
+        pose proof (sta_kinds s St n Hn) as Hkn. rewrite Hk in Hkn. destruct Hkn as [-> [r Hr']].
+        pose proof (bw_decl_main s b r (sta_binds s St b r Hr')) as Hdm.
+        unfold bd in Hr. rewrite Hr' in Hr. simpl in Hr. rewrite Hr in Hdm. simpl in Hdm.
+        assert (Hbp : b ∈ parents (nd st (S b))).
+        { rewrite Hdm in Jpar. destruct (parents (nd st (S b))) as [|y l]; simpl in Jpar.
+          - injection Jpar as Hpb _. destruct (sta_scopes s St p b Hb) as [_ Hlt]. lia.
+          - injection Jpar as -> _. left. }
+        apply (Jhp b Hbp).
+    - intros x [->|Hx]%elem_of_cons.
+      + exists n. split; [apply dr_refl|]. rewrite Hd1. exact Hpd.
+      + destruct (HX x Hx) as (m & Hm1 & Hm2). exists n. split; [|rewrite Hd1; exact Hpd].
+        apply Hdr1. eapply dr_step; eauto.
+  Qed.
+End bn_nc.
+
+Lemma nc_BN fuel : BN_nc fuel.
+Proof.
+  induction fuel as [|fuel IH]; intros s n X St B Hn Hgn Hnec Hvn Hchi Hsreg HX; [apply nc_fuel|].
+  rewrite BN_S. cbn zeta. rewrite Hgn.
+  set (s2 := emit (EvNec n) (addNode s n)) in *.
+  assert (Eh : scopeHeight s2 (scope (nd s2 n)) = scopeHeight s (scope (nd s n))).
+  { unfold s2. rewrite nd_emit, scope_nd_addNode. apply scopeHeight_ext.
+    intros m. rewrite nd_emit. apply height_nd_addNode. }
+  rewrite Eh.
+  apply nc_ebind; [apply nc_setHeight|]. intros s3 H3.
+  assert (Hscn : scope (nd s n) <> Some n).
+  { intros E. destruct (sta_scopes s St n n E) as [_ Hlt]. lia. }
+  assert (Hh0 : 0 <= scopeHeight s (scope (nd s n)) + 1).
+  { unfold scopeHeight. destruct (scope (nd s n)) as [b|] eqn:Eb; [|unfold unset; lia].
+    assert (Hb : b ∉ n :: X).
+    { rewrite not_elem_of_cons. split; [congruence|]. intros Hx. destruct (HX b Hx) as (m & Hm1 & Hm2).
+      apply (scope_reach s b n St); [eapply dr_step; eauto|exact Eb]. }
+    destruct (b_height _ _ B b Hb (Hsreg b eq_refl)) as (A & _). lia. }
+  destruct (BInv_register X s n s3 B Hn Hgn Hvn Hchi Hsreg Hscn Hh0 H3)
+    as (B3 & Hg3 & Hp3 & Hgood3 & Hheap3 & Ene3 & Hchi3 & Hw3 & Hq3).
+  assert (F3 : bn_frame s s3).
+  { eapply bn_frame_trans; [apply bn_frame_addNode|]. eapply bn_frame_trans; [apply bn_frame_emit|].
+    apply (bn_frame_setHeight _ _ _ _ _ H3). }
+  assert (Hsregn : forall m, inGraph (nd s m) = true -> scope (nd s m) <> Some n).
+  { intros m Hm E. rewrite (b_sreg _ _ B m n Hm E) in Hgn. discriminate. }
+  assert (J3 : BJ s n X (decl (nd s n)) s3).
+  { destruct Hgood3 as (A & Bq & C). constructor; auto.
+    - intros m Hr. apply Ene3. intros ->. apply Hr, dr_refl.
+    - rewrite Hp3. reflexivity.
+    - rewrite Hp3. intros q Hq. inversion Hq.
+    - intros m Hm. rewrite Ene3; [reflexivity|]. intros ->. congruence.
+    - intros m. rewrite Hw3. auto.
+    - intros m Hm. destruct (decide (m = n)) as [->|Hne]; [right; apply dr_refl|].
+      left. rewrite <- Ene3 by exact Hne. exact Hm. }
+  assert (Hd3 : decl (nd s3 n) = decl (nd s n)) by apply (bf_static _ _ F3 n).
+  rewrite Hd3.
+  apply nc_ebind.
+  - apply (nc_efold (BJ s n X)); [exact J3|]. intros p rest st J. split.
+    + apply (bn_body_nc fuel IH s n X St Hn Hgn Hvn Hchi HX p rest st J).
+    + intros st' Hb. apply (bn_iter fuel (BN_spec_all fuel) s n X St Hn Hgn Hvn Hchi HX Hsregn p rest st st' None J Hb).
+  - intros s4 H4.
+    pose proof (efold_inv (BJ s n X) (fun _ x => x = EHeightLimit) (bn_body fuel n) _ _ _ _ J3
+                  (fun p rest st st' e1 J Hb => bn_iter fuel (BN_spec_all fuel) s n X St Hn Hgn Hvn Hchi HX Hsregn p rest st st' e1 J Hb) H4) as L.
+    destruct (isStale s4 n); [|apply nc_Ok]. apply nc_lift.
+    destruct L as [Jinv Jframe Jtouch Jinvq Jreg Jpar Jh Jhs Jhp Jchi Jheapn Jheight Jheap Jnew].
+    apply nc_heapAddIfNotPresent; [apply (b_heap _ _ Jinv)|lia].
+Qed.
+
+
 (** ** Consequences of the quiescent clauses: validity is closed under declarations; a registered
        scope node has its lhs-change registered *)
 Lemma valid_closed s :
@@ -3223,19 +3567,15 @@ Proof. intros H. simpl. rewrite H. reflexivity. Qed.
 (** ** Observe *)
 Definition is_observe (o : op) : bool := match o with Observe _ => true | _ => false end.
 
-Theorem Inv_step_observe s o s' e :
-  Inv s -> op_ok s o = true -> op_clean s o = true -> is_observe o = true ->
-  step s o = Ok (s', e) -> e <> Some EHeightLimit -> Inv s'.
+Lemma observe_setup s n :
+  Inv s -> has s n -> scope (nd s n) = None -> binds s !! n = None ->
+  let o := next s in
+  let s1 := s <| next := S o |> <| obs := <[o := n]> (obs s) |> <| numNodes := numNodes s + 1 |> in
+  let s2 := upd s1 n (set observers (fun l => l ++ [o])) in
+  (forall m, nd s2 m = if decide (m = n) then set observers (fun l => l ++ [o]) (nd s n) else nd s m) /\
+  (forall m, has s2 m <-> has s m) /\ Rest s2 /\ Sta s2 /\ BInv [n] s2 /\ isNecessary (nd s2 n) = true.
 Proof.
-  intros HI Hok Hcl Hgo Hstep Herr. destruct o as [| | | | | | | | | | |n| | | | | | | |]; try discriminate.
-  simpl in Hstep, Hok, Hcl. apply isTop_true in Hcl as [Hn Hscn].
-  assert (Hbn : binds s !! n = None).
-  { destruct (binds s !! n) as [r|] eqn:Er; [|reflexivity]. exfalso.
-    apply isUserNode_true in Hok as [_ Hnl]. rewrite (bw_kind_lhs s n r (inv_binds s HI n r Er)) in Hnl. exact Hnl. }
-  unfold observe in Hstep.
-  set (o := next s) in *.
-  set (s1 := s <| next := S o |> <| obs := <[o := n]> (obs s) |> <| numNodes := numNodes s + 1 |>) in *.
-  set (s2 := upd s1 n (set observers (fun l => l ++ [o]))) in *.
+  intros HI Hn Hscn Hbn o s1 s2.
   pose proof (Inv_TInv s HI) as T. pose proof (Inv_Rest s HI) as R. pose proof (Inv_sreg s HI) as Hsreg.
   assert (Hnd : forall m, nd s2 m = if decide (m = n) then set observers (fun l => l ++ [o]) (nd s n) else nd s m).
   { intros m. unfold s2. rewrite nd_upd by exact Hn. reflexivity. }
@@ -3297,6 +3637,26 @@ Proof.
   assert (Hnec2 : isNecessary (nd s2 n) = true).
   { apply isNecessary_true. right; right. rewrite Hobs, decide_True by reflexivity.
     intros E. apply app_eq_nil in E as [_ E]. discriminate. }
+  split; [exact Hnd|]. split; [exact Hhas|]. split; [exact R2|]. split; [exact St2|]. split; [exact B2|exact Hnec2].
+Qed.
+
+Theorem Inv_step_observe s o s' e :
+  Inv s -> op_ok s o = true -> op_clean s o = true -> is_observe o = true ->
+  step s o = Ok (s', e) -> e <> Some EHeightLimit -> Inv s'.
+Proof.
+  intros HI Hok Hcl Hgo Hstep Herr. destruct o as [| | | | | | | | | | |n| | | | | | | |]; try discriminate.
+  simpl in Hstep, Hok, Hcl. apply isTop_true in Hcl as [Hn Hscn].
+  assert (Hbn : binds s !! n = None).
+  { destruct (binds s !! n) as [r|] eqn:Er; [|reflexivity]. exfalso.
+    apply isUserNode_true in Hok as [_ Hnl]. rewrite (bw_kind_lhs s n r (inv_binds s HI n r Er)) in Hnl. exact Hnl. }
+  unfold observe in Hstep.
+  set (o := next s) in *.
+  set (s1 := s <| next := S o |> <| obs := <[o := n]> (obs s) |> <| numNodes := numNodes s + 1 |>) in *.
+  set (s2 := upd s1 n (set observers (fun l => l ++ [o]))) in *.
+  destruct (observe_setup s n HI Hn Hscn Hbn) as (Hnd & Hhas & R2 & St2 & B2 & Hnec2). fold o s1 s2 in Hnd, Hhas, R2, St2, B2, Hnec2.
+  assert (Hfield : forall {A} (g : node -> A), (forall x f, g (set observers f x) = g x) ->
+                   forall m, g (nd s2 m) = g (nd s m)).
+  { intros A g Hg' m. rewrite Hnd. destruct (decide (m = n)) as [->|]; [apply Hg'|reflexivity]. }
   assert (Hfin : forall s3, BInv [] s3 -> Rest s3 -> Inv s3).
   { intros s3 B3 R3. apply TInv_Rest_Inv; [apply BInv_TInv, B3|exact R3]. }
   change (isNecessary (nd s1 n)) with (isNecessary (nd s n)) in Hstep.
@@ -3329,6 +3689,45 @@ Proof.
     destruct (opFuel_pos s3) as [k Ek]. rewrite Ek in H. apply lift_inv in H as [H _].
     rewrite (propagateInvalidity_nil k s3 Hq3) in H. injection H as <-.
     apply Hfin; [exact P1|]. apply (Rest_bn_frame s2 s3 F3 P2); [|exact R2]. apply (b_valid _ _ P1).
+Qed.
+
+Theorem nc_step_observe s o : Inv s -> op_ok s o = true -> op_clean s o = true -> is_observe o = true -> nocrash (step s o).
+Proof.
+  intros HI Hok Hcl Hgo. destruct o as [| | | | | | | | | | |n| | | | | | | |]; try discriminate.
+  simpl in Hok, Hcl |- *. apply isTop_true in Hcl as [Hn Hscn].
+  assert (Hbn : binds s !! n = None).
+  { destruct (binds s !! n) as [r|] eqn:Er; [|reflexivity]. exfalso.
+    apply isUserNode_true in Hok as [_ Hnl]. rewrite (bw_kind_lhs s n r (inv_binds s HI n r Er)) in Hnl. exact Hnl. }
+  unfold observe.
+  destruct (observe_setup s n HI Hn Hscn Hbn) as (Hnd & Hhas & R2 & St2 & B2 & Hnec2).
+  set (o := next s) in *.
+  set (s1 := s <| next := S o |> <| obs := <[o := n]> (obs s) |> <| numNodes := numNodes s + 1 |>) in *.
+  set (s2 := upd s1 n (set observers (fun l => l ++ [o]))) in *.
+  assert (Hfield : forall {A} (g : node -> A), (forall x f, g (set observers f x) = g x) ->
+                   forall m, g (nd s2 m) = g (nd s m)).
+  { intros A g Hg' m. rewrite Hnd. destruct (decide (m = n)) as [->|]; [apply Hg'|reflexivity]. }
+  change (isNecessary (nd s1 n)) with (isNecessary (nd s n)).
+  destruct (isNecessary (nd s n)) eqn:Enec; [apply nc_Ok|].
+  assert (Hgn : inGraph (nd s n) = false) by (rewrite (inv_nec s HI n); exact Enec).
+  assert (Pre : forall (P : Prop),
+            (has s2 n -> inGraph (nd s2 n) = false -> valid (nd s2 n) = true ->
+             (forall c, c ∈ children (nd s2 n) -> c ∈ []) ->
+             (forall b, scope (nd s2 n) = Some b -> inGraph (nd s2 b) = true) ->
+             (forall x, x ∈ [] -> exists m, dreach s2 x m /\ n ∈ decl (nd s2 m)) -> P) -> P).
+  { intros P HP. apply HP.
+    - apply Hhas, Hn.
+    - rewrite (Hfield _ inGraph) by reflexivity. exact Hgn.
+    - rewrite (Hfield _ valid) by reflexivity. apply (vo_top s (inv_valid s HI)), Hscn.
+    - intros c. rewrite (Hfield _ children) by reflexivity.
+      destruct (inv_zero s HI n Hgn) as (_ & -> & _). intros Hc; inversion Hc.
+    - intros b. rewrite (Hfield _ scope), Hscn by reflexivity. discriminate.
+    - intros x Hx. inversion Hx. }
+  apply Pre. intros P1 P2 P3 P4 P5 P6.
+  apply nc_ebind; [apply (nc_BN (opFuel s2) s2 n [] St2 B2 P1 P2 Hnec2 P3 P4 P5 P6)|].
+  intros s3 H3. apply nc_lift.
+  pose proof (BN_spec_all (opFuel s2) s2 n [] s3 None St2 B2 P1 P2 Hnec2 P3 P4 P5 P6 H3) as [Q1 Q2 _ _ _ _].
+  assert (Hq3 : invq s3 = []) by (rewrite Q2; apply (q_invq s (inv_quiet s HI))).
+  destruct (opFuel_pos s3) as [k Ek]. rewrite Ek. rewrite (propagateInvalidity_nil k s3 Hq3). apply nc_Ok.
 Qed.
 
 (** * adjustHeights *)
@@ -3867,6 +4266,7 @@ Qed.
 
 End adjust.
 
+
 (** ** [addChild]: link, make the input necessary, adjust heights, queue the child *)
 Record ac_frame (s s' : state) : Prop := {
   cf_next : next s' = next s;
@@ -4028,6 +4428,438 @@ Proof.
   destruct (inGraph (nd s q)) eqn:E; [reflexivity|].
   destruct (b_zero2 _ _ B q Hx E) as [Ec _]. rewrite Ec in Hq. inversion Hq.
 Qed.
+
+(** ** the adjust-heights heap never faults *)
+Lemma adjScan_min bs : forall x upto x' n b',
+  adjScan bs x upto = Some (x', n, b') ->
+  exists i, bs !! i = Some (n :: b') /\ x' = (x + i)%nat /\ forall j, (j < i)%nat -> bs !! j = Some [].
+Proof.
+  induction bs as [|b bs IH]; intros x upto x' n b' H; simpl in H; [discriminate|].
+  destruct (Z.of_nat x >? upto); [discriminate|]. destruct b as [|m b].
+  - apply IH in H as (i & Hi & -> & Hmin). exists (S i). split; [exact Hi|]. split; [lia|].
+    intros [|j] Hj; [reflexivity|]. apply Hmin. lia.
+  - injection H as <- <- <-. exists 0%nat. split; [reflexivity|]. split; [lia|]. intros j Hj. lia.
+Qed.
+
+Lemma adjScan_none bs : forall x upto,
+  adjScan bs x upto = None -> forall i q, bs !! i = Some q -> Z.of_nat (x + i) <= upto -> q = [].
+Proof.
+  induction bs as [|b bs IH]; intros x upto H i q Hq Hle; simpl in H; [rewrite lookup_nil in Hq; discriminate|].
+  destruct (Z.gtb_spec (Z.of_nat x) upto) as [Hgt|_]; [lia|].
+  destruct b as [|m b]; [|discriminate].
+  destruct i as [|i]; [injection Hq as <-; reflexivity|].
+  apply (IH (S x) upto H i q Hq). lia.
+Qed.
+
+Record AQ (s : state) : Prop := {
+  q_lower : 0 <= a_lower (adj s);
+  q_len : forall h, 0 <= h < maxHeight s -> is_Some (a_byHeight (adj s) !! Z.to_nat h);
+  q_bucket : forall i q n, a_byHeight (adj s) !! i = Some q -> n ∈ q ->
+               hAdj (nd s n) = Z.of_nat i /\ a_lower (adj s) <= Z.of_nat i <= a_maxSeen (adj s);
+  q_edge : forall m p, inGraph (nd s m) = true -> p ∈ parents (nd s m) \/ scope (nd s m) = Some p ->
+             hAdj (nd s p) <> unset -> hAdj (nd s p) < height (nd s m)
+}.
+
+Lemma nc_adjAdd s n : AQ s -> (hAdj (nd s n) = unset -> 0 <= height (nd s n) < maxHeight s) -> nocrash (adjAdd s n).
+Proof.
+  intros Q Hh. unfold adjAdd. destruct (Z.eqb_spec (hAdj (nd s n)) unset) as [E|E]; simpl; [|apply nc_Ok].
+  specialize (Hh E). destruct (Z.ltb_spec (height (nd s n)) 0); [lia|].
+  destruct (q_len s Q _ Hh) as [q ->]. apply nc_Ok.
+Qed.
+
+(* popping: something is found whenever the heap is not empty *)
+Lemma pop_some s : adj_ok s -> AQ s -> 0 < a_num (adj s) -> exists p s1, adjRemoveMin s = Ok (Some p, s1).
+Proof.
+  intros [A1 A2 A3] Q Hpos. unfold adjRemoveMin.
+  destruct (Z.eqb_spec (a_num (adj s)) 0); [lia|].
+  destruct (Z.ltb_spec (a_lower (adj s)) 0); [pose proof (q_lower s Q); lia|].
+  destruct (adjScan _ _ _) as [[[x n0] b']|] eqn:E; [eauto|]. exfalso.
+  destruct (adj_ids s) as [|m l] eqn:Em; [rewrite A2 in Hpos; simpl in Hpos; lia|].
+  assert (Hm : m ∈ adj_ids s) by (rewrite Em; left).
+  unfold adj_ids in Hm. apply elem_of_concat_bk in Hm as [i Hmq]. unfold bk in Hmq.
+  destruct (a_byHeight (adj s) !! i) as [q|] eqn:Hi; simpl in Hmq; [|inversion Hmq].
+  destruct (q_bucket s Q i q m Hi Hmq) as [_ [Hlo Hhi]].
+  set (from := Z.to_nat (a_lower (adj s))) in *.
+  assert (Hi' : drop from (a_byHeight (adj s)) !! (i - from)%nat = Some q).
+  { rewrite lookup_drop. replace (from + (i - from))%nat with i by lia. exact Hi. }
+  pose proof (adjScan_none _ _ _ E (i - from)%nat q Hi' ltac:(lia)) as ->. inversion Hmq.
+Qed.
+
+Lemma pop_AQ s p s1 :
+  adj_ok s -> AQ s -> adjRemoveMin s = Ok (Some p, s1) ->
+  AQ s1 /\ a_lower (adj s1) = hAdj (nd s p) /\ hAdj (nd s p) <> unset.
+Proof.
+  intros [A1 A2 A3] Q H.
+  unfold adjRemoveMin in H.
+  destruct (a_num (adj s) =? 0); [discriminate|].
+  destruct (a_lower (adj s) <? 0); [discriminate|].
+  destruct (adjScan _ _ _) as [[[x n] b']|] eqn:E; [|discriminate].
+  injection H as -> <-.
+  apply adjScan_min in E as (i & Hi & -> & Hmin). rewrite lookup_drop in Hi.
+  set (from := Z.to_nat (a_lower (adj s))) in *. set (x := (from + i)%nat) in *.
+  assert (Hpq : p ∈ p :: b') by left.
+  destruct (q_bucket s Q x _ p Hi Hpq) as [Hjp [Hlo Hhi]].
+  assert (Hjpu : hAdj (nd s p) <> unset) by (rewrite Hjp; unfold unset; lia).
+  assert (Hp : has s p) by (apply (has_of_field hAdj); exact Hjpu).
+  set (s1 := (upd s p (set hAdj (fun _ => unset))) <| adj := _ |>).
+  assert (Hnd : forall m, nd s1 m = if decide (m = p) then set hAdj (fun _ => unset) (nd s p) else nd s m).
+  { intros m. unfold s1. change (nd (upd s p (set hAdj (fun _ => unset)) <| adj := _ |>) m) with (nd (upd s p (set hAdj (fun _ => unset))) m).
+    apply nd_upd, Hp. }
+  assert (Hfld : forall {A} (g : node -> A), (forall y f, g (set hAdj f y) = g y) -> forall m, g (nd s1 m) = g (nd s m)).
+  { intros A g Hg m. rewrite Hnd. destruct (decide (m = p)) as [->|]; [apply Hg|reflexivity]. }
+  assert (Hlen : (x < length (a_byHeight (adj s)))%nat) by (eapply lookup_lt_Some; eauto).
+  assert (Hlook : forall j, a_byHeight (adj s1) !! j = if decide (j = x) then Some b' else a_byHeight (adj s) !! j).
+  { intros j. unfold s1. cbn. destruct (decide (j = x)) as [->|Hne].
+    - apply list_lookup_insert, Hlen.
+    - apply list_lookup_insert_ne. congruence. }
+  (* p occurs nowhere else *)
+  destruct (concat_insert_perm _ _ _ b' Hi) as (l1 & l2 & E1 & E2).
+  assert (Hnd1 : NoDup (l1 ++ (p :: b') ++ l2)) by (unfold adj_ids in A1; rewrite E1 in A1; exact A1).
+  assert (Hp_else : forall j q, a_byHeight (adj s1) !! j = Some q -> p ∉ q).
+  { intros j q Hj Hin.
+    assert (Hin' : p ∈ concat (a_byHeight (adj s1))) by (apply elem_of_concat_bk; exists j; unfold bk; rewrite Hj; exact Hin).
+    unfold s1 in Hin'. cbn in Hin'. rewrite E2 in Hin'.
+    apply NoDup_app in Hnd1 as (N1 & N2 & N3). apply stdpp.list.NoDup_app in N3 as (N4 & N5 & N6).
+    apply stdpp.list.NoDup_cons in N4 as [N7 N8].
+    apply elem_of_app in Hin' as [Hx|Hx]; [apply (N2 p Hx); apply elem_of_app; left; left|].
+    apply elem_of_app in Hx as [Hx|Hx]; [contradiction|]. apply (N5 p); [left|exact Hx]. }
+  split; [|split; [rewrite Hjp; reflexivity|exact Hjpu]].
+  constructor.
+  - unfold s1. cbn. lia.
+  - intros h Hh. rewrite Hlook. destruct (decide _); [eauto|]. apply (q_len s Q h Hh).
+  - intros j q n Hj Hn. rewrite Hlook in Hj.
+    assert (Hnp : n <> p) by (intros ->; apply (Hp_else j q); [rewrite Hlook; exact Hj|exact Hn]).
+    rewrite (Hnd n), decide_False by exact Hnp.
+    assert (Hb : exists q0, a_byHeight (adj s) !! j = Some q0 /\ n ∈ q0).
+    { destruct (decide (j = x)) as [->|]; [injection Hj as <-; exists (p :: b'); split; [exact Hi|right; exact Hn]|eauto]. }
+    destruct Hb as (q0 & Hq0 & Hn0). destruct (q_bucket s Q j q0 n Hq0 Hn0) as [B1 [B2 B3]].
+    split; [exact B1|]. unfold s1. cbn. split; [|exact B3].
+    (* nothing is queued below the bucket that was found *)
+    destruct (decide (x <= j)%nat) as [|Hlt]; [lia|]. exfalso.
+    assert (Hj' : (from <= j)%nat) by lia.
+    specialize (Hmin (j - from)%nat ltac:(lia)). rewrite lookup_drop in Hmin.
+    replace (from + (j - from))%nat with j in Hmin by lia. rewrite Hq0 in Hmin. injection Hmin as ->. inversion Hn0.
+  - intros m q. rewrite (Hfld _ inGraph), (Hfld _ parents), (Hfld _ scope), (Hfld _ height) by reflexivity.
+    intros Hm Hq. rewrite (Hnd q). destruct (decide (q = p)) as [->|]; [cbn; congruence|]. apply (q_edge s Q m q Hm Hq).
+Qed.
+
+Section adjust_nc.
+  Context (Pop : nid -> Prop).
+
+  Lemma ensure_AQ (exP exS : nid -> nid -> Prop) s oP c p s' :
+    HInv Pop exP exS s -> AQ s -> inGraph (nd s c) = true ->
+    (forall m, ~ exP m c) -> (forall m, ~ exS m c) -> a_lower (adj s) <= height (nd s c) ->
+    ensureHeightRequirement s oP c p = Ok (s', None) ->
+    AQ s' /\ a_lower (adj s') = a_lower (adj s) /\ (forall m, height (nd s m) <= height (nd s' m)).
+  Proof.
+    intros HI Q Hgc HexP HexS Hlow H. unfold ensureHeightRequirement in H.
+    destruct (bool_decide (oP = c)); [apply fail_inv in H as [_ ?]; discriminate|].
+    destruct (height (nd s p) >=? height (nd s c)) eqn:Ege.
+    2:{ apply ok_inv in H as [-> _]. split; [exact Q|]. split; [reflexivity|intros; lia]. }
+    apply Z.geb_le in Ege.
+    apply ebind_inv in H as (s1 & e1 & H1 & Hrest). apply lift_inv in H1 as [H1 ->].
+    destruct Hrest as [[_ H2]|(Hne & _)]; [|congruence].
+    assert (Hc : has s c) by (apply has_inGraph, Hgc).
+    destruct (h_range _ _ _ _ HI c Hgc) as [Hc0 Hcm].
+    (* after the insertion *)
+    assert (Q1 : AQ s1 /\ a_lower (adj s1) = a_lower (adj s) /\ (forall m, height (nd s1 m) = height (nd s m)) /\
+                 maxHeight s1 = maxHeight s /\ has s1 c /\
+                 (forall m, inGraph (nd s1 m) = inGraph (nd s m) /\ parents (nd s1 m) = parents (nd s m) /\ scope (nd s1 m) = scope (nd s m))).
+    { apply adjAdd_inv in H1 as [[E ->]|(E & Hh & q & Hq & ->)];
+        [split; [exact Q|]; split; [reflexivity|]; split; [reflexivity|]; split; [reflexivity|]; split; [exact Hc|]; intros m; auto|].
+      set (h := height (nd s c)) in *.
+      set (s1 := (upd s c (set hAdj (fun _ => h))) <| adj := _ |>).
+      assert (Hnd : forall m, nd s1 m = if decide (m = c) then set hAdj (fun _ => h) (nd s c) else nd s m).
+      { intros m. unfold s1. change (nd (upd s c (set hAdj (fun _ => h)) <| adj := _ |>) m) with (nd (upd s c (set hAdj (fun _ => h))) m).
+        apply nd_upd, Hc. }
+      assert (Hfld : forall {A} (g : node -> A), (forall y f, g (set hAdj f y) = g y) -> forall m, g (nd s1 m) = g (nd s m)).
+      { intros A g Hg m. rewrite Hnd. destruct (decide (m = c)) as [->|]; [apply Hg|reflexivity]. }
+      assert (Hlen : (Z.to_nat h < length (a_byHeight (adj s)))%nat) by (eapply lookup_lt_Some; eauto).
+      assert (Hlook : forall j, a_byHeight (adj s1) !! j = if decide (j = Z.to_nat h) then Some (q ++ [c]) else a_byHeight (adj s) !! j).
+      { intros j. unfold s1. cbn. destruct (decide (j = Z.to_nat h)) as [->|Hne].
+        - apply list_lookup_insert, Hlen.
+        - apply list_lookup_insert_ne. congruence. }
+      split; [|split; [reflexivity|split; [apply Hfld; reflexivity|split; [reflexivity|split; [unfold s1; apply has_upd, Hc|]]]]].
+      2:{ intros m. repeat split; apply Hfld; reflexivity. }
+      constructor.
+      - unfold s1. cbn. apply (q_lower s Q).
+      - intros h' Hh'. rewrite Hlook. destruct (decide _); [eauto|]. apply (q_len s Q h' Hh').
+      - intros j q' n Hj Hn. rewrite Hlook in Hj. unfold s1. cbn [adj a_lower a_maxSeen set].
+        assert (Hcase : (n = c /\ j = Z.to_nat h) \/ (exists q0, a_byHeight (adj s) !! j = Some q0 /\ n ∈ q0)).
+        { destruct (decide (j = Z.to_nat h)) as [->|]; [|right; eauto]. injection Hj as <-.
+          apply elem_of_app in Hn as [Hn| ->%elem_of_list_singleton]; [right; eauto|left; auto]. }
+        destruct Hcase as [[-> ->]|(q0 & Hq0 & Hn0)].
+        + rewrite Hnd, decide_True by reflexivity. cbn. rewrite Z2Nat.id by exact Hh. split; [reflexivity|]. cbn. lia.
+        + destruct (q_bucket s Q j q0 n Hq0 Hn0) as [B1 [B2 B3]].
+          assert (n <> c) by (intros ->; rewrite E in B1; unfold unset in B1; lia).
+          rewrite Hnd, decide_False by assumption. split; [exact B1|]. cbn. lia.
+      - intros m q'. rewrite (Hfld _ inGraph), (Hfld _ parents), (Hfld _ scope), (Hfld _ height) by reflexivity.
+        intros Hm Hq'. rewrite (Hnd q'). destruct (decide (q' = c)) as [->|]; [|apply (q_edge s Q m q' Hm Hq')].
+        cbn. intros _. destruct Hq' as [Hq'|Hq'].
+        + apply (h_par _ _ _ _ HI m c Hm Hq' E (HexP m)).
+        + apply (h_scope _ _ _ _ HI m c Hm Hq' E (HexS m)). }
+    destruct Q1 as (Q1 & Hl1 & Hh1 & Hmh1 & Hc1 & Hn1).
+    rewrite !Hh1 in H2.
+    assert (Hh2 : forall m, height (nd s' m) = if decide (m = c) then height (nd s p) + 1 else height (nd s m)).
+    { intros m. rewrite (height_nd_setHeight _ _ _ _ H2 m Hc1), Hh1. reflexivity. }
+    split; [|split].
+    - destruct Q1 as [B1 B2 B3 B4]. constructor.
+      + rewrite (a_lower_setHeight _ _ _ _ H2). exact B1.
+      + intros h. rewrite (maxHeight_setHeight _ _ _ _ H2), (a_byHeight_setHeight _ _ _ _ H2). apply B2.
+      + intros j q n. rewrite (a_byHeight_setHeight _ _ _ _ H2), (a_lower_setHeight _ _ _ _ H2), (a_maxSeen_setHeight _ _ _ _ H2).
+        rewrite (proj_nd_setHeight _ _ _ _ H2 hAdj) by reflexivity. intros Hj Hn.
+        destruct (B3 j q n Hj Hn) as [C1 [C2 C3]]. split; [exact C1|lia].
+      + intros m q. rewrite (proj_nd_setHeight _ _ _ _ H2 inGraph), (proj_nd_setHeight _ _ _ _ H2 parents),
+          (proj_nd_setHeight _ _ _ _ H2 scope), (proj_nd_setHeight _ _ _ _ H2 hAdj) by reflexivity.
+        intros Hm Hq Hj. pose proof (B4 m q Hm Hq Hj) as Hlt. rewrite Hh1 in Hlt. rewrite Hh2.
+        destruct (decide (m = c)) as [->|]; lia.
+    - rewrite (a_lower_setHeight _ _ _ _ H2). exact Hl1.
+    - intros m. rewrite Hh2. destruct (decide (m = c)) as [->|]; lia.
+  Qed.
+
+  Lemma nc_ensure (exP exS : nid -> nid -> Prop) s oP c p :
+    HInv Pop exP exS s -> AQ s -> inGraph (nd s c) = true -> nocrash (ensureHeightRequirement s oP c p).
+  Proof.
+    intros HI Q Hgc. unfold ensureHeightRequirement.
+    destruct (bool_decide (oP = c)); [apply nc_Ok|]. destruct (_ >=? _); [|apply nc_Ok].
+    apply nc_ebind; [|intros s1 _; apply nc_setHeight].
+    apply nc_lift, nc_adjAdd; [exact Q|]. intros _. apply (h_range _ _ _ _ HI c Hgc).
+  Qed.
+
+  Lemma AQ_only_heap s s' : only_heap s s' -> AQ s -> AQ s'.
+  Proof.
+    intros F [A B C D]. assert (Hnd : forall m, nd s' m = nd s m) by apply (oh_nd _ _ F).
+    constructor.
+    - rewrite (oh_adj _ _ F). exact A.
+    - intros h. rewrite (oh_adj _ _ F), (oh_maxHeight _ _ F). apply B.
+    - intros i q n. rewrite (oh_adj _ _ F), Hnd. apply C.
+    - intros m q. rewrite !Hnd. apply D.
+  Qed.
+
+  Lemma nc_adjustLoop fuel : forall s oP,
+    AStat Pop s -> HInv Pop noEx noEx s -> AQ s -> nocrash (adjustLoop fuel s oP).
+  Proof.
+    induction fuel as [|fuel IH]; intros s oP St HI Q; [apply nc_fuel|].
+    rewrite adjustLoop_S.
+    destruct (Z.leb_spec (a_num (adj s)) 0) as [Hle|Hpos]; [apply nc_Ok|].
+    destruct (pop_some s (h_adj _ _ _ _ HI) Q Hpos) as (p & s1 & H1).
+    apply nc_rbind; [rewrite H1; apply nc_Ok|]. intros [popped s1'] E. rewrite H1 in E. injection E as <- <-.
+    destruct (adj_ok_pop s p s1 (h_adj _ _ _ _ HI) H1) as (A1 & F1 & Hw1 & Hjp & Hh1 & Hj1).
+    destruct (pop_AQ s p s1 (h_adj _ _ _ _ HI) Q H1) as (Q1 & Hx & _).
+    set (x := hAdj (nd s p)) in *.
+    assert (Hp : has s p) by (apply (has_of_field hAdj); exact Hjp).
+    assert (Hpp : Pop p) by (apply (h_pop _ _ _ _ HI), Hjp).
+    assert (Hg1 : forall m, inGraph (nd s1 m) = inGraph (nd s m)) by (intros m; apply (af_node _ _ F1 m)).
+    (* every dependent of p lies above the block p was found in *)
+    assert (Bnd0 : forall m, inGraph (nd s m) = true -> p ∈ parents (nd s m) \/ scope (nd s m) = Some p -> x < height (nd s m)).
+    { intros m Hm Hq. apply (q_edge s Q m p Hm Hq Hjp). }
+    destruct (h_heap _ _ _ _ HI) as [E1 E2].
+    assert (E1' : hinv (heap s1)) by (rewrite Hw1; exact E1).
+    apply nc_ebind.
+    { apply nc_lift. destruct (inHeap s1 p) eqn:Em; [|apply nc_Ok]. apply nc_heapFix; [exact E1'|exact Em|].
+      assert (Hin : p ∈ Heap.ids (heap s)).
+      { apply (inHeap_iff s p E1). unfold inHeap in *. rewrite <- Hw1. exact Em. }
+      destruct (E2 p Hin) as [Hgp _]. rewrite Hh1. apply (h_range _ _ _ _ HI p Hgp). }
+    intros s2 H2. apply lift_inv in H2 as [H2 _].
+    assert (F12 : only_heap s1 s2 /\ hinv (heap s2) /\
+                  (forall n, n ∈ Heap.ids (heap s2) ->
+                     inGraph (nd s1 n) = true /\ (hAdj (nd s1 n) = unset -> Heap.hinOf (heap s2) n = height (nd s1 n)))).
+    { destruct (inHeap s1 p) eqn:Em.
+      - assert (Hin : p ∈ Heap.ids (heap s)).
+        { apply (inHeap_iff s p E1). unfold inHeap in *. rewrite <- Hw1. exact Em. }
+        destruct (E2 p Hin) as [Hgp _].
+        assert (Hhp : 0 <= height (nd s1 p)) by (rewrite Hh1; apply (h_range _ _ _ _ HI p Hgp)).
+        destruct (heapFix_spec s1 p s2 E1' Em Hhp H2) as (F & I' & P & Hin').
+        split; [exact F|]. split; [exact I'|]. intros n. rewrite P, Hw1, Hin', ?Hw1. intros Hn.
+        destruct (E2 n Hn) as [Hgn Hhn]. rewrite Hg1. split; [exact Hgn|].
+        destruct (decide (n = p)) as [->|Hnp]; [reflexivity|].
+        rewrite Hj1, decide_False, Hh1 by exact Hnp. exact Hhn.
+      - injection H2 as <-. split; [apply only_heap_refl|]. split; [exact E1'|].
+        intros n. rewrite Hw1. intros Hn. destruct (E2 n Hn) as [Hgn Hhn]. rewrite Hg1. split; [exact Hgn|].
+        assert (Hnp : n <> p).
+        { intros ->. apply (inHeap_iff s p E1) in Hn. unfold inHeap in *. rewrite Hw1 in Em. congruence. }
+        rewrite Hj1, decide_False, Hh1 by exact Hnp. exact Hhn. }
+    destruct F12 as (F12 & Hi2 & Hq2).
+    assert (F2 : aj_frame s s2) by (eapply aj_frame_trans; [exact F1|apply aj_frame_only_heap, F12]).
+    assert (St2 : AStat Pop s2) by (apply (AStat_frame Pop s s2 F2 St)).
+    assert (Hnd2 : forall m, nd s2 m = nd s1 m) by apply (oh_nd _ _ F12).
+    pose proof (AQ_only_heap s1 s2 F12 Q1) as Q2.
+    assert (Hx2 : a_lower (adj s2) = x) by (rewrite (oh_adj _ _ F12); exact Hx).
+    assert (HI2 : HInv Pop (fun m q => q = p /\ m ∈ children (nd s2 p)) (fun m q => q = p) s2).
+    { destruct HI as [A B C D E G GP]. constructor.
+      - intros m. rewrite Hnd2, Hg1, Hh1, (af_maxHeight _ _ F2). apply A.
+      - intros m q. rewrite !Hnd2, Hg1, !Hh1, Hj1. destruct (af_node _ _ F1 m) as (_&_&_&->&_).
+        intros Hm Hq Hj Hex. destruct (decide (q = p)) as [->|Hqp].
+        + exfalso. apply Hex. split; [reflexivity|]. destruct (af_node _ _ F1 p) as (_&_&_&_&->&_).
+          apply (edges_parent_child s m p (as_edges Pop s St)), Hq.
+        + apply B; auto.
+      - intros m q. rewrite !Hnd2, Hg1, !Hh1, Hj1. destruct (af_node _ _ F1 m) as (_&_&->&_).
+        intros Hm Hq Hj Hex. destruct (decide (q = p)) as [->|Hqp]; [exfalso; apply Hex; reflexivity|].
+        apply C; auto.
+      - intros m. rewrite Hnd2, Hg1, Hh1. apply D.
+      - split; [exact Hi2|]. intros n Hn. rewrite !Hnd2. apply Hq2, Hn.
+      - apply (adj_ok_frame s1 s2); auto.
+        + unfold adj_ids. rewrite (oh_adj _ _ F12). reflexivity.
+        + rewrite (oh_adj _ _ F12). reflexivity.
+        + intros m. rewrite Hnd2. reflexivity.
+      - intros y. rewrite Hnd2, Hj1. destruct (decide (y = p)); [congruence|apply GP]. }
+    (* the bound, as a loop invariant *)
+    pose (Bnd := fun st : state => forall m, inGraph (nd s m) = true -> p ∈ parents (nd s m) \/ scope (nd s m) = Some p -> x < height (nd st m)).
+    assert (Bnd2 : Bnd s2) by (intros m Hm Hq; rewrite Hnd2, Hh1; apply Bnd0; assumption).
+    assert (Bnd_mono : forall st st', Bnd st -> (forall m, height (nd st m) <= height (nd st' m)) -> Bnd st').
+    { intros st st' B Hmono m Hm Hq. specialize (B m Hm Hq). specialize (Hmono m). lia. }
+    (* the children of p *)
+    pose (I3 := fun (rest : list nid) (st : state) =>
+      (HInv Pop (fun m q => q = p /\ m ∈ rest) (fun m q => q = p) st /\ aj_frame s2 st /\ nd st p = nd s2 p /\
+       (forall c, c ∈ rest -> c ∈ children (nd s2 p))) /\ AQ st /\ a_lower (adj st) = x /\ Bnd st).
+    assert (Step3 : forall c rest st, I3 (c :: rest) st ->
+              nocrash (ensureHeightRequirement st oP c p) /\
+              forall st1, ensureHeightRequirement st oP c p = Ok (st1, None) -> I3 rest st1).
+    { intros c rest st ((Hst & Fst & Ep & Hsub) & Qst & Hxst & Bst).
+      assert (Stst : AStat Pop st) by (apply (AStat_frame Pop s2 st Fst St2)).
+      destruct (as_child Pop s2 St2 c p (Hsub c ltac:(left))) as [Hgc Hcp].
+      assert (Hgc' : inGraph (nd st c) = true).
+      { destruct (af_node _ _ Fst c) as (_&_&_&_&_&_&_&_&->&_). exact Hgc. }
+      assert (Hpopc : Pop c).
+      { apply (as_pop Pop st Stst c p Hpp Hgc'). left.
+        destruct (af_node _ _ Fst p) as (_&_&_&_&->&_). apply Hsub. left. }
+      split; [apply (nc_ensure _ _ st oP c p Hst Qst Hgc')|]. intros st1 Hc.
+      pose proof (ensure_spec Pop _ _ st oP c p st1 None Hst Hgc' Hcp Hpopc Hc) as (E1a & E2a & E3a & _).
+      assert (Hcs : inGraph (nd s c) = true /\ p ∈ parents (nd s c)).
+      { split.
+        - rewrite <- Hg1, <- Hnd2. exact Hgc.
+        - apply (edges_parent_child s c p (as_edges Pop s St)).
+          destruct (af_node _ _ F2 p) as (_&_&_&_&<-&_). apply Hsub. left. }
+      destruct (ensure_AQ _ _ st oP c p st1 Hst Qst Hgc') as (Qa & Qb & Qc).
+      { intros m [Hcp' _]. contradiction. }
+      { intros m Hcp'. contradiction. }
+      { rewrite Hxst. specialize (Bst c (proj1 Hcs) (or_introl (proj2 Hcs))). lia. }
+      { exact Hc. }
+      split; [|split; [exact Qa|split; [congruence|apply (Bnd_mono st st1 Bst Qc)]]].
+      split; [|split; [eapply aj_frame_trans; eauto|split]].
+      - eapply HInv_weaken; [| |exact E1a].
+        + intros m q _ _ [[-> Hm] Hne]. split; [reflexivity|].
+          apply elem_of_cons in Hm as [->|Hm]; [exfalso; apply Hne; auto|exact Hm].
+        + intros m q _ _ [-> _]. reflexivity.
+      - rewrite E3a by congruence. exact Ep.
+      - intros c' Hc'. apply Hsub. right. exact Hc'. }
+    assert (I30 : I3 (children (nd s2 p)) s2).
+    { split; [split; [exact HI2|split; [apply aj_frame_refl|split; [reflexivity|auto]]]|]. split; [exact Q2|split; [exact Hx2|exact Bnd2]]. }
+    apply nc_ebind; [apply (nc_efold I3); [exact I30|exact Step3]|]. intros s3 H3.
+    assert (L3 : I3 [] s3).
+    { refine (efold_inv I3 (fun _ _ => True) (fun s c => ensureHeightRequirement s oP c p) _ _ _ None I30 _ H3).
+      intros c rest st st1 e1 HIst Hc. destruct e1; [exact Logic.I|]. apply (proj2 (Step3 c rest st HIst) st1 Hc). }
+    destruct L3 as ((HI3 & F3 & Ep3 & _) & Q3 & Hx3 & Bnd3).
+    assert (F03 : aj_frame s s3) by (eapply aj_frame_trans; eauto).
+    assert (St3 : AStat Pop s3) by (apply (AStat_frame Pop s s3 F03 St)).
+    assert (Hp3 : has s3 p) by (apply (af_has _ _ F03), Hp).
+    (* the scope nodes of p *)
+    assert (Scope : nocrash (match nkind (nd s3 p) with
+                             | KBindLhs b => efold (fun s r => if isNecessary (nd s r) then ensureHeightRequirement s oP r p else ok s)
+                                                   (b_rhsNodes (bd s3 b)) s3
+                             | _ => ok s3 end) /\
+                    forall s4, (match nkind (nd s3 p) with
+                             | KBindLhs b => efold (fun s r => if isNecessary (nd s r) then ensureHeightRequirement s oP r p else ok s)
+                                                   (b_rhsNodes (bd s3 b)) s3
+                             | _ => ok s3 end) = Ok (s4, None) -> HInv Pop noEx noEx s4 /\ aj_frame s3 s4 /\ AQ s4).
+    { destruct (nkind (nd s3 p)) as [| | | | | | |b|b] eqn:Ek;
+        try (split; [apply nc_Ok|]; intros s4 [-> _]%ok_inv; split; [|split; [apply aj_frame_refl|exact Q3]];
+             eapply HInv_weaken; [| |exact HI3];
+             [intros m q _ _ [_ Hm]; inversion Hm
+             |intros m q Hm Hq ->; destruct (as_scope Pop s3 St3 m p Hm Hq Hpp) as (_ & Hk & _); congruence]).
+      assert (b = p) as -> by (apply (as_kind Pop s3 St3 p b Hp3 Ek)).
+      pose (I4 := fun (rest : list nid) (st : state) =>
+        (HInv Pop noEx (fun m q => q = p /\ m ∈ rest) st /\ aj_frame s3 st /\
+         (forall r, r ∈ rest -> r ∈ b_rhsNodes (bd s3 p))) /\ AQ st /\ a_lower (adj st) = x /\ Bnd st).
+      assert (I40 : I4 (b_rhsNodes (bd s3 p)) s3).
+      { split; [|split; [exact Q3|split; [exact Hx3|exact Bnd3]]].
+        split; [|split; [apply aj_frame_refl|auto]]. eapply HInv_weaken; [| |exact HI3].
+        - intros m q _ _ [_ Hm]. inversion Hm.
+        - intros m q Hm Hq ->. split; [reflexivity|]. apply (as_scope Pop s3 St3 m p Hm Hq Hpp). }
+      assert (Step4 : forall r rest st, I4 (r :: rest) st ->
+                nocrash (if isNecessary (nd st r) then ensureHeightRequirement st oP r p else ok st) /\
+                forall st1, (if isNecessary (nd st r) then ensureHeightRequirement st oP r p else ok st) = Ok (st1, None) -> I4 rest st1).
+      { intros r rest st ((Hst & Fst & Hsub) & Qst & Hxst & Bst).
+        assert (Fst' : aj_frame s st) by (eapply aj_frame_trans; eauto).
+        assert (Stst : AStat Pop st) by (apply (AStat_frame Pop s st Fst' St)).
+        destruct (as_rhs Pop s3 St3 p r (Hsub r ltac:(left))) as [Hrp Hrs].
+        destruct (isNecessary (nd st r)) eqn:En.
+        - assert (Hgr : inGraph (nd st r) = true) by (rewrite (as_nec Pop st Stst r); exact En).
+          assert (Hpopr : Pop r).
+          { apply (as_pop Pop st Stst r p Hpp Hgr). right. destruct (af_node _ _ Fst r) as (_&_&->&_). exact Hrs. }
+          split; [apply (nc_ensure _ _ st oP r p Hst Qst Hgr)|]. intros st1 Hr.
+          pose proof (ensure_spec Pop _ _ st oP r p st1 None Hst Hgr Hrp Hpopr Hr) as (E1a & E2a & _).
+          assert (Hrs0 : inGraph (nd s r) = true /\ scope (nd s r) = Some p).
+          { split.
+            - destruct (af_node _ _ Fst' r) as (_&_&_&_&_&_&_&_&<-&_). exact Hgr.
+            - destruct (af_node _ _ F03 r) as (_&_&<-&_). exact Hrs. }
+          destruct (ensure_AQ _ _ st oP r p st1 Hst Qst Hgr) as (Qa & Qb & Qc).
+          { intros m []. }
+          { intros m [Hrp' _]. contradiction. }
+          { rewrite Hxst. specialize (Bst r (proj1 Hrs0) (or_intror (proj2 Hrs0))). lia. }
+          { exact Hr. }
+          split; [|split; [exact Qa|split; [congruence|apply (Bnd_mono st st1 Bst Qc)]]].
+          split; [|split; [eapply aj_frame_trans; eauto|]].
+          + eapply HInv_weaken; [| |exact E1a].
+            * intros m q _ _ [[] _].
+            * intros m q _ _ [[-> Hm] Hne]. split; [reflexivity|].
+              apply elem_of_cons in Hm as [->|Hm]; [exfalso; apply Hne; auto|exact Hm].
+          + intros r' Hr'. apply Hsub. right. exact Hr'.
+        - split; [apply nc_Ok|]. intros st1 [-> _]%ok_inv.
+          assert (Hgr : inGraph (nd st r) = false) by (rewrite (as_nec Pop st Stst r); exact En).
+          split; [|split; [exact Qst|split; [exact Hxst|exact Bst]]].
+          split; [|split; [exact Fst|]].
+          + eapply HInv_weaken; [| |exact Hst].
+            * intros m q _ _ [].
+            * intros m q Hm _ [-> Hm']. split; [reflexivity|].
+              apply elem_of_cons in Hm' as [->|Hm']; [congruence|exact Hm'].
+          + intros r' Hr'. apply Hsub. right. exact Hr'. }
+      split; [apply (nc_efold I4); [exact I40|exact Step4]|]. intros s4 H4.
+      assert (L4 : I4 [] s4).
+      { refine (efold_inv I4 (fun _ _ => True) _ _ _ _ None I40 _ H4).
+        intros r rest st st1 e1 HIst Hr. destruct e1; [exact Logic.I|]. apply (proj2 (Step4 r rest st HIst) st1 Hr). }
+      destruct L4 as ((A & B & _) & Q4 & _). split; [|split; [exact B|exact Q4]].
+      eapply HInv_weaken; [| |exact A].
+      - intros m q _ _ [].
+      - intros m q _ _ [_ Hm]. inversion Hm. }
+    destruct Scope as [Sc1 Sc2].
+    apply nc_ebind; [exact Sc1|]. intros s4 H4. destruct (Sc2 s4 H4) as (HI4 & F4 & Q4).
+    assert (F04 : aj_frame s s4) by (eapply aj_frame_trans; eauto).
+    apply (IH s4 oP (AStat_frame Pop s s4 F04 St) HI4 Q4).
+  Qed.
+
+  Lemma nc_adjustHeights fuel s oC oP :
+    AStat Pop s -> HInv Pop (fun m q => m = oC /\ q = oP) noEx s -> adj_idle s -> shape_ok s ->
+    inGraph (nd s oC) = true -> oC <> oP -> Pop oC -> nocrash (adjustHeights fuel s oC oP).
+  Proof.
+    intros St HI (I1 & I2 & I3) Hsh Hg Hne Hpo. unfold adjustHeights.
+    set (s0 := s <| adj := adj s <| a_lower := height (nd s oC) |> |>) in *.
+    assert (F0 : aj_frame s s0).
+    { split; try reflexivity. intros m. repeat split. }
+    assert (HI0 : HInv Pop (fun m q => m = oC /\ q = oP) noEx s0).
+    { destruct HI as [A B C D E G GP]. constructor; auto. destruct G as [G1 G2 G3]. split; auto. }
+    assert (Q0 : AQ s0).
+    { constructor.
+      - unfold s0. cbn. apply (h_range _ _ _ _ HI oC Hg).
+      - intros h Hh. change (maxHeight s0) with (maxHeight s) in Hh. unfold s0. cbn. apply lookup_lt_is_Some. rewrite (sh_len s Hsh). lia.
+      - intros i q n Hi Hn. exfalso. unfold s0 in Hi. cbn in Hi.
+        rewrite stdpp.list.Forall_forall in I2. rewrite (I2 q) in Hn; [inversion Hn|]. eapply elem_of_list_lookup_2, Hi.
+      - intros m q _ _ Hj. exfalso. apply Hj. change (nd s0 q) with (nd s q). apply I3. }
+    apply nc_ebind; [apply (nc_ensure _ _ s0 oP oC oP HI0 Q0 Hg)|]. intros s1 H1.
+    pose proof (ensure_spec Pop _ _ s0 oP oC oP s1 None HI0 Hg Hne Hpo H1) as (E1 & E2 & _).
+    destruct (ensure_AQ _ _ s0 oP oC oP s1 HI0 Q0 Hg) as (Q1 & _).
+    { intros m [_ ->]. contradiction. }
+    { intros m []. }
+    { unfold s0. cbn. change (nd (s <| adj := adj s <| a_lower := height (nd s oC) |> |>) oC) with (nd s oC). lia. }
+    { exact H1. }
+    assert (F01 : aj_frame s s1) by (eapply aj_frame_trans; eauto).
+    assert (HI1 : HInv Pop noEx noEx s1).
+    { eapply HInv_weaken; [| |exact E1].
+      - intros m q _ _ [[-> ->] Hn]. apply Hn. auto.
+      - intros m q _ _ [[] _]. }
+    apply (nc_adjustLoop fuel s1 oP (AStat_frame Pop s s1 F01 St) HI1 Q1).
+  Qed.
+End adjust_nc.
 
 Lemma addChild_spec fuel s c p s' e :
   Sta s -> BInv [c] s -> adj_idle s -> invq s = [] ->
@@ -4210,6 +5042,173 @@ Proof.
   - apply ok_inv in H as [-> ->]. auto.
 Qed.
 
+Lemma nc_addChild fuel s c p :
+  Sta s -> BInv [c] s -> adj_idle s -> shape_ok s -> invq s = [] ->
+  (forall n b, has s n -> scope (nd s n) = Some b -> ~ inGen s b n ->
+     valid (nd s n) = false \/ (inGraph (nd s b) = true /\ height (nd s b) < height (nd s c))) ->
+  has s c -> has s p ->
+  inGraph (nd s c) = true -> isNecessary (nd s c) = true -> valid (nd s p) = true ->
+  parents (nd s c) ++ [p] = decl (nd s c) ->
+  0 <= height (nd s c) < maxHeight s ->
+  scopeHeight s (scope (nd s c)) < height (nd s c) ->
+  (forall q, q ∈ parents (nd s c) -> height (nd s q) < height (nd s c)) ->
+  (forall b, scope (nd s p) = Some b -> inGraph (nd s b) = true) ->
+  nocrash (addChild fuel s c p).
+Proof.
+  intros St B Hidle Hshape Hq0 Hdead Hc Hp Hgc Hnc Hvp Hpar Hrange Hscope Hlow Hsregp.
+  assert (Hpd : p ∈ decl (nd s c)) by (rewrite <- Hpar; apply elem_of_app; right; left).
+  assert (Hpc : p <> c) by (intros ->; apply (no_cycle s c c St (dr_refl s c) Hpd)).
+  assert (Hnpc : ~ dreach s p c).
+  { intros Hr. apply Hpc. apply (no_cycle2 s p c St Hr). eapply dr_step; [apply dr_refl|exact Hpd]. }
+  unfold addChild, addChildWithoutAdjustingHeights.
+  set (s1 := link s c p) in *.
+  assert (Hv1 : valid (nd s1 p) = true) by (unfold s1; rewrite valid_nd_link; exact Hvp).
+  rewrite Hv1.
+  pose proof (BInv_link [] s c p B Hc Hp Hgc) as B1.
+  assert (F1 : bn_frame s s1) by apply bn_frame_link.
+  assert (St1 : Sta s1) by (apply (Sta_bn_frame s s1 F1 St)).
+  assert (Hpar1 : parents (nd s1 c) = decl (nd s1 c)).
+  { unfold s1. rewrite parents_nd_link by exact Hc. rewrite decide_True, decl_nd_link by reflexivity. exact Hpar. }
+  assert (Hchi1 : children (nd s1 p) = children (nd s p) ++ [c]).
+  { unfold s1. rewrite children_nd_link by exact Hp. rewrite decide_True by reflexivity. reflexivity. }
+  assert (Hg1 : forall m, inGraph (nd s1 m) = inGraph (nd s m)) by (intros; apply inGraph_nd_link).
+  assert (Hh1 : forall m, height (nd s1 m) = height (nd s m)) by (intros; apply height_nd_link).
+  assert (HpX : p ∉ [c]) by (intros Hx; apply elem_of_list_singleton in Hx; contradiction).
+  (* the preconditions of making the input necessary *)
+  assert (Pre : isNecessary (nd s p) = false ->
+            has s1 p /\ inGraph (nd s1 p) = false /\ isNecessary (nd s1 p) = true /\
+            (forall x, x ∈ children (nd s1 p) -> x ∈ [c]) /\
+            (forall b, scope (nd s1 p) = Some b -> inGraph (nd s1 b) = true) /\
+            (forall x, x ∈ [c] -> exists m, dreach s1 x m /\ p ∈ decl (nd s1 m))).
+  { intros Enec. assert (Hgp : inGraph (nd s p) = false) by (rewrite (b_nec _ _ B p HpX); exact Enec).
+    split; [apply has_link, Hp|]. split; [rewrite Hg1; exact Hgp|]. split.
+    { apply isNecessary_true. right; left. rewrite Hchi1. intros E. apply app_eq_nil in E as [_ E]. discriminate. }
+    split.
+    { intros x. rewrite Hchi1. destruct (b_zero2 _ _ B p HpX Hgp) as [-> _]. intros ->%elem_of_list_singleton. left. }
+    split.
+    { intros b. rewrite Hg1. unfold s1. rewrite scope_nd_link. apply Hsregp. }
+    intros x ->%elem_of_list_singleton. exists c. split; [apply dr_refl|]. unfold s1. rewrite decl_nd_link. exact Hpd. }
+  apply nc_ebind.
+  { destruct (isNecessary (nd s p)) eqn:Enec; [apply nc_Ok|].
+    destruct (Pre eq_refl) as (P1 & P2 & P3 & P4 & P5 & P6).
+    apply (nc_BN fuel s1 p [c] St1 B1 P1 P2 P3 Hv1 P4 P5 P6). }
+  intros s2 H2.
+  assert (Mid : BInv [c] s2 /\ bn_frame s1 s2 /\ nd s2 c = nd s1 c /\ invq s2 = invq s1 /\
+                inGraph (nd s2 p) = true /\
+                (forall m, inGraph (nd s1 m) = true -> height (nd s2 m) = height (nd s1 m))).
+  { destruct (isNecessary (nd s p)) eqn:Enec.
+    - apply ok_inv in H2 as [-> _].
+      assert (Hgp : inGraph (nd s p) = true) by (rewrite (b_nec _ _ B p HpX); exact Enec).
+      split; [|split; [apply bn_frame_refl|repeat split; auto]]; [|rewrite Hg1; exact Hgp].
+      apply (BInv_close [c] s1 p B1).
+      + rewrite Hg1, Hgp. discriminate.
+      + rewrite Hg1, Hgp. symmetry. apply isNecessary_true. right; left. rewrite Hchi1.
+        intros E. apply app_eq_nil in E as [_ E]. discriminate.
+      + intros _. split.
+        * unfold s1. rewrite parents_nd_link by exact Hc. rewrite decide_False by exact Hpc.
+          rewrite decl_nd_link. apply (b_par _ _ B p HpX Hgp).
+        * apply (good_h_ext s s1); auto; unfold s1; autorewrite with eng; try reflexivity.
+          -- rewrite parents_nd_link by exact Hc. rewrite decide_False by exact Hpc. reflexivity.
+          -- apply (b_height _ _ B p HpX Hgp).
+    - destruct (Pre eq_refl) as (P1 & P2 & P3 & P4 & P5 & P6).
+      pose proof (BN_spec_all fuel s1 p [c] s2 None St1 B1 P1 P2 P3 Hv1 P4 P5 P6 H2) as Post'.
+      destruct (BN_frame fuel s1 p s2 None H2) as [F2 T2].
+      destruct Post' as [Q1 Q2 Q3 Q4 Q5 Q6].
+      split; [exact Q1|]. split; [exact F2|]. split; [|split; [exact Q2|split; [exact Q3|exact Q4]]].
+      apply T2. intros Hr. apply Hnpc. apply (dreach_ext s1 s); [|exact Hr].
+      intros m. unfold s1. rewrite decl_nd_link. reflexivity. }
+  destruct Mid as (B2 & F2 & Ec2 & Iq2 & Gp2 & Hh2).
+  assert (F02 : bn_frame s s2) by (eapply bn_frame_trans; eauto).
+  assert (St2 : Sta s2) by (apply (Sta_bn_frame s s2 F02 St)).
+  assert (Hidle2 : adj_idle s2) by (apply (adj_idle_bn s s2 F02 Hidle)).
+  assert (Hshape2 : shape_ok s2).
+  { destruct Hshape as [A1 A2]. split; rewrite ?(bf_byHeight _ _ F02), (bf_maxHeight _ _ F02); assumption. }
+  assert (Hq2 : invq s2 = []) by (rewrite Iq2; unfold s1; rewrite invq_link; exact Hq0).
+  assert (Hgc2 : inGraph (nd s2 c) = true) by (rewrite Ec2, Hg1; exact Hgc).
+  assert (Hhc2 : height (nd s2 c) = height (nd s c)) by (rewrite Ec2; apply Hh1).
+  assert (Hpar2 : parents (nd s2 c) = decl (nd s2 c)).
+  { rewrite Ec2. exact Hpar1. }
+  assert (Hparc2 : parents (nd s2 c) = parents (nd s c) ++ [p]).
+  { rewrite Ec2. unfold s1. rewrite parents_nd_link by exact Hc. rewrite decide_True by reflexivity. reflexivity. }
+  assert (Hnc2 : isNecessary (nd s2 c) = true).
+  { rewrite Ec2. rewrite <- Hnc. apply isNecessary_ext; unfold s1; autorewrite with eng; auto.
+    rewrite children_nd_link by exact Hp. rewrite decide_False by congruence. reflexivity. }
+  assert (Hold : forall q, q ∈ parents (nd s c) -> height (nd s2 q) = height (nd s q)).
+  { intros q Hq. rewrite Hh2, Hh1; [reflexivity|]. rewrite Hg1.
+    apply (BInv_parent_registered [c] s c q B Hq). intros Hx%elem_of_list_singleton. subst q.
+    apply (no_cycle s c c St (dr_refl s c)). rewrite <- Hpar. apply elem_of_app. left. exact Hq. }
+  assert (Hmh2 : maxHeight s2 = maxHeight s) by (rewrite (bf_maxHeight _ _ F02); reflexivity).
+  assert (Hscc2 : scope (nd s2 c) = scope (nd s c)) by apply (bf_static _ _ F02 c).
+  assert (Hsch2 : scopeHeight s2 (scope (nd s2 c)) = scopeHeight s (scope (nd s c))).
+  { rewrite Hscc2. unfold scopeHeight. destruct (scope (nd s c)) as [b|] eqn:Eb; [|reflexivity].
+    rewrite Hh2, Hh1; [reflexivity|]. rewrite Hg1. apply (b_sreg _ _ B c b Hgc Eb). }
+  (* heights *)
+  assert (Adj : nocrash (if height (nd s2 p) >=? height (nd s2 c) then adjustHeights fuel s2 c p else ok s2) /\
+                forall s3, (if height (nd s2 p) >=? height (nd s2 c) then adjustHeights fuel s2 c p else ok s2) = Ok (s3, None) ->
+                  BInv [] s3 /\ invq s3 = [] /\ inGraph (nd s3 c) = true).
+  { destruct (Z.geb_spec (height (nd s2 p)) (height (nd s2 c))) as [Hge|Hlt].
+    - set (Pop := fun x => height (nd s2 c) <= height (nd s2 x)).
+      assert (HI : HInv Pop (fun m q => m = c /\ q = p) noEx s2).
+      { destruct Hidle2 as (I1 & I2 & I3). constructor.
+        - intros m Hm. destruct (decide (m = c)) as [->|Hmc]; [rewrite Hhc2, Hmh2; exact Hrange|].
+          apply (b_height _ _ B2 m); [intros Hx%elem_of_list_singleton; contradiction|exact Hm].
+        - intros m q Hm Hq _ Hex. destruct (decide (m = c)) as [->|Hmc].
+          + rewrite Hparc2, elem_of_app, elem_of_list_singleton in Hq. destruct Hq as [Hq| ->]; [|exfalso; apply Hex; auto].
+            rewrite Hhc2, (Hold q Hq). apply Hlow, Hq.
+          + apply (b_height _ _ B2 m); [intros Hx%elem_of_list_singleton; contradiction|exact Hm|exact Hq].
+        - intros m b Hm Hb _ _. destruct (decide (m = c)) as [->|Hmc].
+          + pose proof Hscope as Hs. rewrite <- Hsch2, Hb in Hs. simpl in Hs. rewrite Hhc2. exact Hs.
+          + destruct (b_height _ _ B2 m ltac:(intros Hx%elem_of_list_singleton; contradiction) Hm) as (_ & _ & Hs).
+            rewrite Hb in Hs. exact Hs.
+        - intros m Hm. apply (b_zero1 _ _ B2 m Hm).
+        - destruct (b_heap _ _ B2) as [E1 E2]. split; [exact E1|]. intros n Hn. destruct (E2 n Hn). auto.
+        - apply adj_idle_ok. repeat split; assumption.
+        - intros x Hx. rewrite I3 in Hx. congruence. }
+      assert (AS : AStat Pop s2).
+      { apply (AStat_of Pop [c] s2 St2 B2).
+        - intros x ->%elem_of_list_singleton. split; [rewrite Hgc2, Hnc2; reflexivity|].
+          intros q. rewrite Hpar2. auto.
+        - intros n b. rewrite (bf_has _ _ F02). destruct (bf_static _ _ F02 n) as (_ & _ & -> & -> & _).
+          unfold inGen, bd. rewrite (bf_binds _ _ F02). intros Hn Hs Hno Hpb.
+          destruct (Hdead n b Hn Hs Hno) as [Hv|[Hgb Hhb]]; [exact Hv|]. exfalso. unfold Pop in Hpb.
+          rewrite Hhc2 in Hpb. rewrite Hh2, Hh1 in Hpb by (rewrite Hg1; exact Hgb). lia.
+        - intros c' q Hpq Hgc' [Hc'|Hc'].
+          + destruct (decide (c' = c)) as [->|Hne]; [unfold Pop; lia|].
+            apply (edges_parent_child s2 c' q (b_edges _ _ B2)) in Hc'.
+            pose proof (h_par _ _ _ _ HI c' q Hgc' Hc' (proj2 (proj2 Hidle2) q)) as Hlt.
+            unfold Pop in *. assert (height (nd s2 q) < height (nd s2 c')); [|lia].
+            apply Hlt. intros [? _]. contradiction.
+          + pose proof (h_scope _ _ _ _ HI c' q Hgc' Hc' (proj2 (proj2 Hidle2) q)) as Hlt.
+            unfold Pop in *. assert (height (nd s2 q) < height (nd s2 c')); [|lia]. apply Hlt. intros []. }
+      split; [apply (nc_adjustHeights Pop fuel s2 c p AS HI Hidle2 Hshape2 Hgc2 ltac:(congruence) ltac:(unfold Pop; lia))|].
+      intros s3 H3.
+      pose proof (adjustHeights_spec Pop fuel s2 c p s3 None AS HI Hgc2 ltac:(congruence) ltac:(unfold Pop; lia) H3) as (R1 & R2 & R3).
+      destruct (HInv_done Pop s3 R1 R2) as (D1 & D2 & D3 & D4 & D5).
+      split; [|split; [rewrite (af_invq _ _ R3); exact Hq2|destruct (af_node _ _ R3 c) as (_&_&_&_&_&_&_&_&->&_); exact Hgc2]].
+      apply (BInv_after_adjust [c] s2 s3 B2 R3 D4 D5).
+      + intros m. apply (h_zero _ _ _ _ R1).
+      + intros x ->%elem_of_list_singleton. auto.
+    - split; [apply nc_Ok|]. intros s3 [-> _]%ok_inv. split; [|split; [exact Hq2|exact Hgc2]].
+      apply (BInv_close [] s2 c B2).
+      + rewrite Hgc2. discriminate.
+      + rewrite Hgc2, Hnc2. reflexivity.
+      + intros _. split; [exact Hpar2|]. split; [rewrite Hhc2, Hmh2; exact Hrange|]. split.
+        * intros q. rewrite Hparc2, elem_of_app, elem_of_list_singleton. intros [Hq| ->]; [|exact Hlt].
+          rewrite Hhc2, (Hold q Hq). apply Hlow, Hq.
+        * rewrite Hsch2, Hhc2. exact Hscope. }
+  destruct Adj as [Adj1 Adj2].
+  apply nc_ebind; [exact Adj1|]. intros s3 H3. destruct (Adj2 s3 H3) as (B3 & Hq3 & Hgc3).
+  assert (Hprop : forall k, propagateInvalidity k s3 = OutOfFuel \/ propagateInvalidity k s3 = Ok s3).
+  { intros [|k]; [left; reflexivity|right; apply (propagateInvalidity_nil k s3 Hq3)]. }
+  apply nc_ebind.
+  { apply nc_lift. destruct (Hprop fuel) as [-> | ->]; [apply nc_fuel|apply nc_Ok]. }
+  intros s4 H4. apply lift_inv in H4 as [H4 _].
+  assert (E4 : s4 = s3) by (destruct (Hprop fuel) as [E|E]; rewrite E in H4; congruence). subst s4.
+  destruct (_ || _); [|apply nc_Ok]. apply nc_lift.
+  apply nc_heapAddIfNotPresent; [apply (b_heap _ _ B3)|].
+  destruct (b_height _ _ B3 c ltac:(intros Hx; inversion Hx) Hgc3) as (A & _). lia.
+Qed.
+
 Lemma Rest_ac_frame s s' :
   ac_frame s s' -> invq s' = [] -> adj_idle s' ->
   (forall m, inGraph (nd s' m) = true -> valid (nd s' m) = true) ->
@@ -4250,18 +5249,14 @@ Qed.
 (** ** AddInput *)
 Definition is_addinput (o : op) : bool := match o with AddInput _ _ => true | _ => false end.
 
-Theorem Inv_step_addinput s o s' e :
-  Inv s -> op_ok s o = true -> op_clean s o = true -> is_addinput o = true ->
-  step s o = Ok (s', e) -> e <> Some ECycle -> e <> Some EHeightLimit -> Inv s'.
+Lemma addinput_setup s n a fn :
+  Inv s -> has s n -> nkind (nd s n) = KMapN fn ->
+  match nkind (nd s a) with KBindLhs _ => False | _ => True end ->
+  scope (nd s n) = None -> has s a -> scope (nd s a) = None -> (a < n)%nat ->
+  let s1 := upd s n (set decl (fun l => l ++ [a])) in
+  Rest s1 /\ BInv [n] s1.
 Proof.
-  intros HI Hok Hcl Hgo Hstep He1 He2. destruct o as [| | | | | | | | | | | | | | |n a| | | |]; try discriminate.
-  simpl in Hstep, Hok, Hcl.
-  apply andb_true_iff in Hok as [Hn Hua]. apply isMapN_true in Hn as [Hn [fn Hkn]].
-  apply isUserNode_true in Hua as [_ Hnla].
-  apply andb_true_iff in Hcl as [[Htn Hta]%andb_true_iff Hlt].
-  apply isTop_true in Htn as [_ Hscn]. apply isTop_true in Hta as [Ha Hsca]. apply Nat.ltb_lt in Hlt.
-  unfold addInput in Hstep.
-  set (s1 := upd s n (set decl (fun l => l ++ [a]))) in *.
+  intros HI Hn Hkn Hnla Hscn Ha Hsca Hlt s1.
   pose proof (Inv_TInv s HI) as T. pose proof (Inv_Rest s HI) as R. pose proof (Inv_sreg s HI) as Hsreg.
   assert (Hnd : forall m, nd s1 m = if decide (m = n) then set decl (fun l => l ++ [a]) (nd s n) else nd s m).
   { intros m. unfold s1. apply nd_upd, Hn. }
@@ -4337,6 +5332,34 @@ Proof.
     - intros m b. rewrite !Hg, Hsc. apply b_sreg0.
     - exact b_log0.
     - intros m. rewrite Hg. apply b_life0. }
+  split; [exact R1|exact B1].
+Qed.
+
+Theorem Inv_step_addinput s o s' e :
+  Inv s -> op_ok s o = true -> op_clean s o = true -> is_addinput o = true ->
+  step s o = Ok (s', e) -> e <> Some ECycle -> e <> Some EHeightLimit -> Inv s'.
+Proof.
+  intros HI Hok Hcl Hgo Hstep He1 He2. destruct o as [| | | | | | | | | | | | | | |n a| | | |]; try discriminate.
+  simpl in Hstep, Hok, Hcl.
+  apply andb_true_iff in Hok as [Hn Hua]. apply isMapN_true in Hn as [Hn [fn Hkn]].
+  apply isUserNode_true in Hua as [_ Hnla].
+  apply andb_true_iff in Hcl as [[Htn Hta]%andb_true_iff Hlt].
+  apply isTop_true in Htn as [_ Hscn]. apply isTop_true in Hta as [Ha Hsca]. apply Nat.ltb_lt in Hlt.
+  unfold addInput in Hstep.
+  set (s1 := upd s n (set decl (fun l => l ++ [a]))) in *.
+  pose proof (Inv_TInv s HI) as T. pose proof (Inv_Rest s HI) as R. pose proof (Inv_sreg s HI) as Hsreg.
+  assert (Hnd : forall m, nd s1 m = if decide (m = n) then set decl (fun l => l ++ [a]) (nd s n) else nd s m).
+  { intros m. unfold s1. apply nd_upd, Hn. }
+  assert (Hfield : forall {A} (g : node -> A), (forall x f, g (set decl f x) = g x) -> forall m, g (nd s1 m) = g (nd s m)).
+  { intros A g Hg' m. rewrite Hnd. destruct (decide (m = n)) as [->|]; [apply Hg'|reflexivity]. }
+  assert (Hdecl : forall m, decl (nd s1 m) = if decide (m = n) then decl (nd s n) ++ [a] else decl (nd s m)).
+  { intros m. rewrite Hnd. destruct (decide (m = n)); reflexivity. }
+  assert (Hhas : forall m, has s1 m <-> has s m) by (intros m; apply (has_upd s n)).
+  assert (Hsc : forall m, scope (nd s1 m) = scope (nd s m)) by (apply Hfield; reflexivity).
+  assert (Hk : forall m, nkind (nd s1 m) = nkind (nd s m)) by (apply Hfield; reflexivity).
+  assert (Hv : forall m, valid (nd s1 m) = valid (nd s m)) by (apply Hfield; reflexivity).
+  assert (Hg : forall m, inGraph (nd s1 m) = inGraph (nd s m)) by (apply Hfield; reflexivity).
+  destruct (addinput_setup s n a fn HI Hn Hkn Hnla Hscn Ha Hsca Hlt) as [R1 B1]. fold s1 in R1, B1.
   rewrite (Hfield _ height) in Hstep by reflexivity.
   destruct (Z.eqb_spec (height (nd s n)) unset) as [Hu|Hu].
   - (* n is not registered *)
@@ -4383,6 +5406,68 @@ Proof.
     apply TInv_Rest_Inv.
     + apply (TInv_struct _ _ s2 s'); [apply V|apply V|exact Hk'|exact T2].
     + apply (Rest_var_step s2 s' V Hsd R2).
+Qed.
+
+Theorem nc_step_addinput s o : Inv s -> op_ok s o = true -> op_clean s o = true -> is_addinput o = true -> nocrash (step s o).
+Proof.
+  intros HI Hok Hcl Hgo. destruct o as [| | | | | | | | | | | | | | |n a| | | |]; try discriminate.
+  simpl in Hok, Hcl |- *.
+  apply andb_true_iff in Hok as [Hn Hua]. apply isMapN_true in Hn as [Hn [fn Hkn]].
+  apply isUserNode_true in Hua as [_ Hnla].
+  apply andb_true_iff in Hcl as [[Htn Hta]%andb_true_iff Hlt].
+  apply isTop_true in Htn as [_ Hscn]. apply isTop_true in Hta as [Ha Hsca]. apply Nat.ltb_lt in Hlt.
+  unfold addInput.
+  set (s1 := upd s n (set decl (fun l => l ++ [a]))) in *.
+  pose proof (Inv_TInv s HI) as T. pose proof (Inv_Rest s HI) as R. pose proof (Inv_sreg s HI) as Hsreg.
+  assert (Hnd : forall m, nd s1 m = if decide (m = n) then set decl (fun l => l ++ [a]) (nd s n) else nd s m).
+  { intros m. unfold s1. apply nd_upd, Hn. }
+  assert (Hfield : forall {A} (g : node -> A), (forall x f, g (set decl f x) = g x) -> forall m, g (nd s1 m) = g (nd s m)).
+  { intros A g Hg' m. rewrite Hnd. destruct (decide (m = n)) as [->|]; [apply Hg'|reflexivity]. }
+  assert (Hdecl : forall m, decl (nd s1 m) = if decide (m = n) then decl (nd s n) ++ [a] else decl (nd s m)).
+  { intros m. rewrite Hnd. destruct (decide (m = n)); reflexivity. }
+  assert (Hhas : forall m, has s1 m <-> has s m) by (intros m; apply (has_upd s n)).
+  assert (Hsc : forall m, scope (nd s1 m) = scope (nd s m)) by (apply Hfield; reflexivity).
+  assert (Hk : forall m, nkind (nd s1 m) = nkind (nd s m)) by (apply Hfield; reflexivity).
+  assert (Hv : forall m, valid (nd s1 m) = valid (nd s m)) by (apply Hfield; reflexivity).
+  assert (Hg : forall m, inGraph (nd s1 m) = inGraph (nd s m)) by (apply Hfield; reflexivity).
+  destruct (addinput_setup s n a fn HI Hn Hkn Hnla Hscn Ha Hsca Hlt) as [R1 B1]. fold s1 in R1, B1.
+  rewrite (Hfield _ height) by reflexivity.
+  destruct (Z.eqb_spec (height (nd s n)) unset) as [Hu|Hu]; [apply nc_Ok|].
+  assert (Hgn : inGraph (nd s n) = true).
+  { destruct (inGraph (nd s n)) eqn:E; [reflexivity|]. destruct (inv_zero s HI n E) as (_ & _ & _ & ?). contradiction. }
+  destruct (inv_height s HI n Hgn) as (Hr & Hlow & Hscope).
+  assert (St1 : Sta s1).
+  { destruct R1. split; auto. apply valid_closed; auto. }
+  assert (Hidle1 : adj_idle s1).
+  { destruct (inv_quiet s HI). repeat split; auto. intros m. rewrite (Hfield _ hAdj) by reflexivity. auto. }
+  assert (Pre : forall (P : Prop),
+     ((forall m b, has s1 m -> scope (nd s1 m) = Some b -> ~ inGen s1 b m ->
+         valid (nd s1 m) = false \/ (inGraph (nd s1 b) = true /\ height (nd s1 b) < height (nd s1 n))) ->
+      has s1 n -> has s1 a -> inGraph (nd s1 n) = true -> isNecessary (nd s1 n) = true -> valid (nd s1 a) = true ->
+      parents (nd s1 n) ++ [a] = decl (nd s1 n) -> 0 <= height (nd s1 n) < maxHeight s1 ->
+      scopeHeight s1 (scope (nd s1 n)) < height (nd s1 n) ->
+      (forall q, q ∈ parents (nd s1 n) -> height (nd s1 q) < height (nd s1 n)) ->
+      (forall b, scope (nd s1 a) = Some b -> inGraph (nd s1 b) = true) -> P) -> P).
+  { intros P HP. apply HP.
+    - intros m b Hm Hs Hno. left. apply (r_vdead s1 R1 m b Hm Hs Hno).
+    - apply Hhas, Hn.
+    - apply Hhas, Ha.
+    - rewrite Hg. exact Hgn.
+    - rewrite (isNecessary_ext (nd s1 n) (nd s n)); try (apply Hfield; reflexivity). rewrite <- (inv_nec s HI n). exact Hgn.
+    - rewrite Hv. apply (vo_top s (inv_valid s HI)), Hsca.
+    - rewrite (Hfield _ parents), Hdecl, decide_True by reflexivity. rewrite (inv_par s HI n Hgn). reflexivity.
+    - rewrite (Hfield _ height) by reflexivity. exact Hr.
+    - rewrite Hsc, (Hfield _ height), (scopeHeight_ext s s1) by (try reflexivity; apply Hfield; reflexivity). exact Hscope.
+    - intros q. rewrite (Hfield _ parents), !(Hfield _ height) by reflexivity. apply Hlow.
+    - intros b. rewrite Hsc, Hsca. discriminate. }
+  apply Pre. intros P1 P2 P3 P4 P5 P6 P7 P8 P9 P10 P11.
+  assert (Hsh1 : shape_ok s1) by (destruct (inv_shape s HI); split; assumption).
+  apply nc_ebind.
+  { apply (nc_addChild (opFuel s1) s1 n a St1 B1 Hidle1 Hsh1 (q_invq s (inv_quiet s HI)) P1 P2 P3 P4 P5 P6 P7 P8 P9 P10 P11). }
+  intros s2 H2. apply nc_lift.
+  destruct (addChild_spec (opFuel s1) s1 n a s2 None St1 B1 Hidle1 (q_invq s (inv_quiet s HI)) P1 P2 P3 P4 P5 P6 P7 P8 P9 P10 P11 H2) as (B2 & F2 & Hq2 & Hidle2).
+  pose proof (BInv_TInv s2 B2) as T2.
+  apply nc_setStale; [apply Inv_hreg; apply T2|apply T2].
 Qed.
 
 (** * The pass *)
@@ -4434,11 +5519,13 @@ Qed.
 
 Lemma log_ok_benign s l l' :
   Forall (ev_benign s) l -> (forall n, inGraph (nd s n) = true -> lastNU l' n = Some true) ->
+  (forall n, inGraph (nd s n) = true -> EvInval n ∉ l') ->
   log_ok l' -> log_ok (l ++ l').
 Proof.
-  intros Hl Hreg Hok. induction l as [|e l IH]; [exact Hok|].
+  intros Hl Hreg Hinv Hok. induction l as [|e l IH]; [exact Hok|].
   apply stdpp.list.Forall_cons in Hl as [He Hl]. simpl. split; [|apply IH, Hl].
-  destruct e; simpl in *; try contradiction; try exact I; rewrite (lastNU_benign s l l' _ Hl); apply Hreg, He.
+  destruct e; simpl in *; try contradiction; try exact I;
+    (split; [rewrite (lastNU_benign s l l' _ Hl); apply Hreg, He|rewrite (benign_inval s l l' _ Hl); apply Hinv, He]).
 Qed.
 
 Lemma PInv_soft s s' l :
@@ -4478,7 +5565,8 @@ Proof.
     + apply (count_ok_ext s s'); auto.
     + apply (obs_ok_ext s s'); auto.
     + intros n. rewrite Hg, Hv. apply t_valid0.
-    + rewrite Hlog. apply (log_ok_benign s); auto. intros n Hn. apply (t_life0 n (Hnil n)), Hn.
+    + rewrite Hlog. apply (log_ok_benign s); auto; [intros n Hn; apply (t_life0 n (Hnil n)), Hn|].
+      intros n Hn Hx. apply Iinval in Hx. rewrite (t_valid0 n Hn) in Hx. discriminate.
     + intros n _. rewrite Hg, Hlog, (lastNU_benign s l _ n Hl). apply t_life0, Hnil.
     + intros w Hw. inversion Hw.
     + constructor.
@@ -4723,6 +5811,46 @@ Proof.
     apply acts_ok_of_plan, Hp. }
   destruct f as [[|]|]; injection H as <- _; try exact S1;
     (eapply soft_trans; [exact S1|apply soft_emit; exact I]).
+Qed.
+
+(* user functions: the variable writes they perform never fault *)
+Lemma PInv_hreg s : PInv s -> hreg_ok s /\ heap_ok s.
+Proof. intros P. pose proof (p_t s P) as T. split; [apply Inv_hreg; apply T|apply T]. Qed.
+
+Lemma nc_applyActions acts : forall s f0,
+  hreg_ok s -> heap_ok s ->
+  nocrash (rfold (fun '(s, f) a =>
+           match f with
+           | Some _ => Ok (s, f)
+           | None =>
+             match a with
+             | AFail k => Ok (s, Some k)
+             | ASet v x => s <-! varSet s v x; Ok (s, None)
+             | AUpdate v d => s <-! varUpdate s v d; Ok (s, None)
+             end
+           end) acts (s, f0)).
+Proof.
+  induction acts as [|a acts IH]; intros s f0 Hr Hk; simpl; [apply nc_Ok|].
+  apply nc_rbind.
+  - destruct f0; [apply nc_Ok|]. destruct a as [k|v x|v d]; [apply nc_Ok| |].
+    + apply nc_rbind; [apply nc_varSet; assumption|intros; apply nc_Ok].
+    + apply nc_rbind; [apply nc_varUpdate; assumption|intros; apply nc_Ok].
+  - intros [s1 f1] E. destruct f0; [injection E as <- <-; apply IH; assumption|].
+    destruct a as [k|v x|v d].
+    + injection E as <- <-. apply IH; assumption.
+    + apply rbind_ok in E as (s2 & H2 & [= <- <-]).
+      destruct (varSet_spec s v x s2 Hr Hk H2) as (V & Hk2 & _).
+      apply IH; [apply (hreg_ok_struct s s2 (vs_struct _ _ V) Hr)|exact Hk2].
+    + apply rbind_ok in E as (s2 & H2 & [= <- <-]).
+      destruct (varUpdate_spec s v d s2 Hr Hk H2) as (V & Hk2 & _).
+      apply IH; [apply (hreg_ok_struct s s2 (vs_struct _ _ V) Hr)|exact Hk2].
+Qed.
+
+Lemma nc_invoke p s n w : hreg_ok s -> heap_ok s -> nocrash (invoke p s n w).
+Proof.
+  intros Hr Hk. unfold invoke. apply nc_rbind.
+  - unfold applyActions. apply nc_applyActions; assumption.
+  - intros [s1 f] _. destruct f as [[|]|]; apply nc_Ok.
 Qed.
 
 (** ** recomputing one node *)
@@ -5108,7 +6236,8 @@ Proof.
   - apply (shape_ok_ext s s'); auto.
   - apply Hst, Istamps.
   - split.
-    + rewrite Hlog. apply (log_ok_benign s); auto. intros n Hn. apply (t_life0 n (Hnil n)), Hn.
+    + rewrite Hlog. apply (log_ok_benign s); auto; [intros n Hn; apply (t_life0 n (Hnil n)), Hn|].
+      intros n Hn Hx. apply Iinval in Hx. rewrite (t_valid0 n Hn) in Hx. discriminate.
     + intros n. rewrite Hg, Hlog, (lastNU_benign s l _ n Hl). apply t_life0, Hnil.
     + intros n. rewrite Hv, Hlog, (benign_inval s l _ n Hl). apply Iinval.
 Qed.
@@ -6042,9 +7171,10 @@ Lemma TInv_dyn E s s' l :
   reg s' = reg s -> obs s' = obs s -> heap s' = heap s -> numNodes s' = numNodes s ->
   maxHeight s' = maxHeight s -> log s' = l ++ log s -> Forall (ev_benign s) l ->
   (forall n, has s n -> binds s !! n = None -> binds s' !! n = None) ->
+  (l = [] \/ forall n, inGraph (nd s n) = true -> EvInval n ∉ log s) ->
   TInv [] E s -> TInv [] E s'.
 Proof.
-  intros Hids Hnext Hh1 Hh2 Hdyn Hdecl Hscope Hreg Hobs Hheap Hnum Hmh Hlog Hl Hbn T.
+  intros Hids Hnext Hh1 Hh2 Hdyn Hdecl Hscope Hreg Hobs Hheap Hnum Hmh Hlog Hl Hbn Hni T.
   destruct T as [t_edges0 t_zero0 t_nec0 t_necE0 t_W0 t_par0 t_height0 t_heap0 t_count0 t_obs0 t_valid0 t_log0 t_life0 t_lifeW0 t_nodup0].
   assert (Hg : forall m, inGraph (nd s' m) = inGraph (nd s m)) by (intros m; apply (Hdyn m)).
   assert (Hp : forall m, parents (nd s' m) = parents (nd s m)) by (intros m; apply (Hdyn m)).
@@ -6063,7 +7193,8 @@ Proof.
   - apply (extend_count s s' Hdyn Hreg Hobs Hnum t_count0).
   - apply (extend_obs s s' Hnext Hh1 Hh2 Hdyn Hdecl Hscope Hobs Hbn Hids t_obs0).
   - intros n. rewrite Hg, Hv. apply t_valid0.
-  - rewrite Hlog. apply (log_ok_benign s); auto. intros n Hn.
+  - rewrite Hlog. destruct Hni as [->|Hni]; [exact t_log0|].
+    apply (log_ok_benign s); auto. intros n Hn.
     apply (t_life0 n ltac:(intros Hw; inversion Hw)), Hn.
   - intros n Hn. rewrite Hg, Hlog, (lastNU_benign s l _ n Hl). apply t_life0, Hn.
   - intros n Hn. rewrite Hlog, (lastNU_benign s l _ n Hl). apply t_lifeW0, Hn.
@@ -6235,9 +7366,10 @@ Section finish.
   Qed.
 End finish.
 
-Lemma TInv_soft E s s' : soft s s' -> hreg_ok s -> TInv [] E s -> TInv [] E s'.
+Lemma TInv_soft E s s' :
+  soft s s' -> hreg_ok s -> (forall n, inGraph (nd s n) = true -> EvInval n ∉ log s) -> TInv [] E s -> TInv [] E s'.
 Proof.
-  intros S Hr T. destruct (so_log _ _ S) as (l & Hl & Fl).
+  intros S Hr Hni T. destruct (so_log _ _ S) as (l & Hl & Fl).
   pose proof (so_struct _ _ S) as SS.
   assert (Hk : heap_ok s') by (apply (so_heap _ _ S); [apply T|exact Hr]).
   destruct T as [t_edges0 t_zero0 t_nec0 t_necE0 t_W0 t_par0 t_height0 t_heap0 t_count0 t_obs0 t_valid0 t_log0 t_life0 t_lifeW0 t_nodup0].
@@ -6399,6 +7531,47 @@ Proof.
   - destruct (observers (nd s b)) as [|o l] eqn:Eo; [congruence|].
     assert (Ho : o ∈ observers (nd s b)) by (rewrite Eo; left).
     apply (ob_iff s Hobs) in Ho. rewrite (ob_user s Hobs o b Ho) in Hr. discriminate.
+Qed.
+
+(* what the pieces of a bind's stabilization add to the log *)
+Lemma setStale_log s n s' : setStale s n = Ok s' -> log s' = log s.
+Proof.
+  intros H. apply setStale_inv in H as [[_ ->]|[_ H]]; [reflexivity|]. cbn zeta in H.
+  destruct H as [[_ ->]|[_ H]]; [reflexivity|]. apply heapAdd_inv in H as (w & _ & ->). reflexivity.
+Qed.
+
+Lemma varSet_log s v x s' : varSet s v x = Ok s' -> log s' = log s.
+Proof.
+  unfold varSet. destruct (_ && _ && _); [intros [= <-]; reflexivity|].
+  destruct (status s =? 1); [intros [= <-]; reflexivity|].
+  destruct (isNecessary _); [|intros [= <-]; reflexivity]. intros H. apply setStale_log in H. exact H.
+Qed.
+
+Lemma applyActions_log acts : forall s s' f0 f,
+  rfold (fun '(s, f) a =>
+           match f with
+           | Some _ => Ok (s, f)
+           | None =>
+             match a with
+             | AFail k => Ok (s, Some k)
+             | ASet v x => s <-! varSet s v x; Ok (s, None)
+             | AUpdate v d => s <-! varUpdate s v d; Ok (s, None)
+             end
+           end) acts (s, f0) = Ok (s', f) -> log s' = log s.
+Proof.
+  induction acts as [|a acts IH]; intros s s' f0 f H; simpl in H; [injection H as <- _; reflexivity|].
+  apply rbind_ok in H as ([s1 f1] & H1 & H). rewrite (IH s1 s' f1 f H).
+  destruct f0; [injection H1 as <- _; reflexivity|]. destruct a as [k|v x|v d].
+  - injection H1 as <- _. reflexivity.
+  - apply rbind_ok in H1 as (s2 & H2 & [= <- _]). apply (varSet_log _ _ _ _ H2).
+  - apply rbind_ok in H1 as (s2 & H2 & [= <- _]). unfold varUpdate in H2. apply (varSet_log _ _ _ _ H2).
+Qed.
+
+Lemma invoke_log_none p s n w s' : invoke p s n w = Ok (s', None) -> log s' = log s.
+Proof.
+  intros H. unfold invoke in H. apply rbind_ok in H as ([s1 f] & H1 & H).
+  unfold applyActions in H1. pose proof (applyActions_log _ _ _ _ _ H1) as E1.
+  destruct f as [[|]|]; try discriminate. injection H as <-. exact E1.
 Qed.
 
 Lemma isVar_intro s n e : has s n -> nkind (nd s n) = KVar e -> isVar s n = true.
@@ -6612,6 +7785,9 @@ Section run_fn.
       + intros n Hn Hnone. destruct (decide (n = b)) as [->|Hne].
         * exfalso. rewrite Hb2 in Hnone. unfold s1 in Hnone. rewrite binds_updb_lookup, decide_True, Hr0 in Hnone by reflexivity. discriminate.
         * rewrite Hb6ne by exact Hne. apply (eb_bindsN _ _ _ E23 n Hn Hnone).
+      + right. intros n Hn. destruct (Hst2 n) as (_&_&_&_&_&_&_&_&_&_&Eg). rewrite Eg in Hn.
+        destruct Hlog2 as (l & El & Fl). rewrite El, (benign_inval s l (log s) n Fl). intros Hx.
+        apply A8 in Hx. rewrite (t_valid _ _ _ T0 n Hn) in Hx. discriminate.
     - (* the rest, with the old generation exempt *)
       constructor; try assumption.
       + intros n. rewrite Hsc7, Hv7, Hv3. intros Hs.
@@ -6736,6 +7912,12 @@ Section run_fn.
         rewrite E, (Hold3 v Hh). destruct (Hst2 v) as (->&_). exact He. }
       destruct a; auto.
     - change (stabNum s7) with (stabNum s3). rewrite (eb_stabNum _ _ _ E23). apply (so_stabNum _ _ S02).
+  Qed.
+  Lemma run_fn_log : log s6 = EvBindFn b x root :: log s.
+  Proof.
+    destruct run_fn_inst as (T & d0 & _ & _ & E23 & _).
+    change (log s6) with (EvBindFn b x root :: log s3). rewrite (eb_log _ _ _ E23).
+    rewrite (invoke_log_none p s1 b WFn s2 Hinv). reflexivity.
   Qed.
 End run_fn.
 
@@ -6922,35 +8104,56 @@ Proof.
   - constructor.
 Qed.
 
+(* log extensions without any event that reports a function, a cutoff predicate or a bind function as run *)
+Definition norun_ext (s s' : state) : Prop :=
+  exists l, log s' = l ++ log s /\ Forall (fun e => ev_runs e = None) l.
+
+Lemma norun_ext_refl s s' : log s' = log s -> norun_ext s s'.
+Proof. intros E. exists []. split; [exact E|constructor]. Qed.
+
+Lemma norun_ext_trans s1 s2 s3 : norun_ext s1 s2 -> norun_ext s2 s3 -> norun_ext s1 s3.
+Proof.
+  intros (l1 & E1 & F1) (l2 & E2 & F2). exists (l2 ++ l1). split; [rewrite E2, E1, app_assoc; reflexivity|].
+  apply Forall_app. auto.
+Qed.
+
+Lemma norun_ext_of (P : event -> Prop) s s' :
+  (forall e, P e -> ev_runs e = None) -> (exists l, log s' = l ++ log s /\ Forall P l) -> norun_ext s s'.
+Proof. intros HP (l & E & F). exists l. split; [exact E|]. eapply List.Forall_impl; [|exact F]. exact HP. Qed.
+
 (** ** what [changeParent] leaves untouched *)
 Record cp_frame (s s' : state) : Prop := {
   cpf_binds : binds s' = binds s;
   cpf_has : forall m, has s' m <-> has s m;
   cpf_stabNum : stabNum s' = stabNum s;
   cpf_node : forall m, nkind (nd s' m) = nkind (nd s m) /\ decl (nd s' m) = decl (nd s m) /\
-                       scope (nd s' m) = scope (nd s m) /\ valid (nd s' m) = valid (nd s m)
+                       scope (nd s' m) = scope (nd s m) /\ valid (nd s' m) = valid (nd s m);
+  cpf_log : norun_ext s s'
 }.
 
 Lemma cp_frame_refl s : cp_frame s s.
-Proof. split; auto; reflexivity. Qed.
+Proof. split; auto; try reflexivity. apply norun_ext_refl. reflexivity. Qed.
 
 Lemma cp_frame_trans s1 s2 s3 : cp_frame s1 s2 -> cp_frame s2 s3 -> cp_frame s1 s3.
 Proof.
-  intros [A1 A2 A3 A4] [B1 B2 B3 B4]. split.
+  intros [A1 A2 A3 A4 A5] [B1 B2 B3 B4 B5]. split.
   - congruence.
   - intros m. rewrite B2. apply A2.
   - congruence.
   - intros m. destruct (A4 m) as (?&?&?&?), (B4 m) as (?&?&?&?). repeat split; congruence.
+  - eapply norun_ext_trans; eauto.
 Qed.
 
 Lemma cp_frame_td s s' : td_frame s s' -> (forall m, valid (nd s' m) = valid (nd s m)) -> cp_frame s s'.
 Proof.
-  intros F Hv. split; try apply F. intros m. destruct (tf_static _ _ F m) as (?&?&?&_). auto.
+  intros F Hv. split; try apply F; [intros m; destruct (tf_static _ _ F m) as (?&?&?&_); auto|].
+  apply (norun_ext_of is_unnec); [intros e [n ->]; reflexivity|apply (tf_log _ _ F)].
 Qed.
 
 Lemma cp_frame_ac s s' : ac_frame s s' -> cp_frame s s'.
 Proof.
-  intros F. split; try apply F. intros m. destruct (cf_static _ _ F m) as (?&?&?&?&_). auto.
+  intros F. split; try apply F; [intros m; destruct (cf_static _ _ F m) as (?&?&?&?&_); auto|].
+  apply (norun_ext_of is_nec); [intros e [n ->]; reflexivity|apply (cf_log _ _ F)].
 Qed.
 
 Section cp.
@@ -7091,6 +8294,36 @@ Section cp.
       split; [exact B2|]. split; [exact F2|].
       apply (RestM_ac_frame D t tC F2 Hq2 Hidle2 (b_valid _ _ B2) Rt).
     Qed.
+    Lemma nc_cp_add fuel : nocrash (addChild fuel t c r).
+    Proof.
+      pose proof add_Rest as Rt.
+      assert (Hsc : forall m, scope (nd t m) = scope (nd t6 m)).
+      { intros m. destruct (Hrel m) as (_&_&->&_). apply cp_field7. reflexivity. }
+      assert (Hv : forall m, valid (nd t m) = valid (nd t6 m)).
+      { intros m. destruct (Hrel m) as (_&_&_&->&_). apply cp_field7. reflexivity. }
+      assert (Hg : forall m, inGraph (nd t m) = inGraph (nd t6 m)).
+      { intros m. destruct (Hrel m) as (_&_&_&_&->&_). apply cp_field7. reflexivity. }
+      assert (Hbd : forall b', bd t b' = bd t7 b') by (intros b'; unfold bd; rewrite Hbinds; reflexivity).
+      rewrite Hr in Hroot. destruct Hroot as (Hhr & Hrb & Hvr & Hsr).
+      destruct cp_height6 as (Hrange & Hlow & Hscope).
+      assert (St : Sta t).
+      { destruct Rt. split; auto. intros m q. destruct (Hrel m) as (_&->&_&->&_). destruct (Hrel q) as (_&_&_&->&_). apply Hvc7. }
+      apply (nc_addChild fuel t c r St Bt (m_adj _ _ Rt) (m_shape _ _ Rt) (m_invq _ _ Rt)); auto.
+      - intros n b' Hn Hs Hno. rewrite Hv, Hg, !Hht.
+        rewrite <- (cp_field7 valid) by reflexivity. apply cp_dead7.
+        + apply Hhas, Hn.
+        + destruct (Hrel n) as (_&_&<-&_). exact Hs.
+        + unfold inGen. rewrite <- Hbd. exact Hno.
+      - apply Hhas, cp_has7, cp_hc.
+      - apply Hhas, cp_has7, Hhr.
+      - rewrite Hg. exact Hgc.
+      - rewrite Hv. exact Hvr.
+      - rewrite Hpar. destruct (Hrel c) as (_&->&_). rewrite cp_decl7, decide_True, Hr by reflexivity. reflexivity.
+      - rewrite Hht, Hmh. exact Hrange.
+      - rewrite Hsc, Hht, (scopeHeight_ext t6 t) by exact Hht. exact Hscope.
+      - intros q. rewrite Hpar, !Hht. intros ->%elem_of_list_singleton. exact cp_hb.
+      - intros b'. rewrite Hsc, Hg. intros Hs. rewrite (Hsr b' Hs). exact Hgb.
+    Qed.
   End add.
 
   Definition cp_post (t8 : state) : Prop :=
@@ -7124,7 +8357,7 @@ Section cp.
 
   Local Lemma cp_frame7A o : cp_frame t7 (unlink t7 c o).
   Proof.
-    split; try reflexivity; [intros m; apply has_unlink|].
+    split; try reflexivity; [intros m; apply has_unlink| |apply norun_ext_refl; reflexivity].
     intros m. rewrite nkind_nd_unlink, decl_nd_unlink, scope_nd_unlink, valid_nd_unlink. auto.
   Qed.
 
@@ -7279,13 +8512,124 @@ Section cp.
       + rewrite nd_upd_eq by exact HhC. reflexivity.
       + rewrite nd_upd_ne by exact Hno. destruct (cf_static _ _ FC n) as (_&_&_&_&->&_). rewrite HforB by exact Hno. apply Hforce.
     - apply (cp_frame_trans t7 tD t8); [|apply (cp_frame_td tD t8 F Hv)].
-      apply (cp_frame_trans t7 tC tD); [|split; [reflexivity|intros m; apply has_upd|reflexivity|intros m; repeat split; apply HfD; reflexivity]].
+      apply (cp_frame_trans t7 tC tD); [|split; [reflexivity|intros m; apply has_upd|reflexivity|intros m; repeat split; apply HfD; reflexivity|apply norun_ext_refl; reflexivity]].
       apply (cp_frame_trans t7 tB tC); [|apply (cp_frame_ac tB tC FC)].
-      split; [reflexivity|exact HhasB|reflexivity|].
+      split; [reflexivity|exact HhasB|reflexivity| |apply norun_ext_refl; reflexivity].
       intros m. rewrite HdeclB. repeat split; first [apply HfB; reflexivity|idtac].
       + rewrite (HfB _ nkind) by reflexivity. apply nkind_nd_unlink.
       + rewrite (HfB _ scope) by reflexivity. apply scope_nd_unlink.
       + rewrite (HfB _ valid) by reflexivity. apply valid_nd_unlink.
+  Qed.
+
+  (* the same cases never fault *)
+  Lemma nc_case_add fuel r : oldRhs = None -> root = Some r -> nocrash (addChild fuel t7 c r).
+  Proof.
+    intros Eo Er.
+    assert (Hnil : forall m : nid, m ∉ []) by (intros m Hm; inversion Hm).
+    assert (B7 : BInv [c] t7).
+    { apply (BInv_reopen t6 t7 c (TInv_BInv t6 T6 Hsreg6) Hgc); try reflexivity; try (apply cp_field7; reflexivity).
+      - intros m Hm. split; [apply cp_field7; reflexivity|]. rewrite cp_decl7, decide_False by exact Hm. reflexivity.
+      - apply (edges_ok_ext t6 t7); [apply cp_field7; reflexivity|apply cp_field7; reflexivity|apply T6].
+      - intros m _ Hm. rewrite (isNecessary_ext (nd t7 m) (nd t6 m)) by (apply cp_field7; reflexivity).
+        rewrite <- (t_nec _ _ _ T6 m (Hnil m)); [exact Hm|intros []].
+      - intros m _. split; apply cp_field7; reflexivity.
+      - apply cp_has7. }
+    pose proof (nc_cp_add t7 r Er B7) as AC.
+    specialize (AC ltac:(intros m; repeat split) ltac:(apply cp_field7; reflexivity)).
+    assert (Hp7 : parents (nd t7 c) = [b]).
+    { rewrite (cp_field7 parents) by reflexivity. rewrite cp_par6, Eo. reflexivity. }
+    assert (Hn7 : isNecessary (nd t7 c) = true).
+    { rewrite (isNecessary_ext (nd t7 c) (nd t6 c)) by (apply cp_field7; reflexivity).
+      rewrite <- (t_nec _ _ _ T6 c (Hnil c)); [exact Hgc|intros []]. }
+    apply (AC Hp7 Hn7 eq_refl eq_refl ltac:(reflexivity) eq_refl eq_refl eq_refl eq_refl eq_refl eq_refl eq_refl eq_refl fuel).
+  Qed.
+
+  Lemma nc_case_rm fuel o : oldRhs = Some o -> root = None -> nocrash (checkIfUnnecessary fuel (unlink t7 c o) o).
+  Proof.
+    intros Eo Er. destruct (cp_old_facts o Eo) as (Hob & Hoc & Hho & Hgo & Hrm).
+    set (tA := unlink t7 c o) in *.
+    assert (TA : TInv [] (eq o) tA).
+    { apply (TInv_unlink_like [] t6 tA c o T6 (cp_U o)).
+      intros n _ Hn. unfold tA. rewrite parents_nd_unlink, decl_nd_unlink, (cp_field7 parents), cp_decl7 by reflexivity.
+      destruct (decide (n = c)) as [->|Hne].
+      - rewrite Hrm, Er. reflexivity.
+      - apply (t_par _ _ _ T6 n); [intros Hx; inversion Hx|exact Hn]. }
+    apply (nc_checkIfUnnecessary fuel tA o [] TA). intros Hx; inversion Hx.
+  Qed.
+
+  Lemma nc_case_swap fuel o r :
+    oldRhs = Some o -> root = Some r -> o <> r ->
+    nocrash (let s := upd (unlink t7 c o) o (set forceNec (fun _ => true)) in
+             s <-? addChild fuel s c r;
+             let s := upd s o (set forceNec (fun _ => false)) in
+             lift (checkIfUnnecessary fuel s o)).
+  Proof.
+    intros Eo Er Hor. destruct (cp_old_facts o Eo) as (Hob & Hoc & Hho & Hgo & Hrm).
+    assert (Hnil : forall m : nid, m ∉ []) by (intros m Hm; inversion Hm).
+    set (tA := unlink t7 c o) in *. cbv zeta. set (tB := upd tA o (set forceNec (fun _ => true))) in *.
+    assert (HhA : has tA o) by (apply has_unlink, cp_has7, Hho).
+    assert (HfB : forall {A} (g : node -> A), (forall x f, g (set forceNec f x) = g x) -> forall m, g (nd tB m) = g (nd tA m)).
+    { intros A g Hg' m. unfold tB. apply nd_upd_proj. intros x. apply Hg'. }
+    assert (HfldB : forall {A} (g : node -> A),
+               (forall x f, g (set forceNec f x) = g x) -> (forall x f, g (set decl f x) = g x) ->
+               (forall x f, g (set parents f x) = g x) -> (forall x f, g (set children f x) = g x) ->
+               forall m, g (nd tB m) = g (nd t6 m)).
+    { intros A g H1 H2 H3 H4 m. rewrite (HfB _ g H1). apply cp_fieldA; assumption. }
+    assert (HparB : forall m, parents (nd tB m) = if decide (m = c) then [b] else parents (nd t6 m)).
+    { intros m. rewrite (HfB _ parents) by reflexivity. unfold tA. rewrite parents_nd_unlink, (cp_field7 parents) by reflexivity.
+      destruct (decide (m = c)) as [->|]; [exact Hrm|reflexivity]. }
+    assert (HchiB : forall m, m <> o -> children (nd tB m) = children (nd t6 m)).
+    { intros m Hm. rewrite (HfB _ children) by reflexivity. unfold tA. rewrite children_nd_unlink, decide_False by exact Hm.
+      apply cp_field7. reflexivity. }
+    assert (HforB : forall m, m <> o -> forceNec (nd tB m) = forceNec (nd t6 m)).
+    { intros m Hm. unfold tB. rewrite nd_upd_ne by exact Hm. unfold tA. rewrite forceNec_nd_unlink. apply cp_field7. reflexivity. }
+    assert (HdeclB : forall m, decl (nd tB m) = decl (nd t7 m)).
+    { intros m. rewrite (HfB _ decl) by reflexivity. unfold tA. apply decl_nd_unlink. }
+    assert (HhasB : forall m, has tB m <-> has t7 m).
+    { intros m. unfold tB. rewrite has_upd. unfold tA. apply has_unlink. }
+    assert (BB : BInv [c] tB).
+    { apply (BInv_reopen t6 tB c (TInv_BInv t6 T6 Hsreg6) Hgc); try reflexivity; try (apply HfldB; reflexivity).
+      - intros m Hm. split; [rewrite HparB, decide_False by exact Hm; reflexivity|].
+        rewrite HdeclB, cp_decl7, decide_False by exact Hm. reflexivity.
+      - apply (edges_ok_ext tA tB); [apply HfB; reflexivity|apply HfB; reflexivity|].
+        apply edges_ok_unlink. apply (edges_ok_ext t6 t7); [apply cp_field7; reflexivity|apply cp_field7; reflexivity|apply T6].
+      - intros m Hmc Hm. destruct (decide (m = o)) as [->|Hmo].
+        + apply isNecessary_true. left. unfold tB. rewrite nd_upd_eq by exact HhA. reflexivity.
+        + rewrite (isNecessary_ext (nd tB m) (nd t6 m)); [|apply HforB, Hmo|apply HchiB, Hmo|apply HfldB; reflexivity].
+          rewrite <- (t_nec _ _ _ T6 m (Hnil m)); [exact Hm|intros []].
+      - intros m Hm. assert (Hmo : m <> o) by (intros ->; congruence). split; [apply HchiB, Hmo|apply HforB, Hmo].
+      - intros m. rewrite HhasB. apply cp_has7. }
+    assert (HrelB : forall m,
+      nkind (nd tB m) = nkind (nd t7 m) /\ decl (nd tB m) = decl (nd t7 m) /\
+      scope (nd tB m) = scope (nd t7 m) /\ valid (nd tB m) = valid (nd t7 m) /\
+      inGraph (nd tB m) = inGraph (nd t7 m) /\
+      hAdj (nd tB m) = hAdj (nd t7 m) /\ recomputedAt (nd tB m) = recomputedAt (nd t7 m) /\
+      changedAt (nd tB m) = changedAt (nd t7 m) /\ setAt (nd tB m) = setAt (nd t7 m)).
+    { intros m. repeat split; try apply HdeclB;
+        (etransitivity; [apply HfldB; reflexivity|symmetry; apply cp_field7; reflexivity]). }
+    assert (HpB : parents (nd tB c) = [b]) by (rewrite HparB, decide_True by reflexivity; reflexivity).
+    assert (HnB : isNecessary (nd tB c) = true).
+    { rewrite (isNecessary_ext (nd tB c) (nd t6 c)); [|apply HforB; congruence|apply HchiB; congruence|apply HfldB; reflexivity].
+      rewrite <- (t_nec _ _ _ T6 c (Hnil c)); [exact Hgc|intros []]. }
+    apply nc_ebind.
+    { apply (nc_cp_add tB r Er BB HrelB ltac:(apply HfldB; reflexivity) HpB HnB eq_refl eq_refl HhasB eq_refl eq_refl eq_refl eq_refl eq_refl eq_refl eq_refl eq_refl fuel). }
+    intros tC H2. apply nc_lift.
+    destruct (cp_add tB r Er BB HrelB ltac:(apply HfldB; reflexivity) HpB HnB eq_refl eq_refl HhasB eq_refl eq_refl eq_refl eq_refl eq_refl eq_refl eq_refl eq_refl fuel tC None H2) as (BC & FC & RC).
+    assert (HhC : has tC o) by (apply (cf_has _ _ FC), HhasB, cp_has7, Hho).
+    pose proof (TInv_unforce tC o (BInv_TInv tC BC) HhC) as TD.
+    apply (nc_checkIfUnnecessary fuel _ o [] TD). intros Hx; inversion Hx.
+  Qed.
+
+  Lemma nc_changeParent fuel oR rt :
+    oR = oldRhs -> rt = root -> nocrash (changeParent fuel t7 c oR rt).
+  Proof.
+    intros Eo Er. unfold changeParent. destruct oR as [o|], rt as [r|].
+    - destruct (decide (o = r)) as [->|Hor].
+      + rewrite bool_decide_true by reflexivity. apply nc_Ok.
+      + rewrite bool_decide_false by exact Hor. apply (nc_case_swap fuel o r (eq_sym Eo) (eq_sym Er) Hor).
+    - apply nc_lift. apply (nc_case_rm fuel o (eq_sym Eo) (eq_sym Er)).
+    - apply (nc_case_add fuel r (eq_sym Eo) (eq_sym Er)).
+    - apply nc_Ok.
   Qed.
 
   Lemma changeParent_spec fuel oR rt t8 e :
@@ -7626,6 +8970,95 @@ Section inval.
     induction fuel as [|fuel IH]; [|apply inval_step, IH].
     intros P t n t' _ _ _ H. discriminate.
   Qed.
+
+  (* ... and never faults *)
+  Definition inval_nc (fuel : nat) : Prop := forall P t n,
+    JI P t -> dm n -> (forall p, p ∈ P -> (p < n)%nat) -> nocrash (invalidateNode fuel t n).
+
+  Lemma inval_nc_loop fuel : inval_nc fuel -> forall l P t,
+    JI P t -> (forall m, m ∈ l -> dm m /\ forall p, p ∈ P -> (p < m)%nat) ->
+    nocrash (rfold (invalidateNode fuel) l t).
+  Proof.
+    intros IH l P t J Hl.
+    apply (nc_rfold (fun rest st => JI P st /\ forall m, m ∈ rest -> dm m /\ forall p, p ∈ P -> (p < m)%nat)).
+    - split; [exact J|exact Hl].
+    - intros a rest st [Jst Hrest]. destruct (Hrest a ltac:(left)) as [Hda Hpa]. split.
+      + apply (IH P st a Jst Hda Hpa).
+      + intros s1 E. split; [apply (inval_all fuel P st a s1 Jst Hda Hpa E)|].
+        intros m Hm. apply Hrest. right. exact Hm.
+  Qed.
+
+  Lemma inval_nc_step fuel : inval_nc fuel -> inval_nc (S fuel).
+  Proof.
+    intros IH P t n J Hdn HP. rewrite invalidateNode_S.
+    destruct (valid (nd t n)) eqn:Hvn; cbn [negb]; cbv iota; [|apply nc_Ok].
+    cbv zeta.
+    pose proof (j_same _ _ J) as Sm.
+    set (s1 := emit (EvInval n) t) in *.
+    set (s2 := upd s1 n (fun x => x <| changedAt := stabNum s1 |> <| recomputedAt := stabNum s1 |>)) in *.
+    assert (Hhn : has t n) by (apply (is_has _ _ Sm), dm_has, Hdn).
+    assert (Hnd2 : forall m, nd s2 m = if decide (m = n) then (nd t n) <| changedAt := stabNum t |> <| recomputedAt := stabNum t |> else nd t m).
+    { intros m. unfold s2. rewrite nd_upd by (apply has_emit, Hhn). unfold s1. rewrite !nd_emit. reflexivity. }
+    assert (Hv2 : forall m, valid (nd s2 m) = valid (nd t m)).
+    { intros m. rewrite Hnd2. destruct (decide (m = n)) as [->|]; reflexivity. }
+    assert (S2 : iv_same t0 s2).
+    { eapply iv_same_trans; [exact Sm|]. eapply iv_same_trans; [apply (iv_same_emit t (EvInval n))|].
+      apply iv_same_upd. intros x. repeat split. }
+    assert (HnP : n ∉ P) by (intros Hx; specialize (HP n Hx); lia).
+    assert (Hnlog : EvInval n ∉ log t).
+    { intros Hx. apply (j_inval _ _ J) in Hx as [Hx|Hx]; [congruence|contradiction]. }
+    assert (J2 : JI (n :: P) s2).
+    { split.
+      - exact S2.
+      - intros m. rewrite Hv2. apply (j_valid _ _ J).
+      - intros m. rewrite Hnd2. destruct (decide (m = n)) as [->|]; [|apply (j_stamps _ _ J)].
+        cbn. rewrite (is_stabNum _ _ Sm). pose proof (st_num _ (m_stamps _ _ R0)). lia.
+      - change (log s2) with (EvInval n :: log t). split; [exact Hnlog|apply (j_log _ _ J)].
+      - intros m. change (log s2) with (EvInval n :: log t). simpl. apply (j_lastNU _ _ J).
+      - intros m. change (log s2) with (EvInval n :: log t). rewrite Hv2, !elem_of_cons, (j_inval _ _ J m).
+        split; [intros [[= ->]|[?|?]]; auto|intros [?|[->|?]]; auto].
+      - intros p [->|Hp]%elem_of_cons; rewrite Hv2; [exact Hvn|apply (j_P _ _ J), Hp].
+      - intros b1 m. unfold inGen. change (bd s2 b1) with (bd t b1). rewrite !Hv2. apply (j_G _ _ J). }
+    assert (Hg0 : inGraph (nd t0 n) = false) by apply dm_unreg, Hdn.
+    destruct (t_zero _ _ _ T0 n Hg0) as (_ & Hc0 & Ho0 & _).
+    assert (Hnec : isNecessary (nd s2 n) = false).
+    { apply isNecessary_false. destruct (is_node _ _ S2 n) as (_&_&_&_&_&_&_&->&->&->&_). auto. }
+    rewrite Hnec. rewrite rbind_Ok. cbv beta.
+    assert (Hk2 : nkind (nd s2 n) = nkind (nd t0 n)) by apply (is_node _ _ S2 n).
+    assert (Main : forall b1, nkind (nd t0 n) = KBindMain b1 ->
+              forall m, m ∈ b_rhsNodes (bd s2 b1) -> dm m /\ forall p, p ∈ n :: P -> (p < m)%nat).
+    { intros b1 Ek.
+      pose proof (m_kinds _ _ R0 n (dm_has n Hdn)) as K. rewrite Ek in K. destruct K as [En [r1 Hr1]]. subst n.
+      pose proof (m_binds _ _ R0 b1 r1 Hr1) as W.
+      assert (Hdb1 : dm b1).
+      { destruct (doomed_scope D b t0 HD (S b1) Hdn) as (b2 & Hs2 & [[-> Hd]|Hd2]).
+        - apply dm_old. apply HDpair; [exact Hd|exact Ek].
+        - apply (dm_in D t0 b1 b2); [rewrite <- (bw_scope _ _ _ W); exact Hs2|exact Hd2]. }
+      intros m Hm. change (bd s2 b1) with (bd t b1) in Hm. unfold bd in Hm. rewrite (is_binds _ _ Sm), Hr1 in Hm. simpl in Hm.
+      destruct (bw_rhsNodes _ _ _ W m Hm) as [_ Hsm].
+      split; [apply (dm_in D t0 m b1 Hsm Hdb1)|].
+      destruct (m_scopes _ _ R0 m b1 Hsm) as [_ Hlt].
+      intros p [->|Hp]%elem_of_cons; [exact Hlt|]. specialize (HP p Hp). lia. }
+    rewrite Hk2.
+    apply nc_rbind.
+    - destruct (nkind (nd t0 n)) as [e0| |f0|f0|f0|c0| |b1|b1] eqn:Ek; try apply nc_Ok.
+      apply (inval_nc_loop fuel IH _ (n :: P) s2 J2 (Main b1 eq_refl)).
+    - intros s3 E3.
+      assert (J3 : JI (n :: P) s3).
+      { destruct (nkind (nd t0 n)) as [e0| |f0|f0|f0|c0| |b1|b1] eqn:Ek; try (injection E3 as <-; exact J2).
+        apply (inval_loop fuel (inval_all fuel) _ (n :: P) s2 s3 J2 (Main b1 eq_refl) E3). }
+      pose proof (j_same _ _ J3) as S3.
+      match goal with |- nocrash (if inHeap ?s5 n then _ else _) => destruct (inHeap s5 n) eqn:E; [|apply nc_Ok] end.
+      apply nc_heapRemove; [|exact E].
+      match goal with |- hinv (heap ?s5) => change (heap s5) with (heap s3) end.
+      rewrite (is_heap _ _ S3). apply (t_heap _ _ _ T0).
+  Qed.
+
+  Lemma inval_nc_all fuel : inval_nc fuel.
+  Proof.
+    induction fuel as [|fuel IH]; [|apply inval_nc_step, IH].
+    intros P t n _ _ _. apply nc_fuel.
+  Qed.
 End inval.
 
 (** ** the pass invariant after the discarded generation has been invalidated *)
@@ -7852,13 +9285,61 @@ Proof.
   split; [|eauto]. destruct k; injection H as _ <-; auto.
 Qed.
 
+Lemma invoke_norun p s n w s' e : invoke p s n w = Ok (s', e) -> norun_ext s s'.
+Proof.
+  intros H. unfold invoke in H. apply rbind_ok in H as ([s1 f] & H1 & H).
+  unfold applyActions in H1. pose proof (applyActions_log _ _ _ _ _ H1) as E1.
+  destruct f as [[|]|]; injection H as <- _.
+  - exists [EvFault n w FErr]. split; [simpl; rewrite E1; reflexivity|repeat constructor].
+  - exists [EvFault n w FPanic]. split; [simpl; rewrite E1; reflexivity|repeat constructor].
+  - apply norun_ext_refl, E1.
+Qed.
+
+Lemma rfold_norun {A} (f : state -> A -> res state) l : forall s s',
+  (forall st a st', f st a = Ok st' -> norun_ext st st') -> rfold f l s = Ok s' -> norun_ext s s'.
+Proof.
+  induction l as [|a l IH]; intros s s' Hf H; simpl in H; [injection H as <-; apply norun_ext_refl; reflexivity|].
+  apply rbind_ok in H as (s1 & H1 & H). eapply norun_ext_trans; [apply (Hf _ _ _ H1)|apply (IH _ _ Hf H)].
+Qed.
+
+Lemma invalidateNode_norun fuel : forall s n s', invalidateNode fuel s n = Ok s' -> norun_ext s s'.
+Proof.
+  induction fuel as [|fuel IH]; intros s n s' H; [discriminate|]. rewrite invalidateNode_S in H.
+  destruct (negb (valid (nd s n))); [injection H as <-; apply norun_ext_refl; reflexivity|].
+  cbv zeta in H. set (s1 := upd (emit (EvInval n) s) n _) in H.
+  assert (N1 : norun_ext s s1) by (exists [EvInval n]; split; [reflexivity|repeat constructor]).
+  apply rbind_ok in H as (s2 & H2 & H).
+  assert (N2 : norun_ext s1 s2).
+  { destruct (isNecessary (nd s1 n)); [|injection H2 as <-; apply norun_ext_refl; reflexivity].
+    apply rbind_ok in H2 as (s3 & H3 & [= <-]).
+    eapply norun_ext_trans; [|apply norun_ext_refl; reflexivity].
+    apply (norun_ext_of is_unnec); [intros e [m ->]; reflexivity|].
+    apply (tf_log _ _ (proj1 (teardown_frame fuel) s1 n s3 H3)). }
+  apply rbind_ok in H as (s4 & H4 & H).
+  assert (N4 : norun_ext s2 s4).
+  { destruct (nkind (nd s2 n)); try (injection H4 as <-; apply norun_ext_refl; reflexivity).
+    apply (rfold_norun _ _ _ _ (fun st a st' Ha => IH st a st' Ha) H4). }
+  eapply norun_ext_trans; [exact N1|]. eapply norun_ext_trans; [exact N2|]. eapply norun_ext_trans; [exact N4|].
+  match type of H with (if ?c then _ else _) = _ => destruct c end.
+  - apply heapRemove_inv in H as (w & _ & ->). apply norun_ext_refl. reflexivity.
+  - injection H as <-. apply norun_ext_refl. reflexivity.
+Qed.
+
+Lemma invalidate_loop_norun fuel l s s' : rfold (invalidateNode fuel) l s = Ok s' -> norun_ext s s'.
+Proof. apply rfold_norun. intros st a st'. apply invalidateNode_norun. Qed.
+
 Theorem bind_full_nomemo fuel p s b s' e :
   PInv s -> plan_ok s p = true -> nkind (nd s b) = KBindLhs b -> inGraph (nd s b) = true ->
   b_memo (bd s b) = false ->
   bindLhsStabilize fuel p s b = Ok (s', e) ->
   rejected_err e \/
   (PInv s' /\ plan_ok s' p = true /\ stabNum s' = stabNum s /\ kstable s s' /\
-   (e = None \/ ((e = Some (EUser b) \/ e = Some (EPanic b)) /\ exists k, AFail k ∈ actions_of p b WFn))).
+   (e = None \/ ((e = Some (EUser b) \/ e = Some (EPanic b)) /\ exists k, AFail k ∈ actions_of p b WFn)) /\
+   (* the log of a successful run: the bind function's event, and the old generation invalidated *)
+   (e = None -> exists x root l1 l2,
+      log s' = l2 ++ EvBindFn b x root :: l1 ++ log s /\
+      Forall (fun ev => ev_runs ev = None) l1 /\ Forall (fun ev => ev_runs ev = None) l2 /\
+      (b_rhs (bd s b) <> None -> forall n, n ∈ b_rhsNodes (bd s b) -> EvInval n ∈ l2))).
 Proof.
   intros P Hp Hk Hg Hnm H.
   pose proof (p_kinds s P b (has_inGraph s b Hg)) as K. rewrite Hk in K. destruct K as [_ [r0 Hr0]].
@@ -7886,6 +9367,7 @@ Proof.
     pose proof (soft_binds_irrel s s2 _ (binds s1) S12 eq_refl) as S02.
     split; [apply (PInv_of_soft s _ P S02)|]. split; [apply (plan_ok_struct s _ p (so_struct _ _ S02) Hp)|].
     split; [apply (so_stabNum _ _ S02)|]. split; [apply kstable_struct, (so_struct _ _ S02)|].
+    split; [|intros [=]].
     right. destruct (invoke_fault p s1 b WFn s2 x1 Hinv) as [[-> | ->] Hf]; (split; [auto|exact Hf]).
   - (* the bind function returned: instantiate the chosen template *)
     set (x := valueOf s1 (b_lhs r0)) in *.
@@ -7938,7 +9420,8 @@ Proof.
     { intros m. destruct (cpf_node _ _ F8 m) as (_&_&_&->). apply Hfield7. reflexivity. }
     assert (Hk8 : forall m, nkind (nd t8 m) = nkind (nd s6 m)).
     { intros m. destruct (cpf_node _ _ F8 m) as (->&_). apply Hfield7. reflexivity. }
-    assert (P9 : PInv t9 /\ (forall m, has t9 m <-> has t8 m) /\ (forall m, nkind (nd t9 m) = nkind (nd t8 m)) /\ stabNum t9 = stabNum t8).
+    assert (P9 : PInv t9 /\ (forall m, has t9 m <-> has t8 m) /\ (forall m, nkind (nd t9 m) = nkind (nd t8 m)) /\ stabNum t9 = stabNum t8 /\
+                 norun_ext t8 t9 /\ (oldRhs <> None -> forall n, D n -> EvInval n ∈ log t9 /\ EvInval n ∉ log t8)).
     { destruct oldRhs as [o|] eqn:Eo.
       - (* the old generation is invalidated *)
         assert (HD : forall n, D n -> scope (nd t8 n) = Some b /\ ~ inGen t8 b n).
@@ -7955,20 +9438,131 @@ Proof.
         destruct (inval_loop D t8 fuel IS oldNodes [] t8 t9 J8) as (J9 & Hall & _); [|exact Hiv|].
         { intros m Hm. split; [apply dm_old; exact Hm|intros q Hq; inversion Hq]. }
         split; [apply (inval_PInv D b t8 T8 R8 Hf8 HD HDdec HDp2 t9 J9 Hall)|].
-        pose proof (j_same _ _ _ _ J9) as Sm. split; [apply Sm|]. split; [intros m; apply (is_node _ _ Sm m)|apply Sm].
-      - injection Hiv as <-. split; [|split; [reflexivity|split; reflexivity]].
+        pose proof (j_same _ _ _ _ J9) as Sm. split; [apply Sm|]. split; [intros m; apply (is_node _ _ Sm m)|]. split; [apply Sm|].
+        split; [apply (invalidate_loop_norun fuel oldNodes t8 t9 Hiv)|].
+        intros _ n Hn. split.
+        + apply (j_inval _ _ _ _ J9 n). left. apply Hall, Hn.
+        + intros Hx. apply (m_inval _ _ R8 n) in Hx. rewrite (HDv n Hn) in Hx. discriminate.
+      - injection Hiv as <-. split; [|split; [reflexivity|split; [reflexivity|split; [reflexivity|split; [apply norun_ext_refl; reflexivity|intros Hx; congruence]]]]].
         apply PInv_join; [exact T8| |exact Hf8].
         apply (RestM_impl D noD t8); [|exact R8]. intros n Hn. unfold D in Hn. rewrite Holdne in Hn. inversion Hn. }
-    destruct P9 as (P9 & Hh9 & Hk9 & Hs9).
+    destruct P9 as (P9 & Hh9 & Hk9 & Hs9 & Hl9 & Hiv9).
     apply propagateInvalidity_nil_inv in H; [|apply (pq_invq t9 (p_pq t9 P9))]. subst s'.
     split; [exact P9|]. split.
     + apply (plan_ok_kinds s7 t9 p); [| |exact Hplan7].
       * intros m. rewrite Hh9. apply (cpf_has _ _ F8).
       * intros m. rewrite Hk9. apply (cpf_node _ _ F8 m).
-    + split; [rewrite Hs9, (cpf_stabNum _ _ F8); exact Hstab7|]. split; [|left; reflexivity].
-      intros m Hm. split.
-      * apply Hh9, (cpf_has _ _ F8). unfold s7. apply has_upd. apply Hhas6, Hm.
-      * rewrite Hk9, Hk8. apply (Holdnd m Hm).
+    + split; [rewrite Hs9, (cpf_stabNum _ _ F8); exact Hstab7|]. split; [|split; [left; reflexivity|]].
+      * intros m Hm. split.
+        -- apply Hh9, (cpf_has _ _ F8). unfold s7. apply has_upd. apply Hhas6, Hm.
+        -- rewrite Hk9, Hk8. apply (Holdnd m Hm).
+      * intros _. destruct Hl9 as (l' & El' & Fl'). destruct (cpf_log _ _ F8) as (l & El & Fl).
+        change (log (upd s6 (S b) (set decl (fun _ => b :: option_list root)))) with (log s6) in El.
+        assert (Hi'' : inst s2 (Some b) x (nth (Z.to_nat (x mod Z.of_nat (length (b_cases (bd s b))))) (b_cases (bd s b)) TNil) = (s3, root))
+          by (rewrite Hbd; exact Hinst).
+        assert (Hlg6 : log s6 = EvBindFn b x root :: log s) by exact (run_fn_log p s b P Hp Hk Hg s2 Hinv x s3 root Hi'').
+        rewrite Hlg6 in El.
+        exists x, root, [], (l' ++ l). split; [rewrite El', El, <- app_assoc; reflexivity|].
+        split; [constructor|]. split; [apply Forall_app; auto|].
+        intros Hne n Hn. destruct (Hiv9 Hne n Hn) as [Hin Hnin].
+        rewrite El' in Hin. apply elem_of_app in Hin as [Hin|Hin]; [apply elem_of_app; left; exact Hin|contradiction].
+Qed.
+
+Theorem nc_bind_nomemo fuel p s b :
+  PInv s -> plan_ok s p = true -> nkind (nd s b) = KBindLhs b -> inGraph (nd s b) = true ->
+  b_memo (bd s b) = false ->
+  nocrash (bindLhsStabilize fuel p s b).
+Proof.
+  intros P Hp Hk Hg Hnm.
+  pose proof (p_kinds s P b (has_inGraph s b Hg)) as K. rewrite Hk in K. destruct K as [_ [r0 Hr0]].
+  pose proof (p_binds s P b r0 Hr0) as W0.
+  assert (Hbd : bd s b = r0) by (unfold bd; rewrite Hr0; reflexivity).
+  pose proof Hnm as Hnm0. rewrite Hbd in Hnm0.
+  unfold bindLhsStabilize. rewrite Hbd. rewrite Hnm0, (bw_main _ _ _ W0).
+  cbv zeta. cbv iota.
+  set (f1 := set b_rhsNodes (fun _ : list nid => [])) in *.
+  set (s1 := updb s b f1) in *.
+  destruct (PInv_hreg s P) as [Hr Hkp].
+  apply nc_rbind.
+  { apply nc_rbind; [apply (nc_invoke p s1 b WFn); [exact Hr|exact Hkp]|].
+    intros [s2 e1] _. destruct e1; [apply nc_Ok|]. destruct (inst _ _ _ _); apply nc_Ok. }
+  intros [[sx ex] built] H1.
+  apply rbind_ok in H1 as ([s2 e1] & Hinv & H1).
+  destruct e1 as [x1|].
+  { injection H1 as <- <- <-. apply nc_Ok. }
+  set (x := valueOf s1 (b_lhs r0)) in *.
+  set (case := nth (Z.to_nat (x mod Z.of_nat (length (b_cases r0)))) (b_cases r0) TNil) in *.
+  destruct (inst s2 (Some b) x case) as [s3 root] eqn:Hinst.
+  injection H1 as <- <- <-.
+  assert (Hinst' : inst s2 (Some b) x (nth (Z.to_nat (x mod Z.of_nat (length (b_cases (bd s b))))) (b_cases (bd s b)) TNil) = (s3, root))
+    by (rewrite Hbd; exact Hinst).
+  pose proof (run_fn_post p s b P Hp Hk Hg Hnm s2 Hinv x s3 root Hinst') as FP.
+  destruct FP as [T6 R7 Hvc7 Hforce Hrhs Hdecl6 Hroot Hnew Hold Holdnd Hhas6 Hsreg6 Hmain [Hgb6 Hkb6] Holdne Hpair1 Hpair2 Hplan7 Hstab7].
+  rewrite Hbd in *.
+  set (s6 := updb (updb (emit (EvBindFn b x root) s3) b
+               (fun r => r <| b_gen := S (b_gen r) |> <| b_cache := if b_memo r then b_cache r ++ [(x, root)] else b_cache r |>))
+               b (set b_rhs (fun _ => root))) in *.
+  set (oldNodes := b_rhsNodes r0) in *. set (oldRhs := b_rhs r0) in *.
+  set (D := fun n : nid => n ∈ oldNodes).
+  assert (HDdec : forall n, D n \/ ~ D n) by (intros n; unfold D; destruct (decide (n ∈ oldNodes)); auto).
+  assert (Hs7 : upd s6 (S b) (set decl (fun _ => match root with Some r => [b; r] | None => [b] end)) =
+                upd s6 (S b) (set decl (fun _ => b :: option_list root))) by (destruct root; reflexivity).
+  rewrite Hs7 in *.
+  set (s7 := upd s6 (S b) (set decl (fun _ => b :: option_list root))) in *.
+  assert (Hfield7 : forall {A} (g : node -> A), (forall y f, g (set decl f y) = g y) -> forall m, g (nd s7 m) = g (nd s6 m)).
+  { intros A g Hg' m. unfold s7. apply nd_upd_proj. intros y. apply Hg'. }
+  assert (Hvb6 : valid (nd s6 b) = true) by (apply (t_valid _ _ _ T6), Hgb6).
+  assert (Hroot' : match root with
+                   | Some r => has s6 r /\ r <> b /\ valid (nd s6 r) = true /\
+                               (forall b', scope (nd s6 r) = Some b' -> b' = b)
+                   | None => True end).
+  { destruct root as [r|]; [|exact Logic.I]. destruct Hroot as (H1 & H2 & H3).
+    split; [exact H1|]. split; [intros ->; unfold not_lhs in H2; rewrite Hkb6 in H2; exact H2|].
+    split.
+    - rewrite <- (Hfield7 _ valid) by reflexivity. destruct H3 as [E|[E G]].
+      + apply (m_vtop _ _ R7). rewrite (Hfield7 _ scope) by reflexivity. exact E.
+      + rewrite (m_vgen _ _ R7 r b G). rewrite (Hfield7 _ valid) by reflexivity. exact Hvb6.
+    - intros b' Hs. destruct H3 as [E|[E _]]; congruence. }
+  assert (Hold' : match oldRhs with Some o => o <> b | None => True end)
+    by (destruct oldRhs; [exact Holdne|exact Logic.I]).
+  assert (HoldD : forall n, D n -> scope (nd s6 n) = Some b) by (intros n Hn; apply (Hold n Hn)).
+  apply nc_ebind.
+  { apply (nc_changeParent D s6 b oldRhs root T6 Hsreg6 R7 Hvc7 Hforce Hdecl6 Hgb6 Hmain Hroot' Hold' HoldD HDdec fuel oldRhs root eq_refl eq_refl). }
+  intros t8 Hcp.
+  pose proof (changeParent_spec D s6 b oldRhs root T6 Hsreg6 R7 Hvc7 Hforce Hdecl6 Hgb6 Hmain Hroot' Hold' HoldD HDdec
+                fuel oldRhs root t8 None eq_refl eq_refl Hcp) as (T8 & R8 & Hf8 & F8).
+  assert (Hsc8 : forall m, scope (nd t8 m) = scope (nd s6 m)).
+  { intros m. destruct (cpf_node _ _ F8 m) as (_&_&->&_). apply Hfield7. reflexivity. }
+  assert (Hv8 : forall m, valid (nd t8 m) = valid (nd s6 m)).
+  { intros m. destruct (cpf_node _ _ F8 m) as (_&_&_&->). apply Hfield7. reflexivity. }
+  assert (Hk8 : forall m, nkind (nd t8 m) = nkind (nd s6 m)).
+  { intros m. destruct (cpf_node _ _ F8 m) as (->&_). apply Hfield7. reflexivity. }
+  assert (Inval : nocrash (match oldRhs with Some _ => rfold (invalidateNode fuel) oldNodes t8 | None => Ok t8 end) /\
+                  forall t9, (match oldRhs with Some _ => rfold (invalidateNode fuel) oldNodes t8 | None => Ok t8 end) = Ok t9 ->
+                    invq t9 = []).
+  { destruct oldRhs as [o|] eqn:Eo.
+    - assert (HD : forall n, D n -> scope (nd t8 n) = Some b /\ ~ inGen t8 b n).
+      { intros n Hn. destruct (Hold n Hn) as (Hhn & Hsn & _). split; [rewrite Hsc8; exact Hsn|].
+        unfold inGen, bd. rewrite (cpf_binds _ _ F8). intros Hg8. apply (Hnew n Hg8 Hhn). }
+      assert (HDp1 : forall b1, D (S b1) -> nkind (nd t8 (S b1)) = KBindMain b1 -> D b1).
+      { intros b1 Hd1. rewrite Hk8. apply Hpair1, Hd1. }
+      assert (HDp2 : forall b1, D b1 -> nkind (nd t8 b1) = KBindLhs b1 -> D (S b1)).
+      { intros b1 Hd1. rewrite Hk8. apply Hpair2, Hd1. }
+      assert (HDv : forall n, D n -> valid (nd t8 n) = true).
+      { intros n Hn. rewrite Hv8. apply (Hold n Hn). }
+      pose proof (JI_start D t8 T8 R8 HDdec HDp2 HDv) as J8.
+      assert (Hl : forall m, m ∈ oldNodes -> doomed D t8 m /\ forall q, q ∈ [] -> (q < m)%nat).
+      { intros m Hm. split; [apply dm_old; exact Hm|intros q Hq; inversion Hq]. }
+      split.
+      + apply (inval_nc_loop D b t8 T8 R8 Hf8 HD HDdec HDp1 fuel (inval_nc_all D b t8 T8 R8 Hf8 HD HDdec HDp1 fuel) oldNodes [] t8 J8 Hl).
+      + intros t9 Hiv.
+        destruct (inval_loop D t8 fuel (inval_all D b t8 T8 R8 Hf8 HD HDdec HDp1 fuel) oldNodes [] t8 t9 J8 Hl Hiv) as (J9 & _ & _).
+        rewrite (is_invq _ _ (j_same _ _ _ _ J9)). apply (m_invq _ _ R8).
+    - split; [apply nc_Ok|]. intros t9 [= <-]. apply (m_invq _ _ R8). }
+  destruct Inval as [In1 In2].
+  apply nc_ebind; [apply nc_lift, In1|]. intros t9 Hiv. apply lift_inv in Hiv as [Hiv _].
+  apply nc_lift. destruct fuel as [|k]; [apply nc_fuel|].
+  rewrite (propagateInvalidity_nil k t9 (In2 t9 Hiv)). apply nc_Ok.
 Qed.
 
 (** * Memoized binds: the function builds top-level nodes, owned by the bind in the ghost order *)
@@ -8261,6 +9855,20 @@ Proof.
   - (* TNil *) injection H as <- <-. simpl in W. exists own. split; [exact MS|]. split; [apply mframe_refl|]. auto.
 Qed.
 
+(* what the three theorems about a memoized bind's recomputation need of the tail *)
+Definition tail_ok (s3 s6 : state) (b : nat) (r3 r6 : bindrec) (root : option nid) : Prop :=
+  let s7 := upd s6 (S b) (set decl (fun _ => b :: option_list root)) in
+  TInv [] noE s6 /\ inGraph (nd s6 b) = true /\
+  (forall v, v ∈ setDuring s6 \/ v ∈ setRemoved s6 -> exists e, nkind (nd s6 v) = KVar e) /\
+  forall fuel, nocrash (changeParent fuel s7 (S b) (b_rhs r3) root) /\
+    forall t8 e, changeParent fuel s7 (S b) (b_rhs r3) root = Ok (t8, e) ->
+    match e with
+    | Some x => adj_err x
+    | None => PInv t8 /\ (forall m, has t8 m <-> has s3 m) /\
+              (forall m, nkind (nd t8 m) = nkind (nd s3 m)) /\ stabNum t8 = stabNum s3 /\
+              binds t8 = <[b := r6]> (binds s3) /\ norun_ext s6 t8
+    end.
+
 (** ** the tail of a memoized bind's recomputation: new right-hand side, possibly a new cache entry *)
 Section memo_tail.
   Context (own : nid -> option nat) (s3 s6 : state) (b : nat) (r3 r6 : bindrec) (root : option nid) (l : list event).
@@ -8333,6 +9941,8 @@ Section memo_tail.
     - intros m _. rewrite mt_nd6. reflexivity.
     - intros m _. rewrite mt_nd6. reflexivity.
     - intros n _ Hn. rewrite Hb6, lookup_insert_ne; [exact Hn|]. intros <-. rewrite Hr3 in Hn. discriminate.
+    - right. intros n Hn Hx. apply (p_inval s3 P3 n) in Hx.
+      rewrite (t_valid _ _ _ (p_t s3 P3) n Hn) in Hx. discriminate.
     - apply (p_t s3 P3).
   Qed.
 
@@ -8458,15 +10068,16 @@ Section memo_tail.
       rewrite HsetDuring, HsetRemoved, fk. apply (pq_vars s3 PQ).
   Qed.
 
-  Lemma memo_tail fuel t8 e :
-    changeParent fuel s7 (S b) oldRhs root = Ok (t8, e) ->
+  Lemma memo_tail_nc fuel : nocrash (changeParent fuel s7 (S b) oldRhs root) /\
+    forall t8 e, changeParent fuel s7 (S b) oldRhs root = Ok (t8, e) ->
     match e with
     | Some x => adj_err x
     | None => PInv t8 /\ (forall m, has t8 m <-> has s3 m) /\
-              (forall m, nkind (nd t8 m) = nkind (nd s3 m)) /\ stabNum t8 = stabNum s3
+              (forall m, nkind (nd t8 m) = nkind (nd s3 m)) /\ stabNum t8 = stabNum s3 /\
+              binds t8 = <[b := r6]> (binds s3) /\ norun_ext s6 t8
     end.
   Proof.
-    intros Hcp. pose proof memo_T6 as T6. pose proof memo_R7 as R7. pose proof mt_W as Wb.
+    pose proof memo_T6 as T6. pose proof memo_R7 as R7. pose proof mt_W as Wb.
     pose proof mt_root_has as HRH.
     pose proof P3 as [T Iids Ibinds Ikinds Iscopes Iscoping V1 V2 V3 PQ Ishape Istamps Iinval].
     assert (Hvc7 : forall m q, valid (nd s7 m) = true -> q ∈ decl (nd s7 m) -> valid (nd s7 q) = true).
@@ -8491,16 +10102,75 @@ Section memo_tail.
     assert (Hold : match oldRhs with Some o => o <> b | None => True end).
     { unfold oldRhs. destruct (b_rhs r3) as [o|] eqn:Eo; [|exact Logic.I]. intros ->.
       apply (sc_rhs_nl s3 Iscoping b b b); [unfold bd; rewrite Hr3; exact Eo|apply (bw_kind_lhs _ _ _ Wb)]. }
+    split.
+    { apply (nc_changeParent noD s6 b oldRhs root T6 Hsreg6 R7 Hvc7 Hforce Hdecl6 Hgb6 Hgc6 Hroot' Hold
+               ltac:(intros n []) ltac:(intros n; right; intros []) fuel oldRhs root eq_refl eq_refl). }
+    intros t8 e Hcp.
     pose proof (changeParent_spec noD s6 b oldRhs root T6 Hsreg6 R7 Hvc7 Hforce Hdecl6 Hgb6 Hgc6 Hroot' Hold
                   ltac:(intros n []) ltac:(intros n; right; intros []) fuel oldRhs root t8 e eq_refl eq_refl Hcp) as CP.
     destruct e as [x2|]; [exact CP|].
     destruct CP as (T8 & R8 & Hf8 & F8).
-    split; [apply PInv_join; assumption|]. split; [|split].
+    split; [apply PInv_join; assumption|]. split; [|split; [|split; [|split]]].
     - intros m. rewrite (cpf_has _ _ F8). apply mt_has7.
     - intros m. destruct (cpf_node _ _ F8 m) as (->&_). apply mt_fld. reflexivity.
     - rewrite (cpf_stabNum _ _ F8). change (stabNum s7) with (stabNum s6). exact HstabNum.
+    - rewrite (cpf_binds _ _ F8). change (binds s7) with (binds s6). exact Hb6.
+    - exact (cpf_log _ _ F8).
+  Qed.
+
+  Lemma memo_vars6 : forall v, v ∈ setDuring s6 \/ v ∈ setRemoved s6 -> exists e, nkind (nd s6 v) = KVar e.
+  Proof. intros v. rewrite HsetDuring, HsetRemoved, mt_nd6. apply (pq_vars s3 (p_pq s3 P3)). Qed.
+
+  Lemma memo_tail_ok : tail_ok s3 s6 b r3 r6 root.
+  Proof.
+    split; [exact memo_T6|]. split; [rewrite mt_nd6; exact Hgb|]. split; [exact memo_vars6|].
+    intros fuel. apply memo_tail_nc.
   Qed.
 End memo_tail.
+
+Definition memo_tailx (fuel : nat) (s6 : state) (b : nat) (oldRhs root : option nid) : M :=
+  s0 <-? changeParent fuel (upd s6 (S b) (set decl (fun _ => match root with Some r => [b; r] | None => [b] end))) (S b) oldRhs root;
+  s1 <-? lift (match oldRhs with Some _ => rfold (invalidateNode fuel) [] s0 | None => Ok s0 end);
+  lift (propagateInvalidity fuel s1).
+
+Lemma memo_tailx_eq fuel s6 b oldRhs root :
+  memo_tailx fuel s6 b oldRhs root =
+  (s0 <-? changeParent fuel (upd s6 (S b) (set decl (fun _ => b :: option_list root))) (S b) oldRhs root;
+   s1 <-? lift (Ok s0); lift (propagateInvalidity fuel s1)).
+Proof.
+  unfold memo_tailx.
+  assert (Hs7 : (fun _ : list nid => match root with Some r => [b; r] | None => [b] end) = (fun _ => b :: option_list root))
+    by (destruct root; reflexivity).
+  rewrite Hs7. destruct oldRhs; reflexivity.
+Qed.
+
+Lemma tailx_full fuel s3 s6 b r3 r6 root s' e :
+  tail_ok s3 s6 b r3 r6 root -> memo_tailx fuel s6 b (b_rhs r3) root = Ok (s', e) ->
+  rejected_err e \/
+  (PInv s' /\ (forall m, has s' m <-> has s3 m) /\ (forall m, nkind (nd s' m) = nkind (nd s3 m)) /\
+   stabNum s' = stabNum s3 /\ e = None /\ binds s' = <[b := r6]> (binds s3) /\ norun_ext s6 s').
+Proof.
+  intros (_ & _ & _ & TK) H. destruct (TK fuel) as [_ Hcp]. rewrite memo_tailx_eq in H.
+  apply ebind_inv in H as (t8 & e2 & Hc & Hrest). specialize (Hcp t8 e2 Hc).
+  destruct e2 as [x2|].
+  { destruct Hrest as [[? _]|(_ & _ & ->)]; [discriminate|]. left. destruct Hcp as [-> | ->]; [left|right]; reflexivity. }
+  destruct Hrest as [[_ H]|(Hne & _)]; [|congruence].
+  apply ebind_inv in H as (t9 & e3 & Hiv & Hrest).
+  apply lift_inv in Hiv as [Hiv ->]. destruct Hrest as [[_ H]|(Hne & _)]; [|congruence].
+  apply lift_inv in H as [H ->]. right. injection Hiv as <-.
+  destruct Hcp as (P8 & A & B & C & D & E).
+  apply propagateInvalidity_nil_inv in H; [|apply (pq_invq t8 (p_pq t8 P8))]. subst s'. auto 10.
+Qed.
+
+Lemma tailx_nc fuel s3 s6 b r3 r6 root :
+  tail_ok s3 s6 b r3 r6 root -> nocrash (memo_tailx fuel s6 b (b_rhs r3) root).
+Proof.
+  intros (_ & _ & _ & TK). destruct (TK fuel) as [Hnc Hcp]. rewrite memo_tailx_eq.
+  apply nc_ebind; [exact Hnc|]. intros t8 Hc. destruct (Hcp t8 None Hc) as (P8 & _).
+  apply nc_ebind; [apply nc_lift, nc_Ok|]. intros t9 Hiv. apply lift_inv in Hiv as [[= <-] _].
+  apply nc_lift. destruct fuel as [|k]; [apply nc_fuel|].
+  rewrite (propagateInvalidity_nil k t8 (pq_invq t8 (p_pq t8 P8))). apply nc_Ok.
+Qed.
 
 Lemma alter_Some_insert {A} (f : A -> A) (m : gmap nat A) b x : m !! b = Some x -> alter f b m = <[b := f x]> m.
 Proof.
@@ -8541,34 +10211,199 @@ Proof.
   - destruct (gchain_fun _ _ _ _ _ _ _ Cq (gchain_owned own s a b H2 Ho B2 B3)) as [-> ->]. left. lia.
 Qed.
 
-Lemma memo_finish fuel (s3 s6 : state) (b : nat) (oldRhs root : option nid) s' e :
-  (forall t8 e2, changeParent fuel (upd s6 (S b) (set decl (fun _ => b :: option_list root))) (S b) oldRhs root = Ok (t8, e2) ->
-     match e2 with
-     | Some x => adj_err x
-     | None => PInv t8 /\ (forall m, has t8 m <-> has s3 m) /\
-               (forall m, nkind (nd t8 m) = nkind (nd s3 m)) /\ stabNum t8 = stabNum s3
-     end) ->
-  (s0 <-? changeParent fuel (upd s6 (S b) (set decl (fun _ => match root with Some r => [b; r] | None => [b] end))) (S b) oldRhs root;
-   s1 <-? lift (match oldRhs with Some _ => rfold (invalidateNode fuel) [] s0 | None => Ok s0 end);
-   lift (propagateInvalidity fuel s1)) = Ok (s', e) ->
-  rejected_err e \/
-  (PInv s' /\ (forall m, has s' m <-> has s3 m) /\ (forall m, nkind (nd s' m) = nkind (nd s3 m)) /\
-   stabNum s' = stabNum s3 /\ e = None).
+(** the two ways into the tail *)
+Definition memo_f5 (x : Z) (root : option nid) : bindrec -> bindrec :=
+  fun r => r <| b_gen := S (b_gen r) |> <| b_cache := if b_memo r then b_cache r ++ [(x, root)] else b_cache r |>.
+
+Lemma memo_hit_ok s b r0 x root :
+  PInv s -> binds s !! b = Some r0 -> b_memo r0 = true -> inGraph (nd s b) = true ->
+  (x, root) ∈ b_cache r0 ->
+  tail_ok s (updb s b (set b_rhs (fun _ => root))) b r0 (set b_rhs (fun _ => root) r0) root.
 Proof.
-  intros Hcp H.
-  assert (Hs7 : (fun _ : list nid => match root with Some r => [b; r] | None => [b] end) = (fun _ => b :: option_list root))
-    by (destruct root; reflexivity).
-  rewrite Hs7 in H.
-  apply ebind_inv in H as (t8 & e2 & Hc & Hrest). specialize (Hcp t8 e2 Hc).
-  destruct e2 as [x2|].
-  { destruct Hrest as [[? _]|(_ & _ & ->)]; [discriminate|]. left. destruct Hcp as [-> | ->]; [left|right]; reflexivity. }
-  destruct Hrest as [[_ H]|(Hne & _)]; [|congruence].
-  apply ebind_inv in H as (t9 & e3 & Hiv & Hrest).
-  apply lift_inv in Hiv as [Hiv ->]. destruct Hrest as [[_ H]|(Hne & _)]; [|congruence].
-  apply lift_inv in H as [H ->]. right.
-  assert (t9 = t8) as -> by (destruct oldRhs; simpl in Hiv; congruence).
-  destruct Hcp as (P8 & A & B & C).
-  apply propagateInvalidity_nil_inv in H; [|apply (pq_invq t8 (p_pq t8 P8))]. subst s'. auto.
+  intros P Hr0 Hm0 Hg Hi. pose proof (p_binds s P b r0 Hr0) as W0.
+  destruct (sc_acyclic s (p_scoping s P)) as (own & O1 & O2 & O3).
+  set (r6 := set b_rhs (fun _ : option nid => root) r0).
+  set (s6 := updb s b (set b_rhs (fun _ : option nid => root))).
+  assert (Hroot : match root with
+                  | Some a => has s a /\ scope (nd s a) = None /\ not_lhs (nd s a) /\ gmu_lt own s a (S b)
+                  | None => True end).
+  { destruct root as [a|]; [|exact Logic.I]. destruct (bw_cache _ _ _ W0 x a Hi) as (A1 & A2 & A3').
+    split; [exact A1|]. split; [exact A2|]. split; [|apply (O3 b r0 x a Hr0 Hi)].
+    unfold not_lhs. destruct (nkind (nd s a)) eqn:Ek; try exact Logic.I. exact (A3' _ eq_refl). }
+  assert (Hb6 : binds s6 = <[b := r6]> (binds s)).
+  { unfold s6, updb. cbn. exact (alter_Some_insert (set b_rhs (fun _ : option nid => root)) (binds s) b r0 Hr0). }
+  assert (Hf : b_lhs r6 = b_lhs r0 /\ b_lhsChange r6 = b_lhsChange r0 /\ b_main r6 = b_main r0 /\
+               b_memo r6 = b_memo r0 /\ b_cases r6 = b_cases r0 /\ b_rhsNodes r6 = b_rhsNodes r0 /\ b_rhs r6 = root)
+    by (unfold r6; cbn; repeat split; reflexivity).
+  assert (Hcache : forall x0 q, (x0, Some q) ∈ b_cache r6 -> (x0, Some q) ∈ b_cache r0 \/ root = Some q) by (intros x0 q Hq; left; exact Hq).
+  assert (Hl : Forall (ev_benign s) []) by constructor.
+  eapply (memo_tail_ok own s s6 b r0 r6 root [] P (conj O1 (conj O2 O3)) Hr0 Hm0 Hg Hroot); try reflexivity; assumption.
+Qed.
+
+Lemma memo_miss_ok p s b r0 s2 x s3 root :
+  PInv s -> plan_ok s p = true -> binds s !! b = Some r0 -> b_memo r0 = true -> inGraph (nd s b) = true ->
+  invoke p s b WFn = Ok (s2, None) ->
+  inst s2 None x (nth (Z.to_nat (x mod Z.of_nat (length (b_cases r0)))) (b_cases r0) TNil) = (s3, root) ->
+  tail_ok s3 (updb (updb (emit (EvBindFn b x root) s3) b (memo_f5 x root)) b (set b_rhs (fun _ => root)))
+          b r0 (set b_rhs (fun _ => root) (memo_f5 x root r0)) root /\
+  PInv s2 /\ kstable s s3 /\ stabNum s3 = stabNum s /\ binds s3 = binds s /\ log s3 = log s.
+Proof.
+  intros P Hp Hr0 Hm0 Hg Hinv Hinst.
+  pose proof (p_binds s P b r0 Hr0) as W0. destruct (bw_memo _ _ _ W0 Hm0) as (Hrn0 & Hscb & Hnb).
+  assert (Hst1 : status s = 1) by apply (pq_status s (p_pq s P)).
+  pose proof (invoke_soft p s b WFn s2 None Hst1 Hp Hinv) as S12.
+  pose proof (PInv_of_soft s s2 P S12) as P2.
+  pose proof (so_struct _ _ S12) as SS.
+  assert (Hb2 : binds s2 = binds s) by apply (ss_binds _ _ SS).
+  assert (Hr2 : binds s2 !! b = Some r0) by (rewrite Hb2; exact Hr0).
+  assert (Hsc2 : scope (nd s2 b) = None).
+  { destruct (ss_node _ _ SS b) as (_&_&->&_). exact Hscb. }
+  set (case := nth (Z.to_nat (x mod Z.of_nat (length (b_cases r0)))) (b_cases r0) TNil) in *.
+  pose proof (p_binds s2 P2 b r0 Hr2) as W2.
+  destruct (sc_acyclic s2 (p_scoping s2 P2)) as (own & O1 & O2 & O3).
+  assert (MS2 : MStat own b (next s2) s2).
+  { constructor; [exact P2|exact (conj O1 (conj O2 O3))| | |lia].
+    - intros n Hn Hh. apply (io_lt s2 (p_ids s2 P2)) in Hh. lia.
+    - split; [apply (bw_has_lhs _ _ _ W2)|]. split; [exact Hsc2|].
+      split; [apply (own_bind_None own s2 b r0 O1 Hr2), (bw_kind_lhs _ _ _ W2)|].
+      apply (io_lt s2 (p_ids s2 P2)), (bw_has_main _ _ _ W2). }
+  assert (Hcase : texp_wf s2 b true case).
+  { unfold case. apply nth_texp_wf. apply (bw_cases _ _ _ W2 b 0%nat). apply chain_top, Hsc2. }
+  assert (Hnbc : texp_nobind case = true).
+  { unfold case. clear -Hnb. generalize (Z.to_nat (x mod Z.of_nat (length (b_cases r0)))). intros k.
+    revert k. induction Hnb as [|c cs Hc _ IH]; intros [|k]; simpl; auto. }
+  destruct (MStat_inst b (next s2) x case true own s2 s3 root MS2 Hnbc Hcase Hinst) as (own3 & MS3 & F23 & Oold & Kold & C3).
+  destruct F23 as (F1 & F2 & F3 & F4 & F5).
+  assert (Hr3 : binds s3 !! b = Some r0) by (rewrite F2; exact Hr2).
+  assert (Hgb3 : inGraph (nd s3 b) = true).
+  { rewrite (proj2 (F1 b (bw_has_lhs _ _ _ W2))). destruct (ss_node _ _ SS b) as (_&_&_&_&_&_&_&_&_&_&->). exact Hg. }
+  set (r6 := set b_rhs (fun _ : option nid => root) (memo_f5 x root r0)).
+  set (s6 := updb (updb (emit (EvBindFn b x root) s3) b (memo_f5 x root)) b (set b_rhs (fun _ : option nid => root))).
+  assert (Hroot : match root with
+                  | Some a => has s3 a /\ scope (nd s3 a) = None /\ not_lhs (nd s3 a) /\ gmu_lt own3 s3 a (S b)
+                  | None => True end).
+  { destruct root as [a|]; [|exact Logic.I]. pose proof C3 as (A1 & A2 & A3' & _).
+    split; [exact A1|]. split; [exact A2|]. split; [exact A3'|apply (okinM_root own3 b (next s2) s3 r0 a MS3 Hr3 C3)]. }
+  assert (Hb6 : binds s6 = <[b := r6]> (binds s3)).
+  { unfold s6, updb. cbn. rewrite (alter_Some_insert (memo_f5 x root) (binds s3) b r0 Hr3).
+    rewrite (alter_Some_insert (set b_rhs (fun _ : option nid => root)) _ b (memo_f5 x root r0)) by apply lookup_insert.
+    apply insert_insert. }
+  assert (Hf : b_lhs r6 = b_lhs r0 /\ b_lhsChange r6 = b_lhsChange r0 /\ b_main r6 = b_main r0 /\
+               b_memo r6 = b_memo r0 /\ b_cases r6 = b_cases r0 /\ b_rhsNodes r6 = b_rhsNodes r0 /\ b_rhs r6 = root)
+    by (unfold r6, memo_f5; cbn; repeat split; reflexivity).
+  assert (Hcache : forall x0 q, (x0, Some q) ∈ b_cache r6 -> (x0, Some q) ∈ b_cache r0 \/ root = Some q).
+  { intros x0 q. unfold r6, memo_f5. cbn. rewrite Hm0, elem_of_app, elem_of_list_singleton.
+    intros [Hq|[= _ <-]]; [left; exact Hq|right; reflexivity]. }
+  assert (Hl : Forall (ev_benign s3) [EvBindFn b x root]) by (constructor; [exact Hgb3|constructor]).
+  split.
+  { eapply (memo_tail_ok own3 s3 s6 b r0 r6 root [EvBindFn b x root] (ms_P _ _ _ _ MS3) (ms_acyc _ _ _ _ MS3) Hr3 Hm0 Hgb3 Hroot);
+      try reflexivity; assumption. }
+  split; [exact P2|]. split.
+  { intros m Hhm. pose proof (proj2 (ss_has _ _ SS m) Hhm) as H2. destruct (F1 m H2) as [H3 E3].
+    split; [exact H3|]. rewrite E3. apply (ss_node _ _ SS m). }
+  split; [rewrite F3; apply (so_stabNum _ _ S12)|]. split; [rewrite F2; exact Hb2|].
+  rewrite F4. apply (invoke_log_none p s b WFn s2 Hinv).
+Qed.
+
+(** the normal form of a memoized bind's recomputation *)
+Lemma bindLhs_memo_eq fuel p s b r0 :
+  binds s !! b = Some r0 -> bind_wf s b r0 -> b_memo r0 = true ->
+  bindLhsStabilize fuel p s b =
+  let x := valueOf s (b_lhs r0) in
+  match list_find (fun kv : Z * option nid => kv.1 = x) (b_cache r0) with
+  | Some (_, (_, root)) => memo_tailx fuel (updb s b (set b_rhs (fun _ => root))) b (b_rhs r0) root
+  | None =>
+    '(s2, e1) <-! invoke p s b WFn;
+    match e1 with
+    | Some e0 => fail (updb s2 b (set b_rhsNodes (fun _ => []))) e0
+    | None =>
+      let '(s3, root) := inst s2 (scope (nd s2 b)) x
+                           (nth (Z.to_nat (x mod Z.of_nat (length (b_cases r0)))) (b_cases r0) TNil) in
+      memo_tailx fuel (updb (updb (emit (EvBindFn b x root) s3) b (memo_f5 x root)) b (set b_rhs (fun _ => root)))
+                 b (b_rhs r0) root
+    end
+  end.
+Proof.
+  intros Hr0 W0 Hm0.
+  assert (Hbd : bd s b = r0) by (unfold bd; rewrite Hr0; reflexivity).
+  destruct (bw_memo _ _ _ W0 Hm0) as (Hrn0 & Hscb & Hnb).
+  unfold bindLhsStabilize. rewrite Hbd. rewrite Hm0, (bw_main _ _ _ W0).
+  cbv zeta. cbv iota.
+  assert (Es1 : updb s b (set b_rhsNodes (fun _ : list nid => [])) = s).
+  { apply (updb_id s b _ r0 Hr0). destruct r0; cbn in Hrn0; subst; reflexivity. }
+  rewrite Es1, Hrn0.
+  destruct (list_find _ (b_cache r0)) as [[i [x' root]]|]; [reflexivity|].
+  destruct (invoke p s b WFn) as [[s2 [e0|]]| |]; simpl; try reflexivity.
+  destruct (inst s2 _ _ _) as [s3 root]. reflexivity.
+Qed.
+
+(* the record of the bind after a successful recomputation, and what was logged *)
+Definition memo_post (s : state) (b : nat) (r0 : bindrec) (s' : state) : Prop :=
+  let x := valueOf s (b_lhs r0) in
+  match list_find (fun kv : Z * option nid => kv.1 = x) (b_cache r0) with
+  | Some (_, (_, root)) =>
+    (* cache hit: the cached root, the record otherwise unchanged, no function ran *)
+    binds s' = <[b := set b_rhs (fun _ => root) r0]> (binds s) /\ norun_ext s s'
+  | None =>
+    (* cache miss: the function ran once and its root was appended to the cache *)
+    exists root l2,
+      binds s' = <[b := set b_rhs (fun _ => root) (r0 <| b_gen := S (b_gen r0) |> <| b_cache := b_cache r0 ++ [(x, root)] |>)]> (binds s) /\
+      log s' = l2 ++ EvBindFn b x root :: log s /\ Forall (fun ev => ev_runs ev = None) l2
+  end.
+
+Theorem bind_full_memo_strong fuel p s b s' e :
+  PInv s -> plan_ok s p = true -> nkind (nd s b) = KBindLhs b -> inGraph (nd s b) = true ->
+  b_memo (bd s b) = true ->
+  bindLhsStabilize fuel p s b = Ok (s', e) ->
+  rejected_err e \/
+  (PInv s' /\ plan_ok s' p = true /\ stabNum s' = stabNum s /\ kstable s s' /\
+   (e = None \/ ((e = Some (EUser b) \/ e = Some (EPanic b)) /\ exists k, AFail k ∈ actions_of p b WFn)) /\
+   (e = None -> memo_post s b (bd s b) s')).
+Proof.
+  intros P Hp Hk Hg Hm H.
+  pose proof (p_kinds s P b (has_inGraph s b Hg)) as K. rewrite Hk in K. destruct K as [_ [r0 Hr0]].
+  pose proof (p_binds s P b r0 Hr0) as W0.
+  assert (Hbd : bd s b = r0) by (unfold bd; rewrite Hr0; reflexivity).
+  rewrite Hbd in *.
+  destruct (bw_memo _ _ _ W0 Hm) as (Hrn0 & Hscb & Hnb).
+  rewrite (bindLhs_memo_eq fuel p s b r0 Hr0 W0 Hm) in H. cbv zeta in H. unfold memo_post.
+  set (x := valueOf s (b_lhs r0)) in *.
+  destruct (list_find (fun kv : Z * option nat => kv.1 = x) (b_cache r0)) as [[i [x' root]]|] eqn:Ef.
+  - (* cache hit *)
+    apply list_find_Some in Ef as (Hi & Hx' & _). simpl in Hx'. subst x'.
+    apply elem_of_list_lookup_2 in Hi.
+    pose proof (memo_hit_ok s b r0 x root P Hr0 Hm Hg Hi) as TK.
+    destruct (tailx_full fuel _ _ _ _ _ _ s' e TK H) as [Hrej|(P8 & A & B & C & -> & D & E)]; [left; exact Hrej|].
+    right. split; [exact P8|].
+    assert (Hks : kstable s s') by (intros m Hhm; split; [apply A, Hhm|apply B]).
+    split; [apply (plan_ok_kstable s s' p Hks Hp)|]. split; [exact C|]. split; [exact Hks|]. split; [left; reflexivity|].
+    intros _. split; [exact D|]. exact E.
+  - (* cache miss *)
+    apply rbind_ok in H as ([s2 e1] & Hinv & H).
+    destruct e1 as [x1|].
+    + apply fail_inv in H as [-> ->]. right.
+      assert (Hst1 : status s = 1) by apply (pq_status s (p_pq s P)).
+      pose proof (invoke_soft p s b WFn s2 (Some x1) Hst1 Hp Hinv) as S12.
+      pose proof (so_struct _ _ S12) as SS.
+      assert (Hr2 : binds s2 !! b = Some r0) by (rewrite (ss_binds _ _ SS); exact Hr0).
+      rewrite (updb_id s2 b _ r0 Hr2) by (destruct r0; cbn in Hrn0; subst; reflexivity).
+      split; [exact (PInv_of_soft s s2 P S12)|]. split; [apply (plan_ok_struct s _ p SS Hp)|].
+      split; [apply (so_stabNum _ _ S12)|]. split; [apply kstable_struct, SS|]. split; [|discriminate].
+      right. destruct (invoke_fault p s b WFn s2 x1 Hinv) as [[-> | ->] Hf]; (split; [auto|exact Hf]).
+    + assert (Hsc2 : scope (nd s2 b) = None).
+      { assert (Hst1 : status s = 1) by apply (pq_status s (p_pq s P)).
+        destruct (ss_node _ _ (so_struct _ _ (invoke_soft p s b WFn s2 None Hst1 Hp Hinv)) b) as (_&_&->&_). exact Hscb. }
+      rewrite Hsc2 in H.
+      destruct (inst s2 None x (nth (Z.to_nat (x mod Z.of_nat (length (b_cases r0)))) (b_cases r0) TNil)) as [s3 root] eqn:Hinst.
+      destruct (memo_miss_ok p s b r0 s2 x s3 root P Hp Hr0 Hm Hg Hinv Hinst) as (TK & P2 & K3 & St3 & B3 & L3).
+      destruct (tailx_full fuel _ _ _ _ _ _ s' e TK H) as [Hrej|(P8 & A & B & C & -> & D & E)]; [left; exact Hrej|].
+      right. split; [exact P8|].
+      assert (Hks : kstable s s').
+      { intros m Hhm. destruct (K3 m Hhm) as [H3 E3]. split; [apply A, H3|]. rewrite B. exact E3. }
+      split; [apply (plan_ok_kstable s s' p Hks Hp)|]. split; [rewrite C; exact St3|]. split; [exact Hks|]. split; [left; reflexivity|].
+      intros _. exists root. destruct E as (l2 & El & Fl). exists l2. split; [|split; [|exact Fl]].
+      * rewrite D, B3. unfold memo_f5. rewrite Hm. reflexivity.
+      * rewrite El. cbn. rewrite L3. reflexivity.
 Qed.
 
 Theorem bind_full_memo fuel p s b s' e :
@@ -8580,106 +10415,45 @@ Theorem bind_full_memo fuel p s b s' e :
    (e = None \/ ((e = Some (EUser b) \/ e = Some (EPanic b)) /\ exists k, AFail k ∈ actions_of p b WFn))).
 Proof.
   intros P Hp Hk Hg Hm H.
+  destruct (bind_full_memo_strong fuel p s b s' e P Hp Hk Hg Hm H) as [Hr|(A & B & C & D & E & _)]; [left; exact Hr|right; auto].
+Qed.
+
+Theorem nc_bind_memo fuel p s b :
+  PInv s -> plan_ok s p = true -> nkind (nd s b) = KBindLhs b -> inGraph (nd s b) = true ->
+  b_memo (bd s b) = true ->
+  nocrash (bindLhsStabilize fuel p s b).
+Proof.
+  intros P Hp Hk Hg Hm.
   pose proof (p_kinds s P b (has_inGraph s b Hg)) as K. rewrite Hk in K. destruct K as [_ [r0 Hr0]].
   pose proof (p_binds s P b r0 Hr0) as W0.
   assert (Hbd : bd s b = r0) by (unfold bd; rewrite Hr0; reflexivity).
-  pose proof Hm as Hm0. rewrite Hbd in Hm0.
-  destruct (bw_memo _ _ _ W0 Hm0) as (Hrn0 & Hscb & Hnb).
-  unfold bindLhsStabilize in H. rewrite Hbd in H. rewrite Hm0, (bw_main _ _ _ W0) in H.
-  cbv zeta in H. cbv iota in H.
-  assert (Es1 : updb s b (set b_rhsNodes (fun _ : list nid => [])) = s).
-  { apply (updb_id s b _ r0 Hr0). destruct r0; cbn in Hrn0; subst; reflexivity. }
-  rewrite Es1 in H. rewrite Hrn0 in H.
+  rewrite Hbd in *.
+  destruct (bw_memo _ _ _ W0 Hm) as (Hrn0 & Hscb & Hnb).
+  rewrite (bindLhs_memo_eq fuel p s b r0 Hr0 W0 Hm). cbv zeta.
   set (x := valueOf s (b_lhs r0)) in *.
   destruct (list_find (fun kv : Z * option nat => kv.1 = x) (b_cache r0)) as [[i [x' root]]|] eqn:Ef.
-  - (* cache hit: the cached root becomes the right-hand side again *)
-    apply list_find_Some in Ef as (Hi & Hx' & _). simpl in Hx'. subst x'.
+  - apply list_find_Some in Ef as (Hi & Hx' & _). simpl in Hx'. subst x'.
     apply elem_of_list_lookup_2 in Hi.
-    simpl in H.
-    destruct (sc_acyclic s (p_scoping s P)) as (own & O1 & O2 & O3).
-    set (r6 := set b_rhs (fun _ : option nid => root) r0).
-    set (s6 := updb s b (set b_rhs (fun _ : option nid => root))) in *.
-    assert (Hroot : match root with
-                    | Some a => has s a /\ scope (nd s a) = None /\ not_lhs (nd s a) /\ gmu_lt own s a (S b)
-                    | None => True end).
-    { destruct root as [a|]; [|exact Logic.I]. destruct (bw_cache _ _ _ W0 x a Hi) as (A1 & A2 & A3').
-      split; [exact A1|]. split; [exact A2|]. split; [|apply (O3 b r0 x a Hr0 Hi)].
-      unfold not_lhs. destruct (nkind (nd s a)) eqn:Ek; try exact Logic.I. exact (A3' _ eq_refl). }
-    destruct (memo_finish fuel s s6 b (b_rhs r0) root s' e) as [Hrej|(P8 & A & B & C & ->)]; [|exact H|left; exact Hrej|].
-    { intros t8 e2 Hcp.
-      eapply (memo_tail own s s6 b r0 r6 root [] P (conj O1 (conj O2 O3)) Hr0 Hm0 Hg Hroot); try reflexivity; try exact Hcp.
-      - unfold s6, updb. cbn. exact (alter_Some_insert (set b_rhs (fun _ : option nid => root)) (binds s) b r0 Hr0).
-      - unfold r6. cbn. repeat split; reflexivity.
-      - intros x0 q Hq. left. exact Hq.
-      - constructor. }
-    right. split; [exact P8|].
-    assert (Hks : kstable s s') by (intros m Hhm; split; [apply A, Hhm|apply B]).
-    split; [apply (plan_ok_kstable s s' p Hks Hp)|]. split; [exact C|]. split; [exact Hks|left; reflexivity].
-  - (* cache miss: the function runs and builds top-level nodes *)
-    apply rbind_ok in H as ([[sx ex] built] & H1 & H).
-    apply rbind_ok in H1 as ([s2 e1] & Hinv & H1).
-    assert (Hst1 : status s = 1) by apply (pq_status s (p_pq s P)).
-    pose proof (invoke_soft p s b WFn s2 e1 Hst1 Hp Hinv) as S12.
-    pose proof (PInv_of_soft s s2 P S12) as P2.
-    pose proof (so_struct _ _ S12) as SS.
-    assert (Hb2 : binds s2 = binds s) by apply (ss_binds _ _ SS).
-    assert (Hr2 : binds s2 !! b = Some r0) by (rewrite Hb2; exact Hr0).
-    destruct e1 as [x1|].
-    + (* the bind function failed *)
-      injection H1 as <- <- <-. apply fail_inv in H as [-> ->]. right.
-      rewrite (updb_id s2 b _ r0 Hr2) by (destruct r0; cbn in Hrn0; subst; reflexivity).
-      split; [exact P2|]. split; [apply (plan_ok_struct s _ p SS Hp)|].
-      split; [apply (so_stabNum _ _ S12)|]. split; [apply kstable_struct, SS|].
-      right. destruct (invoke_fault p s b WFn s2 x1 Hinv) as [[-> | ->] Hf]; (split; [auto|exact Hf]).
-    + assert (Hsc2 : scope (nd s2 b) = None).
-      { destruct (ss_node _ _ SS b) as (_&_&->&_). exact Hscb. }
-      rewrite Hsc2 in H1.
-      set (case := nth (Z.to_nat (x mod Z.of_nat (length (b_cases r0)))) (b_cases r0) TNil) in *.
-      destruct (inst s2 None x case) as [s3 root] eqn:Hinst.
-      injection H1 as <- <- <-.
-      pose proof (p_binds s2 P2 b r0 Hr2) as W2.
-      destruct (sc_acyclic s2 (p_scoping s2 P2)) as (own & O1 & O2 & O3).
-      assert (MS2 : MStat own b (next s2) s2).
-      { constructor; [exact P2|exact (conj O1 (conj O2 O3))| | |lia].
-        - intros n Hn Hh. apply (io_lt s2 (p_ids s2 P2)) in Hh. lia.
-        - split; [apply (bw_has_lhs _ _ _ W2)|]. split; [exact Hsc2|].
-          split; [apply (own_bind_None own s2 b r0 O1 Hr2), (bw_kind_lhs _ _ _ W2)|].
-          apply (io_lt s2 (p_ids s2 P2)), (bw_has_main _ _ _ W2). }
-      assert (Hcase : texp_wf s2 b true case).
-      { unfold case. apply nth_texp_wf. apply (bw_cases _ _ _ W2 b 0%nat). apply chain_top, Hsc2. }
-      assert (Hnbc : texp_nobind case = true).
-      { unfold case. clear -Hnb. generalize (Z.to_nat (x mod Z.of_nat (length (b_cases r0)))). intros k.
-        revert k. induction Hnb as [|c cs Hc _ IH]; intros [|k]; simpl; auto. }
-      destruct (MStat_inst b (next s2) x case true own s2 s3 root MS2 Hnbc Hcase Hinst) as (own3 & MS3 & F23 & Oold & Kold & C3).
-      destruct F23 as (F1 & F2 & F3 & F4 & F5).
-      assert (Hr3 : binds s3 !! b = Some r0) by (rewrite F2; exact Hr2).
-      assert (Hgb3 : inGraph (nd s3 b) = true).
-      { rewrite (proj2 (F1 b (bw_has_lhs _ _ _ W2))). destruct (ss_node _ _ SS b) as (_&_&_&_&_&_&_&_&_&_&->). exact Hg. }
-      set (f5 := fun r : bindrec => r <| b_gen := S (b_gen r) |> <| b_cache := if b_memo r then b_cache r ++ [(x, root)] else b_cache r |>) in *.
-      set (r6 := set b_rhs (fun _ : option nid => root) (f5 r0)).
-      set (s6 := updb (updb (emit (EvBindFn b x root) s3) b f5) b (set b_rhs (fun _ : option nid => root))) in *.
-      assert (Hroot : match root with
-                      | Some a => has s3 a /\ scope (nd s3 a) = None /\ not_lhs (nd s3 a) /\ gmu_lt own3 s3 a (S b)
-                      | None => True end).
-      { destruct root as [a|]; [|exact Logic.I]. pose proof C3 as (A1 & A2 & A3' & _).
-        split; [exact A1|]. split; [exact A2|]. split; [exact A3'|apply (okinM_root own3 b (next s2) s3 r0 a MS3 Hr3 C3)]. }
-      destruct (memo_finish fuel s3 s6 b (b_rhs r0) root s' e) as [Hrej|(P8 & A & B & C & ->)]; [|exact H|left; exact Hrej|].
-      { intros t8 e2 Hcp.
-        eapply (memo_tail own3 s3 s6 b r0 r6 root [EvBindFn b x root] (ms_P _ _ _ _ MS3) (ms_acyc _ _ _ _ MS3) Hr3 Hm0 Hgb3 Hroot);
-          try reflexivity; try exact Hcp.
-        - unfold s6, updb. cbn. rewrite (alter_Some_insert f5 (binds s3) b r0 Hr3).
-          rewrite (alter_Some_insert (set b_rhs (fun _ : option nid => root)) _ b (f5 r0)) by apply lookup_insert.
-          apply insert_insert.
-        - unfold r6, f5. cbn. repeat split; reflexivity.
-        - intros x0 q. unfold r6, f5. cbn. rewrite Hm0, elem_of_app, elem_of_list_singleton.
-          intros [Hq|[= _ <-]]; [left; exact Hq|right; reflexivity].
-        - constructor; [exact Hgb3|constructor]. }
-      right. split; [exact P8|].
-      assert (Hks : kstable s s').
-      { intros m Hhm. pose proof (proj2 (ss_has _ _ SS m) Hhm) as H2. destruct (F1 m H2) as [H3 E3].
-        split; [apply A, H3|]. rewrite B, E3. apply (ss_node _ _ SS m). }
-      split; [apply (plan_ok_kstable s s' p Hks Hp)|]. split; [|split; [exact Hks|left; reflexivity]].
-      rewrite C, F3. apply (so_stabNum _ _ S12).
+    apply (tailx_nc fuel _ _ _ _ _ _ (memo_hit_ok s b r0 x root P Hr0 Hm Hg Hi)).
+  - destruct (PInv_hreg s P) as [Hr Hkp].
+    apply nc_rbind; [apply (nc_invoke p s b WFn); [exact Hr|exact Hkp]|].
+    intros [s2 e1] Hinv. destruct e1 as [x1|]; [apply nc_Ok|].
+    assert (Hsc2 : scope (nd s2 b) = None).
+    { assert (Hst1 : status s = 1) by apply (pq_status s (p_pq s P)).
+      destruct (ss_node _ _ (so_struct _ _ (invoke_soft p s b WFn s2 None Hst1 Hp Hinv)) b) as (_&_&->&_). exact Hscb. }
+    rewrite Hsc2.
+    destruct (inst s2 None x (nth (Z.to_nat (x mod Z.of_nat (length (b_cases r0)))) (b_cases r0) TNil)) as [s3 root] eqn:Hinst.
+    destruct (memo_miss_ok p s b r0 s2 x s3 root P Hp Hr0 Hm Hg Hinv Hinst) as (TK & _).
+    apply (tailx_nc fuel _ _ _ _ _ _ TK).
+Qed.
+
+Theorem nc_bind fuel p s b :
+  PInv s -> plan_ok s p = true -> nkind (nd s b) = KBindLhs b -> inGraph (nd s b) = true ->
+  nocrash (bindLhsStabilize fuel p s b).
+Proof.
+  intros P Hp Hk Hg. destruct (b_memo (bd s b)) eqn:Em.
+  - apply (nc_bind_memo fuel p s b P Hp Hk Hg Em).
+  - apply (nc_bind_nomemo fuel p s b P Hp Hk Hg Em).
 Qed.
 
 Theorem bind_full fuel p s b s' e :
@@ -8691,7 +10465,7 @@ Theorem bind_full fuel p s b s' e :
 Proof.
   intros P Hp Hk Hg H. destruct (b_memo (bd s b)) eqn:Em.
   - apply (bind_full_memo fuel p s b s' e P Hp Hk Hg Em H).
-  - apply (bind_full_nomemo fuel p s b s' e P Hp Hk Hg Em H).
+  - destruct (bind_full_nomemo fuel p s b s' e P Hp Hk Hg Em H) as [Hr|(A & B & C & D & E & _)]; [left; exact Hr|right; auto].
 Qed.
 
 Theorem bind_spec_holds : bind_spec (fun _ => True).
@@ -9123,6 +10897,1042 @@ Proof.
   intros s0 fuel st b st' e' (P & _ & _ & Hq) Hk Hg _. exfalso.
   pose proof (p_kinds st P b (has_inGraph st b Hg)) as K. rewrite Hk in K. destruct K as [_ [r Hr]].
   unfold bindfree in Hq. rewrite Hq, lookup_empty in Hr. discriminate.
+Qed.
+
+(** ** what survives an operation that is rejected half-way: enough for the rest of the pass not to fault *)
+Record Wk (s : state) : Prop := {
+  w_heap : hinv (heap s);
+  w_h : forall m, -1 <= height (nd s m);
+  w_vars : forall v, v ∈ setDuring s \/ v ∈ setRemoved s -> exists e, nkind (nd s v) = KVar e
+}.
+
+Definition wkf (s s' : state) : Prop :=
+  Wk s -> Wk s' /\ forall m, 0 <= height (nd s m) -> 0 <= height (nd s' m).
+
+Lemma wkf_refl s : wkf s s.
+Proof. intros W. auto. Qed.
+
+Lemma wkf_trans s1 s2 s3 : wkf s1 s2 -> wkf s2 s3 -> wkf s1 s3.
+Proof. intros A B W. destruct (A W) as [W2 H2]. destruct (B W2) as [W3 H3]. split; [exact W3|]. intros m Hm. apply H3, H2, Hm. Qed.
+
+(* a step that touches neither the recompute heap, the heights, the kinds nor the deferred lists *)
+Lemma wkf_static s s' :
+  heap s' = heap s -> setDuring s' = setDuring s -> setRemoved s' = setRemoved s ->
+  (forall m, height (nd s' m) = height (nd s m) /\ nkind (nd s' m) = nkind (nd s m)) -> wkf s s'.
+Proof.
+  intros Hw Hd Hr Hn [A B C]. split; [split|].
+  - rewrite Hw. exact A.
+  - intros m. rewrite (proj1 (Hn m)). apply B.
+  - intros v. rewrite Hd, Hr, (proj2 (Hn v)). apply C.
+  - intros m. rewrite (proj1 (Hn m)). auto.
+Qed.
+
+Lemma wkf_upd s n f : (forall x, height (f x) = height x /\ nkind (f x) = nkind x) -> wkf s (upd s n f).
+Proof.
+  intros Hf. apply wkf_static; try reflexivity. intros m.
+  destruct (decide (has s n)) as [Hn|Hn]; [|rewrite (upd_missing s n f Hn); auto].
+  rewrite nd_upd by exact Hn. destruct (decide (m = n)) as [->|]; [apply Hf|auto].
+Qed.
+
+Lemma wkf_emit s e : wkf s (emit e s).
+Proof. apply wkf_static; try reflexivity. intros m. rewrite nd_emit. auto. Qed.
+
+Lemma wkf_link s c p : wkf s (link s c p).
+Proof. apply wkf_static; try reflexivity. intros m. rewrite height_nd_link, nkind_nd_link. auto. Qed.
+
+Lemma wkf_unlink s c p : wkf s (unlink s c p).
+Proof. apply wkf_static; try reflexivity. intros m. rewrite height_nd_unlink, nkind_nd_unlink. auto. Qed.
+
+Lemma wkf_addNode s n : wkf s (addNode s n).
+Proof. apply wkf_static; [apply heap_addNode|apply setDuring_addNode|apply setRemoved_addNode|]. intros m. rewrite height_nd_addNode, nkind_nd_addNode. auto. Qed.
+
+Lemma wkf_setHeight s n h s' e : (Wk s -> 0 <= h) -> setHeight s n h = Ok (s', e) -> wkf s s'.
+Proof.
+  intros Hh H W. destruct e as [x|]; [apply setHeight_err in H as [_ ->]; auto|].
+  specialize (Hh W). destruct W as [A B C].
+  destruct (decide (has s n)) as [Hn|Hn].
+  - assert (Hht : forall m, height (nd s' m) = if decide (m = n) then h else height (nd s m)) by (intros m; apply (height_nd_setHeight _ _ _ _ H m Hn)).
+    split; [split|].
+    + rewrite (heap_setHeight _ _ _ _ H). exact A.
+    + intros m. rewrite Hht. destruct (decide (m = n)); [lia|apply B].
+    + intros v. rewrite (setDuring_setHeight _ _ _ _ H), (setRemoved_setHeight _ _ _ _ H), (proj_nd_setHeight _ _ _ _ H nkind) by reflexivity. apply C.
+    + intros m. rewrite Hht. destruct (decide (m = n)); [lia|auto].
+  - assert (Hnd : forall m, nd s' m = nd s m).
+    { intros m. apply setHeight_inv in H as [(_ & _ & He)|(_ & _ & ->)]; [discriminate|].
+      destruct (_ >? _); rewrite upd_missing by exact Hn; reflexivity. }
+    split; [split|].
+    + rewrite (heap_setHeight _ _ _ _ H). exact A.
+    + intros m. rewrite Hnd. apply B.
+    + intros v. rewrite (setDuring_setHeight _ _ _ _ H), (setRemoved_setHeight _ _ _ _ H), Hnd. apply C.
+    + intros m. rewrite Hnd. auto.
+Qed.
+
+Lemma heapAdd_nonneg s n s' : heapAdd s n = Ok s' -> 0 <= height (nd s n).
+Proof.
+  intros H. destruct (Z.ltb_spec (height (nd s n)) 0) as [Hneg|]; [|assumption].
+  rewrite (heapAdd_negative s n Hneg) in H. discriminate.
+Qed.
+
+Lemma wkf_only_heap s s' : only_heap s s' -> (hinv (heap s) -> hinv (heap s')) -> wkf s s'.
+Proof.
+  intros F Hh [A B C]. split; [split|].
+  - apply Hh, A.
+  - intros m. rewrite (oh_nd _ _ F). apply B.
+  - intros v. rewrite (oh_setDuring _ _ F), (oh_setRemoved _ _ F), (oh_nd _ _ F). apply C.
+  - intros m. rewrite (oh_nd _ _ F). auto.
+Qed.
+
+Lemma wkf_heapAddIfNotPresent s n s' : heapAddIfNotPresent s n = Ok s' -> wkf s s'.
+Proof.
+  intros H. unfold heapAddIfNotPresent in H. destruct (inHeap s n) eqn:E; [injection H as <-; apply wkf_refl|].
+  pose proof (heapAdd_nonneg s n s' H) as Hh.
+  apply wkf_only_heap.
+  - apply heapAdd_inv in H as (w & _ & ->). apply only_heap_set.
+  - intros Hi. apply (heapAdd_spec s n s' Hi E Hh H).
+Qed.
+
+Lemma Heap_add_negative w n h : h < 0 -> Heap.add w n h = Crash HeapNegativeHeight.
+Proof. intros Hh. unfold Heap.add. destruct (Z.ltb_spec h 0); [reflexivity|lia]. Qed.
+
+Lemma wkf_heapFix s n s' : inHeap s n = true -> heapFix s n = Ok s' -> wkf s s'.
+Proof.
+  intros E H. apply wkf_only_heap.
+  - apply heapFix_inv in H as (w & _ & ->). apply only_heap_set.
+  - intros Hi. assert (Hh : 0 <= height (nd s n)).
+    { destruct (Z.ltb_spec (height (nd s n)) 0) as [Hneg|]; [|assumption]. exfalso.
+      apply heapFix_inv in H as (w & Hw & _). unfold Heap.fix_ in Hw.
+      destruct (Heap.remove (heap s) n) as [w'| |]; simpl in Hw; try discriminate.
+      rewrite (Heap_add_negative w' n _ Hneg) in Hw. discriminate. }
+    apply (heapFix_spec s n s' Hi E Hh H).
+Qed.
+
+(** becoming necessary, whatever the outcome *)
+Lemma scopeHeight_nonneg s sc : Wk s -> 0 <= scopeHeight s sc + 1.
+Proof. intros W. unfold scopeHeight. destruct sc as [b|]; [pose proof (w_h s W b); lia|unfold unset; lia]. Qed.
+
+Lemma wkf_efold {A} (f : state -> A -> M) l : forall s s' e,
+  (forall s a s1 e1, f s a = Ok (s1, e1) -> wkf s s1) -> efold f l s = Ok (s', e) -> wkf s s'.
+Proof.
+  induction l as [|a l IH]; intros s s' e Hf H; simpl in H; [apply ok_inv in H as [-> _]; apply wkf_refl|].
+  apply ebind_inv in H as (s1 & e1 & H1 & [[-> H]|(_ & -> & _)]).
+  - eapply wkf_trans; [apply (Hf _ _ _ _ H1)|apply (IH _ _ _ Hf H)].
+  - apply (Hf _ _ _ _ H1).
+Qed.
+
+Lemma wkf_BN fuel : forall s n s' e, becameNecessaryRecursive fuel s n = Ok (s', e) -> wkf s s'.
+Proof.
+  induction fuel as [|fuel IH]; intros s n s' e H; [discriminate|].
+  rewrite BN_S in H. cbn zeta in H.
+  set (s2 := if inGraph (nd s n) then addNode s n else emit (EvNec n) (addNode s n)) in *.
+  assert (W2 : wkf s s2).
+  { unfold s2. destruct (inGraph (nd s n)); [apply wkf_addNode|eapply wkf_trans; [apply wkf_addNode|apply wkf_emit]]. }
+  apply ebind_inv in H as (s3 & e3 & H3 & Hrest).
+  assert (W3 : wkf s2 s3) by (apply (wkf_setHeight _ _ _ _ _ (fun W => scopeHeight_nonneg s2 _ W) H3)).
+  destruct Hrest as [[-> H]|(_ & -> & _)]; [|eapply wkf_trans; eauto].
+  apply ebind_inv in H as (s4 & e4 & H4 & Hrest).
+  assert (W4 : wkf s3 s4).
+  { refine (wkf_efold _ _ _ _ _ (fun st p st1 e1 Hb => _) H4). unfold bn_body in Hb.
+    set (st0 := link st n p) in *.
+    set (st0' := if valid (nd st0 p) then st0 else st0 <| invq := invq st0 ++ [n] |>) in *.
+    assert (W0 : wkf st st0').
+    { eapply wkf_trans; [apply wkf_link|]. unfold st0'. destruct (valid (nd st0 p)); [apply wkf_refl|].
+      apply wkf_static; try reflexivity. intros m. auto. }
+    apply ebind_inv in Hb as (st2 & e2 & H2 & Hrest').
+    assert (W2' : wkf st0' st2).
+    { destruct (isNecessary (nd st p)); [apply ok_inv in H2 as [-> _]; apply wkf_refl|apply (IH _ _ _ _ H2)]. }
+    destruct Hrest' as [[-> Hb]|(_ & -> & _)]; [|eapply wkf_trans; eauto].
+    eapply wkf_trans; [exact W0|]. eapply wkf_trans; [exact W2'|].
+    destruct (_ >=? _); [|apply ok_inv in Hb as [-> _]; apply wkf_refl].
+    refine (wkf_setHeight _ _ _ _ _ (fun W => _) Hb). pose proof (w_h st2 W p). lia. }
+  destruct Hrest as [[-> H]|(_ & -> & _)]; [|eapply wkf_trans; [exact W2|eapply wkf_trans; eauto]].
+  eapply wkf_trans; [exact W2|]. eapply wkf_trans; [exact W3|]. eapply wkf_trans; [exact W4|].
+  destruct (isStale s4 n); [|apply ok_inv in H as [-> _]; apply wkf_refl].
+  apply lift_inv in H as [H _]. apply (wkf_heapAddIfNotPresent _ _ _ H).
+Qed.
+
+(** adjusting heights, whatever the outcome *)
+Lemma wkf_adj s s' :
+  heap s' = heap s -> setDuring s' = setDuring s -> setRemoved s' = setRemoved s ->
+  (forall m, height (nd s' m) = height (nd s m) /\ nkind (nd s' m) = nkind (nd s m)) -> wkf s s'.
+Proof. apply wkf_static. Qed.
+
+Lemma wkf_adjAdd s n s' : adjAdd s n = Ok s' -> wkf s s'.
+Proof.
+  intros H. apply adjAdd_inv in H as [[_ ->]|(_ & _ & q & _ & ->)]; [apply wkf_refl|].
+  apply wkf_static; try reflexivity. intros m.
+  match goal with |- height (nd (?a <| adj := ?b |>) m) = _ /\ _ => change (nd (a <| adj := b |>) m) with (nd a m) end.
+  destruct (decide (has s n)) as [Hn|Hn]; [|rewrite (upd_missing s n _ Hn); auto].
+  rewrite nd_upd by exact Hn. destruct (decide (m = n)) as [->|]; auto.
+Qed.
+
+Lemma wkf_adjRemoveMin s r s' : adjRemoveMin s = Ok (r, s') -> wkf s s'.
+Proof.
+  intros H. apply adjRemoveMin_inv in H as [[_ ->]|(n & x & b' & _ & _ & ->)]; [apply wkf_refl|].
+  apply wkf_static; try reflexivity. intros m.
+  match goal with |- height (nd (?a <| adj := ?b |>) m) = _ /\ _ => change (nd (a <| adj := b |>) m) with (nd a m) end.
+  destruct (decide (has s n)) as [Hn|Hn]; [|rewrite (upd_missing s n _ Hn); auto].
+  rewrite nd_upd by exact Hn. destruct (decide (m = n)) as [->|]; auto.
+Qed.
+
+Lemma wkf_ensure s oP c p s' e : ensureHeightRequirement s oP c p = Ok (s', e) -> wkf s s'.
+Proof.
+  intros H. unfold ensureHeightRequirement in H.
+  destruct (bool_decide (oP = c)); [apply fail_inv in H as [-> _]; apply wkf_refl|].
+  destruct (_ >=? _); [|apply ok_inv in H as [-> _]; apply wkf_refl].
+  apply ebind_inv in H as (s1 & e1 & H1 & Hrest). apply lift_inv in H1 as [H1 ->].
+  destruct Hrest as [[_ H2]|(Hne & _)]; [|congruence].
+  eapply wkf_trans; [apply (wkf_adjAdd _ _ _ H1)|].
+  refine (wkf_setHeight _ _ _ _ _ (fun W => _) H2). pose proof (w_h s1 W p). lia.
+Qed.
+
+Lemma wkf_adjustLoop fuel : forall s oP s' e, adjustLoop fuel s oP = Ok (s', e) -> wkf s s'.
+Proof.
+  induction fuel as [|fuel IH]; intros s oP s' e H; [discriminate|].
+  rewrite adjustLoop_S in H.
+  destruct (a_num (adj s) <=? 0); [apply ok_inv in H as [-> _]; apply wkf_refl|].
+  apply rbind_ok in H as ([popped s1] & H1 & H). destruct popped as [p|]; [|discriminate].
+  pose proof (wkf_adjRemoveMin _ _ _ H1) as W1.
+  apply ebind_inv in H as (s2 & e2 & H2 & Hrest). apply lift_inv in H2 as [H2 ->].
+  destruct Hrest as [[_ H]|(Hne & _)]; [|congruence].
+  assert (W2 : wkf s1 s2).
+  { destruct (inHeap s1 p) eqn:E; [apply (wkf_heapFix _ _ _ E H2)|injection H2 as <-; apply wkf_refl]. }
+  apply ebind_inv in H as (s3 & e3 & H3 & Hrest).
+  assert (W3 : wkf s2 s3) by (apply (wkf_efold _ _ _ _ _ (fun st c st1 e1 Hc => wkf_ensure _ _ _ _ _ _ Hc) H3)).
+  destruct Hrest as [[-> H]|(_ & -> & _)]; [|eapply wkf_trans; [exact W1|eapply wkf_trans; eauto]].
+  apply ebind_inv in H as (s4 & e4 & H4 & Hrest).
+  assert (W4 : wkf s3 s4).
+  { destruct (nkind (nd s3 p)); try (apply ok_inv in H4 as [-> _]; apply wkf_refl).
+    refine (wkf_efold _ _ _ _ _ (fun st r st1 e1 Hr => _) H4).
+    cbv beta in Hr. revert Hr. destruct (isNecessary (nd st r)); intros Hr; [apply (wkf_ensure _ _ _ _ _ _ Hr)|apply ok_inv in Hr as [-> _]; apply wkf_refl]. }
+  assert (W04 : wkf s s4) by (eapply wkf_trans; [exact W1|eapply wkf_trans; [exact W2|eapply wkf_trans; eauto]]).
+  destruct Hrest as [[-> H]|(_ & -> & _)]; [|exact W04].
+  eapply wkf_trans; [exact W04|apply (IH _ _ _ _ H)].
+Qed.
+
+Lemma wkf_adjustHeights fuel s c p s' e : adjustHeights fuel s c p = Ok (s', e) -> wkf s s'.
+Proof.
+  intros H. unfold adjustHeights in H.
+  set (s0 := s <| adj := adj s <| a_lower := height (nd s c) |> |>) in *.
+  assert (W0 : wkf s s0) by (apply wkf_static; try reflexivity; intros m; auto).
+  apply ebind_inv in H as (s1 & e1 & H1 & Hrest).
+  pose proof (wkf_ensure _ _ _ _ _ _ H1) as W1.
+  destruct Hrest as [[-> H]|(_ & -> & _)]; [|eapply wkf_trans; eauto].
+  eapply wkf_trans; [exact W0|]. eapply wkf_trans; [exact W1|apply (wkf_adjustLoop _ _ _ _ _ H)].
+Qed.
+
+(* a rejected [addChild]: nothing beyond linking, registering and height adjustment has happened *)
+Lemma wkf_addChild_err fuel s c p s' x : addChild fuel s c p = Ok (s', Some x) -> wkf s s'.
+Proof.
+  intros H. unfold addChild, addChildWithoutAdjustingHeights in H.
+  set (s0 := link s c p) in *.
+  set (s0' := if valid (nd s0 p) then s0 else s0 <| invq := invq s0 ++ [c] |>) in *.
+  assert (W0 : wkf s s0').
+  { eapply wkf_trans; [apply wkf_link|]. unfold s0'. destruct (valid (nd s0 p)); [apply wkf_refl|].
+    apply wkf_static; try reflexivity. intros m. auto. }
+  apply ebind_inv in H as (s2 & e2 & H2 & Hrest).
+  assert (W2 : wkf s0' s2).
+  { destruct (isNecessary (nd s p)); [apply ok_inv in H2 as [-> _]; apply wkf_refl|apply (wkf_BN _ _ _ _ _ H2)]. }
+  destruct Hrest as [[-> H]|(_ & -> & _)]; [|eapply wkf_trans; eauto].
+  apply ebind_inv in H as (s3 & e3 & H3 & Hrest).
+  assert (W3 : wkf s2 s3).
+  { destruct (_ >=? _); [apply (wkf_adjustHeights _ _ _ _ _ _ H3)|apply ok_inv in H3 as [-> _]; apply wkf_refl]. }
+  destruct Hrest as [[-> H]|(_ & -> & _)]; [|eapply wkf_trans; [exact W0|eapply wkf_trans; eauto]].
+  (* from here on no error can arise *)
+  exfalso. apply ebind_inv in H as (s4 & e4 & H4 & Hrest). apply lift_inv in H4 as [_ ->].
+  destruct Hrest as [[_ H]|(Hne & _)]; [|congruence].
+  destruct (_ || _); [apply lift_inv in H as [_ ?]; discriminate|apply ok_inv in H as [_ ?]; discriminate].
+Qed.
+
+Lemma wkf_changeParent_err fuel s c oP nP s' x : changeParent fuel s c oP nP = Ok (s', Some x) -> wkf s s'.
+Proof.
+  intros H. unfold changeParent in H. destruct oP as [o|], nP as [n|].
+  - destruct (bool_decide (o = n)); [apply ok_inv in H as [_ ?]; discriminate|].
+    apply ebind_inv in H as (s2 & e2 & H2 & Hrest).
+    destruct Hrest as [[-> H]|(_ & -> & He)].
+    + apply lift_inv in H as [_ ?]. discriminate.
+    + rewrite <- He in H2. eapply wkf_trans; [apply wkf_unlink|]. eapply wkf_trans; [|apply (wkf_addChild_err _ _ _ _ _ _ H2)].
+      apply wkf_upd. intros y. auto.
+  - apply lift_inv in H as [_ ?]. discriminate.
+  - apply (wkf_addChild_err _ _ _ _ _ _ H).
+  - apply ok_inv in H as [_ ?]. discriminate.
+Qed.
+
+(** ** the weak invariant at good states, and after a failed bind *)
+Lemma TInv_Wk s :
+  TInv [] noE s ->
+  (forall v, v ∈ setDuring s \/ v ∈ setRemoved s -> exists e, nkind (nd s v) = KVar e) -> Wk s.
+Proof.
+  intros T Hv. split; [apply (t_heap _ _ _ T)| |exact Hv].
+  intros m. destruct (inGraph (nd s m)) eqn:E.
+  - destruct (t_height _ _ _ T m E) as ((A & _) & _). lia.
+  - destruct (t_zero _ _ _ T m E) as (_ & _ & _ & ->). unfold unset. lia.
+Qed.
+
+Lemma PInv_Wk s : PInv s -> Wk s.
+Proof. intros P. apply TInv_Wk; [apply (p_t s P)|apply (pq_vars s (p_pq s P))]. Qed.
+
+Lemma PInv_reg_height s n : PInv s -> inGraph (nd s n) = true -> 0 <= height (nd s n).
+Proof. intros P Hg. apply (t_height _ _ _ (p_t s P) n Hg). Qed.
+
+Lemma bind_err_W_nomemo fuel p s b s' x :
+  PInv s -> plan_ok s p = true -> nkind (nd s b) = KBindLhs b -> inGraph (nd s b) = true ->
+  b_memo (bd s b) = false ->
+  bindLhsStabilize fuel p s b = Ok (s', Some x) -> Wk s' /\ 0 <= height (nd s' b).
+Proof.
+  intros P Hp Hk Hg Hnm H.
+  pose proof (p_kinds s P b (has_inGraph s b Hg)) as K. rewrite Hk in K. destruct K as [_ [r0 Hr0]].
+  pose proof (p_binds s P b r0 Hr0) as W0.
+  assert (Hbd : bd s b = r0) by (unfold bd; rewrite Hr0; reflexivity).
+  pose proof Hnm as Hnm0. rewrite Hbd in Hnm0.
+  unfold bindLhsStabilize in H. rewrite Hbd in H. rewrite Hnm0, (bw_main _ _ _ W0) in H.
+  cbv zeta in H. cbv iota in H.
+  set (f1 := set b_rhsNodes (fun _ : list nid => [])) in *.
+  set (s1 := updb s b f1) in *.
+  apply rbind_ok in H as ([[sx ex] built] & H1 & H).
+  apply rbind_ok in H1 as ([s2 e1] & Hinv & H1).
+  assert (Hst1 : status s1 = 1) by apply (pq_status s (p_pq s P)).
+  pose proof (invoke_soft p s1 b WFn s2 e1 Hst1 Hp Hinv) as S12.
+  destruct e1 as [x1|].
+  - injection H1 as <- <- <-. apply fail_inv in H as [-> _].
+    assert (E : updb s2 b (set b_rhsNodes (fun _ => b_rhsNodes r0)) = s2 <| binds := binds s |>).
+    { assert (Ealt : alter (set b_rhsNodes (fun _ => b_rhsNodes r0)) b (binds s2) = binds s).
+      { rewrite (ss_binds _ _ (so_struct _ _ S12)). change (binds s1) with (alter f1 b (binds s)).
+        apply (alter_alter_at _ _ (binds s) b r0 Hr0). destruct r0; reflexivity. }
+      unfold updb. rewrite Ealt. reflexivity. }
+    rewrite E.
+    pose proof (soft_binds_irrel s s2 _ (binds s1) S12 eq_refl) as S02.
+    pose proof (PInv_of_soft s _ P S02) as P'. split; [apply PInv_Wk, P'|].
+    apply (PInv_reg_height _ b P'). destruct (ss_node _ _ (so_struct _ _ S02) b) as (_&_&_&_&_&_&_&_&_&_&->). exact Hg.
+  - set (x0 := valueOf s1 (b_lhs r0)) in *.
+    set (case := nth (Z.to_nat (x0 mod Z.of_nat (length (b_cases r0)))) (b_cases r0) TNil) in *.
+    destruct (inst s2 (Some b) x0 case) as [s3 root] eqn:Hinst.
+    injection H1 as <- <- <-.
+    assert (Hinst' : inst s2 (Some b) x0 (nth (Z.to_nat (x0 mod Z.of_nat (length (b_cases (bd s b))))) (b_cases (bd s b)) TNil) = (s3, root))
+      by (rewrite Hbd; exact Hinst).
+    pose proof (run_fn_post p s b P Hp Hk Hg Hnm s2 Hinv x0 s3 root Hinst') as FP.
+    destruct FP as [T6 R7 Hvc7 Hforce Hrhs Hdecl6 Hroot Hnew Hold Holdnd Hhas6 Hsreg6 Hmain [Hgb6 Hkb6] Holdne Hpair1 Hpair2 Hplan7 Hstab7].
+    rewrite Hbd in *.
+    set (s6 := updb (updb (emit (EvBindFn b x0 root) s3) b
+                 (fun r => r <| b_gen := S (b_gen r) |> <| b_cache := if b_memo r then b_cache r ++ [(x0, root)] else b_cache r |>))
+                 b (set b_rhs (fun _ => root))) in *.
+    set (s7 := upd s6 (S b) (set decl (fun _ => match root with Some r => [b; r] | None => [b] end))) in *.
+    apply ebind_inv in H as (t8 & e2 & Hcp & Hrest).
+    destruct e2 as [x2|].
+    2:{ destruct Hrest as [[_ H]|(Hne & _)]; [|congruence].
+        apply ebind_inv in H as (t9 & e3 & Hiv & Hrest). apply lift_inv in Hiv as [_ ->].
+        destruct Hrest as [[_ H]|(Hne & _)]; [|congruence]. apply lift_inv in H as [_ ?]. discriminate. }
+    destruct Hrest as [[? _]|(_ & -> & _)]; [discriminate|].
+    assert (W7 : Wk s7).
+    { assert (W6 : Wk s6).
+      { apply TInv_Wk; [exact T6|]. intros v Hv. destruct (m_vars _ _ R7 v Hv) as [k Hkv]. exists k.
+        unfold s7 in Hkv. rewrite nd_upd_proj in Hkv by reflexivity. exact Hkv. }
+      unfold s7. refine (proj1 (wkf_upd s6 (S b) _ _ W6)). intros y. auto. }
+    destruct (wkf_changeParent_err _ _ _ _ _ _ _ Hcp W7) as [W8 Hh8]. split; [exact W8|].
+    apply Hh8. unfold s7. rewrite nd_upd_proj by reflexivity.
+    destruct (t_height _ _ _ T6 b Hgb6) as ((A & _) & _). exact A.
+Qed.
+
+Lemma tailx_errW fuel s3 s6 b r3 r6 root s' x :
+  tail_ok s3 s6 b r3 r6 root -> memo_tailx fuel s6 b (b_rhs r3) root = Ok (s', Some x) ->
+  Wk s' /\ 0 <= height (nd s' b).
+Proof.
+  intros (T6 & Hgb6 & Hv6 & _) H. rewrite memo_tailx_eq in H.
+  set (s7 := upd s6 (S b) (set decl (fun _ => b :: option_list root))) in *.
+  apply ebind_inv in H as (t8 & e2 & Hcp & Hrest).
+  destruct e2 as [x2|].
+  2:{ destruct Hrest as [[_ H]|(Hne & _)]; [|congruence].
+      apply ebind_inv in H as (t9 & e3 & Hiv & Hrest). apply lift_inv in Hiv as [_ ->].
+      destruct Hrest as [[_ H]|(Hne & _)]; [|congruence]. apply lift_inv in H as [_ ?]. discriminate. }
+  destruct Hrest as [[? _]|(_ & -> & _)]; [discriminate|].
+  assert (W7 : Wk s7).
+  { assert (W6 : Wk s6) by (apply TInv_Wk; [exact T6|exact Hv6]).
+    unfold s7. refine (proj1 (wkf_upd s6 (S b) _ _ W6)). intros y. auto. }
+  destruct (wkf_changeParent_err _ _ _ _ _ _ _ Hcp W7) as [W8 Hh8]. split; [exact W8|].
+  apply Hh8. unfold s7. rewrite nd_upd_proj by reflexivity.
+  destruct (t_height _ _ _ T6 b Hgb6) as ((A & _) & _). exact A.
+Qed.
+
+Lemma bind_err_W_memo fuel p s b s' x :
+  PInv s -> plan_ok s p = true -> nkind (nd s b) = KBindLhs b -> inGraph (nd s b) = true ->
+  b_memo (bd s b) = true ->
+  bindLhsStabilize fuel p s b = Ok (s', Some x) -> Wk s' /\ 0 <= height (nd s' b).
+Proof.
+  intros P Hp Hk Hg Hm H.
+  pose proof (p_kinds s P b (has_inGraph s b Hg)) as K. rewrite Hk in K. destruct K as [_ [r0 Hr0]].
+  pose proof (p_binds s P b r0 Hr0) as W0.
+  assert (Hbd : bd s b = r0) by (unfold bd; rewrite Hr0; reflexivity).
+  rewrite Hbd in *.
+  destruct (bw_memo _ _ _ W0 Hm) as (Hrn0 & Hscb & Hnb).
+  rewrite (bindLhs_memo_eq fuel p s b r0 Hr0 W0 Hm) in H. cbv zeta in H.
+  set (x0 := valueOf s (b_lhs r0)) in *.
+  destruct (list_find (fun kv : Z * option nat => kv.1 = x0) (b_cache r0)) as [[i [x' root]]|] eqn:Ef.
+  - apply list_find_Some in Ef as (Hi & Hx' & _). simpl in Hx'. subst x'.
+    apply elem_of_list_lookup_2 in Hi.
+    apply (tailx_errW fuel _ _ _ _ _ _ s' x (memo_hit_ok s b r0 x0 root P Hr0 Hm Hg Hi) H).
+  - apply rbind_ok in H as ([s2 e1] & Hinv & H).
+    assert (Hst1 : status s = 1) by apply (pq_status s (p_pq s P)).
+    pose proof (invoke_soft p s b WFn s2 e1 Hst1 Hp Hinv) as S12.
+    pose proof (so_struct _ _ S12) as SS.
+    destruct e1 as [x1|].
+    + apply fail_inv in H as [-> _].
+      assert (Hr2 : binds s2 !! b = Some r0) by (rewrite (ss_binds _ _ SS); exact Hr0).
+      rewrite (updb_id s2 b _ r0 Hr2) by (destruct r0; cbn in Hrn0; subst; reflexivity).
+      pose proof (PInv_of_soft s s2 P S12) as P'. split; [apply PInv_Wk, P'|].
+      apply (PInv_reg_height _ b P'). destruct (ss_node _ _ SS b) as (_&_&_&_&_&_&_&_&_&_&->). exact Hg.
+    + assert (Hsc2 : scope (nd s2 b) = None) by (destruct (ss_node _ _ SS b) as (_&_&->&_); exact Hscb).
+      rewrite Hsc2 in H.
+      destruct (inst s2 None x0 (nth (Z.to_nat (x0 mod Z.of_nat (length (b_cases r0)))) (b_cases r0) TNil)) as [s3 root] eqn:Hinst.
+      destruct (memo_miss_ok p s b r0 s2 x0 s3 root P Hp Hr0 Hm Hg Hinv Hinst) as (TK & _).
+      apply (tailx_errW fuel _ _ _ _ _ _ s' x TK H).
+Qed.
+
+Lemma bind_err_W fuel p s b s' x :
+  PInv s -> plan_ok s p = true -> nkind (nd s b) = KBindLhs b -> inGraph (nd s b) = true ->
+  bindLhsStabilize fuel p s b = Ok (s', Some x) -> Wk s' /\ 0 <= height (nd s' b).
+Proof.
+  intros P Hp Hk Hg H. destruct (b_memo (bd s b)) eqn:Em.
+  - apply (bind_err_W_memo fuel p s b s' x P Hp Hk Hg Em H).
+  - apply (bind_err_W_nomemo fuel p s b s' x P Hp Hk Hg Em H).
+Qed.
+
+(** * The serial pass never faults *)
+Definition QT : state -> Prop := fun _ => True.
+Lemma HQT : forall s s', same_struct s s' -> QT s -> QT s'.
+Proof. intros; exact I. Qed.
+
+Lemma nc_stabilizeNode fuel p s n :
+  PInv s -> plan_ok s p = true -> inGraph (nd s n) = true -> nocrash (stabilizeNode fuel p s n).
+Proof.
+  intros P Hp Hg. unfold stabilizeNode. destruct (PInv_hreg s P) as [Hr Hk].
+  assert (Hinv : forall (k : state * option err -> M), (forall x, nocrash (k x)) ->
+            nocrash (rbind (invoke p s n WFn) k)).
+  { intros k Hk'. apply nc_rbind; [apply nc_invoke; assumption|]. intros x _. apply Hk'. }
+  destruct (nkind (nd s n)) as [eqv| |f|f|f|c| |b|b] eqn:Ek.
+  - destruct (pending (nd s n)); [destruct (_ =? _)|]; apply nc_Ok.
+  - apply nc_Ok.
+  - apply Hinv. intros [s1 [e0|]]; apply nc_Ok.
+  - apply Hinv. intros [s1 [e0|]]; apply nc_Ok.
+  - apply Hinv. intros [s1 [e0|]]; apply nc_Ok.
+  - apply nc_Ok.
+  - apply nc_Ok.
+  - assert (b = n) as ->.
+    { pose proof (p_kinds s P n (has_inGraph s n Hg)) as K. rewrite Ek in K. symmetry. apply K. }
+    apply (nc_bind fuel p s n P Hp Ek Hg).
+  - apply nc_Ok.
+Qed.
+
+(* nodes other than lhs-change nodes: a soft step, whatever the outcome *)
+Lemma stabilizeNode_soft fuel p s n s' e :
+  (forall b, nkind (nd s n) <> KBindLhs b) -> status s = 1 -> plan_ok s p = true -> inGraph (nd s n) = true ->
+  stabilizeNode fuel p s n = Ok (s', e) -> soft s s'.
+Proof.
+  intros Hk Hst Hp Hg H. unfold stabilizeNode in H.
+  assert (Hinv : forall s1 e1 r args,
+            invoke p s n WFn = Ok (s1, e1) ->
+            match e1 with
+            | Some e0 => fail s1 e0
+            | None => ok (emit (EvInvoked n args r) (upd s1 n (set value (fun _ => r))))
+            end = Ok (s', e) -> soft s s').
+  { intros s1 e1 r args H1 H2. pose proof (invoke_soft p s n WFn s1 e1 Hst Hp H1) as S1.
+    destruct e1 as [e0|].
+    - apply fail_inv in H2 as [-> _]. exact S1.
+    - apply ok_inv in H2 as [-> _].
+      eapply soft_trans; [exact S1|]. eapply soft_trans; [apply soft_value|].
+      apply soft_emit. simpl. rewrite nd_upd_proj by reflexivity.
+      destruct (ss_node _ _ (so_struct _ _ S1) n) as (_&_&_&_&_&_&_&_&_&_&->). exact Hg. }
+  destruct (nkind (nd s n)) as [eqv| |f|f|f|c| |b|b] eqn:Ek.
+  - destruct (pending (nd s n)) as [v|].
+    + destruct (recomputedAt (nd s n) =? stabNum s); apply ok_inv in H as [-> _]; [apply soft_refl|].
+      apply soft_upd; intros x; [repeat split|auto].
+    + apply ok_inv in H as [-> _]. apply soft_refl.
+  - apply ok_inv in H as [-> _]. apply soft_refl.
+  - apply rbind_ok in H as ([s1 e1] & H1 & H2). eapply (Hinv s1 e1 _ _ H1 H2).
+  - apply rbind_ok in H as ([s1 e1] & H1 & H2). eapply (Hinv s1 e1 _ _ H1 H2).
+  - apply rbind_ok in H as ([s1 e1] & H1 & H2). eapply (Hinv s1 e1 _ _ H1 H2).
+  - apply ok_inv in H as [-> _]. apply soft_value.
+  - apply ok_inv in H as [-> _]. apply soft_refl.
+  - exfalso. apply (Hk b). reflexivity.
+  - apply ok_inv in H as [-> _]. apply soft_value.
+Qed.
+
+(* the state a failing node leaves: still good enough for the rest of the pass *)
+Lemma stabilizeNode_err_W fuel p s n s' x :
+  PInv s -> plan_ok s p = true -> inGraph (nd s n) = true ->
+  stabilizeNode fuel p s n = Ok (s', Some x) -> Wk s' /\ 0 <= height (nd s' n).
+Proof.
+  intros P Hp Hg H.
+  destruct (nkind (nd s n)) as [eqv| |f|f|f|c| |b|b] eqn:Ek.
+  8:{ assert (b = n) as ->.
+      { pose proof (p_kinds s P n (has_inGraph s n Hg)) as K. rewrite Ek in K. symmetry. apply K. }
+      unfold stabilizeNode in H. rewrite Ek in H. apply (bind_err_W fuel p s n s' x P Hp Ek Hg H). }
+  all: assert (S : soft s s') by (apply (stabilizeNode_soft fuel p s n s' (Some x)); [intros b'; rewrite Ek; discriminate|apply (pq_status s (p_pq s P))|exact Hp|exact Hg|exact H]);
+       pose proof (PInv_of_soft s s' P S) as P'; (split; [apply PInv_Wk, P'|]);
+       apply (PInv_reg_height s' n P'); destruct (ss_node _ _ (so_struct _ _ S) n) as (_&_&_&_&_&_&_&_&_&_&->); exact Hg.
+Qed.
+
+Lemma nc_recomputeFailed_W s n prev : Wk s -> 0 <= height (nd s n) -> nocrash (recomputeFailed s n prev).
+Proof.
+  intros W Hh. unfold recomputeFailed. apply nc_heapAddIfNotPresent; [apply (w_heap s W)|].
+  rewrite nd_upd_proj by reflexivity. exact Hh.
+Qed.
+
+Lemma wkf_recomputeFailed s n prev s' : recomputeFailed s n prev = Ok s' -> wkf s s'.
+Proof.
+  intros H. unfold recomputeFailed in H.
+  eapply wkf_trans; [|apply (wkf_heapAddIfNotPresent _ _ _ H)]. apply wkf_upd. intros y. auto.
+Qed.
+
+Lemma wkf_errorHandlers s n : wkf s (errorHandlers s n).
+Proof.
+  unfold errorHandlers. destruct (nkind (nd s n)); try apply wkf_emit.
+  eapply wkf_trans; apply wkf_emit.
+Qed.
+
+Lemma nc_childrenLoop s n : PInv s -> nocrash (childrenLoop s n).
+Proof.
+  intros P. unfold childrenLoop.
+  pose (I := fun (rest : list nid) (st : state * option nid) =>
+    soft s st.1 /\ (forall c, c ∈ rest -> inGraph (nd s c) = true) /\
+    (forall h, st.2 = Some h -> inHeap st.1 h = false /\ inGraph (nd s h) = true)).
+  apply (nc_rfold I).
+  - split; [apply soft_refl|]. split; [|discriminate].
+    intros c Hc. apply (child_registered s c n (t_edges _ _ _ (p_t s P)) (t_zero _ _ _ (p_t s P)) Hc).
+  - intros c rest [st h0] (S & Hreg & Hh). cbn [fst snd] in *.
+    assert (Hreg' : forall c', c' ∈ rest -> inGraph (nd s c') = true) by (intros c' Hc'; apply Hreg; right; exact Hc').
+    assert (Same : I rest (st, h0)) by (split; [exact S|split; [exact Hreg'|exact Hh]]).
+    assert (Pst : PInv st) by (apply (PInv_of_soft s st P S)).
+    assert (Hgst : forall m, inGraph (nd st m) = inGraph (nd s m)) by (intros m; apply (ss_node _ _ (so_struct _ _ S) m)).
+    destruct (bool_decide_reflect (h0 = Some c)) as [|Hneq]; [split; [apply nc_Ok|intros s1 [= <-]; exact Same]|].
+    destruct (shouldRecomputeChild st c) eqn:Esh; simpl; [|split; [apply nc_Ok|intros s1 [= <-]; exact Same]].
+    assert (Hcm : inHeap st c = false).
+    { unfold shouldRecomputeChild in Esh. destruct (inHeap st c); [discriminate|reflexivity]. }
+    destruct h0 as [h|].
+    + destruct (Hh h eq_refl) as [Hhm Hhg].
+      assert (Hh0 : 0 <= height (nd st h)) by (apply (PInv_reg_height st h Pst); rewrite Hgst; exact Hhg).
+      split.
+      * apply nc_rbind; [|intros; apply nc_Ok].
+        apply nc_heapAdd; [apply (t_heap _ _ _ (p_t st Pst))|exact Hhm|exact Hh0].
+      * intros [st1 h1] Hstep. apply rbind_ok in Hstep as (st2 & H2 & [= <- <-]).
+        pose proof (soft_heapAdd st h st2 Hhm H2) as S2.
+        split; [eapply soft_trans; eauto|]. split; [exact Hreg'|].
+        intros h' [= <-]. split; [|apply Hreg; left].
+        destruct (t_heap _ _ _ (p_t st Pst)) as [Hi _].
+        destruct (heapAdd_spec st h st2 Hi Hhm Hh0 H2) as (_ & I2 & Pm & _).
+        apply (inHeap_false_iff st2 c I2). rewrite Pm. rewrite not_elem_of_cons. split.
+        -- intros ->. congruence.
+        -- apply (inHeap_false_iff st c Hi), Hcm.
+    + split; [apply nc_Ok|]. intros [st1 h1] [= <- <-]. split; [exact S|]. split; [exact Hreg'|].
+      intros h' [= <-]. split; [exact Hcm|apply Hreg; left].
+Qed.
+
+(* one recompute: no fault; and whatever the outcome the weak invariant holds afterwards *)
+Lemma rns_nc fuel p s n :
+  PInv s -> plan_ok s p = true -> inGraph (nd s n) = true ->
+  nocrash (recomputeNodeSerial fuel p s n) /\
+  forall s' e imm, recomputeNodeSerial fuel p s n = Ok (s', e, imm) ->
+    Wk s' /\ (e <> None -> 0 <= height (nd s' n)).
+Proof.
+  intros P Hp Hg. unfold recomputeNodeSerial.
+  assert (Hst : status s = 1) by apply (pq_status s (p_pq s P)).
+  set (prev := recomputedAt (nd s n)) in *.
+  set (s1 := upd s n (set recomputedAt (fun _ => stabNum s))) in *.
+  assert (S1 : soft s s1).
+  { apply soft_upd; intros x; [repeat split|]. intros Hk (A & B & C). repeat split; cbn; try lia; apply B || apply C. }
+  assert (K0 : pass_ok QT p s s) by (split; [exact P|split; [exact Hp|split; [reflexivity|exact I]]]).
+  assert (Hreg : forall st, soft s st -> inGraph (nd st n) = true).
+  { intros st S. destruct (ss_node _ _ (so_struct _ _ S) n) as (_&_&_&_&_&_&_&_&_&_&->). exact Hg. }
+  pose proof (PInv_of_soft s s1 P S1) as P1.
+  (* failing: the restore and the handlers *)
+  assert (Fail : forall st (e0 : err), Wk st -> 0 <= height (nd st n) ->
+            nocrash (s0 <-! recomputeFailed st n prev; Ok (errorHandlers s0 n, Some e0, @None nid)) /\
+            forall s' e imm, (s0 <-! recomputeFailed st n prev; Ok (errorHandlers s0 n, Some e0, @None nid)) = Ok (s', e, imm) ->
+              Wk s' /\ (e <> None -> 0 <= height (nd s' n))).
+  { intros st e0 Wst Hh. split; [apply nc_rbind; [apply nc_recomputeFailed_W; assumption|intros; apply nc_Ok]|].
+    intros s' e imm HF. apply rbind_ok in HF as (s0 & H0 & [= <- _ _]).
+    destruct (wkf_trans _ _ _ (wkf_recomputeFailed _ _ _ _ H0) (wkf_errorHandlers s0 n) Wst) as [W' Hh'].
+    split; [exact W'|intros _; apply Hh', Hh]. }
+  assert (Good : forall st, soft s st -> Wk st /\ 0 <= height (nd st n)).
+  { intros st S. pose proof (PInv_of_soft s st P S) as Pst. split; [apply PInv_Wk, Pst|apply (PInv_reg_height st n Pst), Hreg, S]. }
+  (* the cutoff phase *)
+  assert (Cut : nocrash (match nkind (nd s n) with
+     | KCutoff c =>
+       '(s0, e) <-! invoke p s1 n WCut;
+       match e with
+       | Some e => Ok (s0, Some e, false)
+       | None => let v := apCut c (value (nd s n)) (valueOf s1 (hd 0%nat (decl (nd s n)))) in
+                 Ok (emit (EvCutoff n (value (nd s n)) (valueOf s1 (hd 0%nat (decl (nd s n)))) v) s0, None, v)
+       end
+     | _ => Ok (s1, None, false)
+     end) /\ forall s2 e2 cut, (match nkind (nd s n) with
+     | KCutoff c =>
+       '(s0, e) <-! invoke p s1 n WCut;
+       match e with
+       | Some e => Ok (s0, Some e, false)
+       | None => let v := apCut c (value (nd s n)) (valueOf s1 (hd 0%nat (decl (nd s n)))) in
+                 Ok (emit (EvCutoff n (value (nd s n)) (valueOf s1 (hd 0%nat (decl (nd s n)))) v) s0, None, v)
+       end
+     | _ => Ok (s1, None, false)
+     end) = Ok (s2, e2, cut) -> soft s s2).
+  { destruct (nkind (nd s n)) as [| | | | |c| | |] eqn:Ek; try (split; [apply nc_Ok|intros s2 e2 cut [= <- _ _]; exact S1]).
+    split.
+    - apply nc_rbind; [apply nc_invoke; apply (PInv_hreg s1 P1)|]. intros [s3 [e3|]] _; apply nc_Ok.
+    - intros s2 e2 cut H2. apply rbind_ok in H2 as ([s3 e3] & H3 & H2).
+      assert (Hst1 : status s1 = 1) by (rewrite (so_status _ _ S1); exact Hst).
+      pose proof (invoke_soft p s1 n WCut s3 e3 Hst1 (plan_ok_struct s s1 p (so_struct _ _ S1) Hp) H3) as S3.
+      destruct e3 as [e0|]; injection H2 as <- _ _.
+      + eapply soft_trans; eauto.
+      + eapply soft_trans; [exact S1|]. eapply soft_trans; [exact S3|].
+        apply soft_emit. simpl. apply Hreg. eapply soft_trans; eauto. }
+  destruct Cut as [Cut1 Cut2].
+  split.
+  - apply nc_rbind; [exact Cut1|]. intros [[s2 e2] cut] H2. pose proof (Cut2 s2 e2 cut H2) as S2.
+    destruct (Good s2 S2) as [W2 Hh2].
+    destruct (pass_ok_soft QT HQT p s s s2 K0 S2) as (P2 & Hp2 & _).
+    destruct e2 as [e0|].
+    { destruct e0; try apply (proj1 (Fail s2 _ W2 Hh2)). apply nc_Ok. }
+    destruct cut; [apply nc_Ok|].
+    apply nc_rbind; [apply (nc_stabilizeNode fuel p s2 n P2 Hp2 (Hreg s2 S2))|].
+    intros [s3 e3] H3. destruct e3 as [e0|].
+    { destruct (stabilizeNode_err_W fuel p s2 n s3 e0 P2 Hp2 (Hreg s2 S2) H3) as [W3 Hh3].
+      destruct e0; try apply (proj1 (Fail s3 _ W3 Hh3)). apply nc_Ok. }
+    destruct (stabilizeNode_spec QT HQT bind_spec_holds fuel p s2 n s3 None I P2 Hp2 (Hreg s2 S2) H3) as [[?|?]|(P3 & Hp3 & Hn3 & _)]; [discriminate|discriminate|].
+    set (s4 := insert_handler n (upd s3 n (set changedAt (fun _ => stabNum s3)))) in *.
+    assert (S4 : soft s3 s4).
+    { eapply soft_trans; [|apply soft_handlers].
+      apply soft_upd; intros x; [repeat split|]. intros Hk (A & B & C). repeat split; cbn; try lia; apply A || apply C. }
+    pose proof (PInv_of_soft s3 s4 P3 S4) as P4.
+    apply nc_rbind; [apply (nc_childrenLoop s4 n P4)|]. intros [s5 held] H5.
+    destruct (childrenLoop_spec s4 n s5 held P4 H5) as [S5 Hheld].
+    pose proof (PInv_of_soft s4 s5 P4 S5) as P5.
+    apply nc_rbind; [|intros [s6 imm'] _; apply nc_Ok].
+    destruct held as [h|]; [|apply nc_Ok]. destruct (Hheld h eq_refl) as [Hm Hgh].
+    destruct (canRecomputeImmediately s5 n h); [apply nc_Ok|].
+    apply nc_rbind; [|intros; apply nc_Ok].
+    apply nc_heapAdd; [apply (t_heap _ _ _ (p_t s5 P5))|exact Hm|apply (PInv_reg_height s5 h P5 Hgh)].
+  - intros s' e imm H. apply rbind_ok in H as ([[s2 e2] cut] & H2 & H). pose proof (Cut2 s2 e2 cut H2) as S2.
+    destruct (Good s2 S2) as [W2 Hh2].
+    destruct (pass_ok_soft QT HQT p s s s2 K0 S2) as (P2 & Hp2 & _).
+    destruct e2 as [e0|].
+    { destruct e0; try apply (proj2 (Fail s2 _ W2 Hh2) s' e imm H). injection H as <- <- _. auto. }
+    destruct cut; [injection H as <- <- _; split; [exact W2|congruence]|].
+    apply rbind_ok in H as ([s3 e3] & H3 & H). destruct e3 as [e0|].
+    { destruct (stabilizeNode_err_W fuel p s2 n s3 e0 P2 Hp2 (Hreg s2 S2) H3) as [W3 Hh3].
+      destruct e0; try apply (proj2 (Fail s3 _ W3 Hh3) s' e imm H). injection H as <- <- _. auto. }
+    (* success *)
+    destruct (recomputeNodeSerial_spec QT HQT bind_spec_holds fuel p s n s' e imm I P Hp Hg) as [Hrej|[K _]].
+    { unfold recomputeNodeSerial. fold prev. fold s1. rewrite H2. rewrite rbind_Ok. cbv beta iota. rewrite H3. rewrite rbind_Ok. cbv beta iota. exact H. }
+    { exfalso. apply rbind_ok in H as ([s5 held] & _ & H). apply rbind_ok in H as ([s6 imm'] & _ & [= _ <- _]).
+      destruct Hrej; discriminate. }
+    destruct K as (P' & _). split; [apply PInv_Wk, P'|].
+    apply rbind_ok in H as ([s5 held] & _ & H). apply rbind_ok in H as ([s6 imm'] & _ & [= _ <- _]). congruence.
+Qed.
+
+Lemma chain_nc fuel : forall p s0 s n,
+  pass_ok QT p s0 s -> inGraph (nd s n) = true ->
+  nocrash (recomputeChain fuel p s n) /\
+  forall s' e at_, recomputeChain fuel p s n = Ok (s', e, at_) ->
+    Wk s' /\ (e <> None -> 0 <= height (nd s' at_)).
+Proof.
+  induction fuel as [|fuel IH]; intros p s0 s n K Hg; [split; [apply nc_fuel|discriminate]|].
+  destruct K as (P & Hp & Hn & Hq). simpl.
+  destruct (rns_nc fuel p s n P Hp Hg) as [N1 N2].
+  assert (Next : forall s1 c, recomputeNodeSerial fuel p s n = Ok (s1, None, Some c) ->
+            pass_ok QT p s0 s1 /\ inGraph (nd s1 c) = true).
+  { intros s1 c H1.
+    destruct (recomputeNodeSerial_spec QT HQT bind_spec_holds fuel p s n s1 None (Some c) I P Hp Hg H1) as [[?|?]|[(P1 & Hp1 & Hn1 & Hq1) Himm]]; [discriminate|discriminate|].
+    split; [split; [exact P1|split; [exact Hp1|split; [congruence|exact Hq1]]]|apply Himm; reflexivity]. }
+  split.
+  - apply nc_rbind; [exact N1|]. intros [[s1 e1] imm] H1.
+    destruct e1 as [e0|]; [apply nc_Ok|]. destruct imm as [c|]; [|apply nc_Ok].
+    destruct (Next s1 c H1) as [K1 Hgc]. apply (IH p s0 s1 c K1 Hgc).
+  - intros s' e at_ H. apply rbind_ok in H as ([[s1 e1] imm] & H1 & H).
+    destruct e1 as [e0|]; [injection H as <- <- <-; apply (N2 s1 (Some e0) imm H1)|].
+    destruct imm as [c|]; [|injection H as <- <- <-; apply (N2 s1 None None H1)].
+    destruct (Next s1 c H1) as [K1 Hgc]. apply (proj2 (IH p s0 s1 c K1 Hgc) s' e at_ H).
+Qed.
+
+Lemma removeMin_some w : hinv w -> 0 < Heap.cnt w -> exists n w', Heap.removeMin w = Some (n, w').
+Proof.
+  intros [I _] Hc. destruct (Heap.removeMin w) as [[n w']|] eqn:E; [eauto|]. exfalso.
+  apply (heap_removeMin_none w I) in E. rewrite (inv_cnt w I), E in Hc. simpl in Hc. lia.
+Qed.
+
+Lemma passLoop_nc fuel : forall p s0 s always,
+  pass_ok QT p s0 s ->
+  nocrash (passLoop fuel p s always) /\
+  forall s' e at_ always', passLoop fuel p s always = Ok (s', e, at_, always') ->
+    Wk s' /\ (e <> None -> 0 <= height (nd s' at_)).
+Proof.
+  induction fuel as [|fuel IH]; intros p s0 s always K; [split; [apply nc_fuel|discriminate]|].
+  simpl. destruct (Z.leb_spec (Heap.cnt (heap s)) 0) as [Hle|Hpos].
+  { split; [apply nc_Ok|]. intros s' e at_ always' [= <- <- _ _]. split; [apply PInv_Wk, K|congruence]. }
+  destruct K as (P & Hp & Hn & Hq).
+  destruct (t_heap _ _ _ (p_t s P)) as [Hi Hqd].
+  destruct (removeMin_some (heap s) Hi Hpos) as (n & w & Erm). rewrite Erm.
+  set (s1 := s <| heap := w |>) in *.
+  destruct (removeMin_spec (heap s) n w Hi Erm) as (Hi' & Pm & Hin).
+  assert (Hnin : n ∈ Heap.ids (heap s)) by (rewrite Pm; left).
+  destruct (Hqd n Hnin) as [Hgn _].
+  assert (S1 : soft s s1).
+  { apply soft_only_heap; [apply only_heap_set|]. intros _ _. split; [exact Hi'|].
+    intros m Hm. assert (Hm' : m ∈ Heap.ids (heap s)) by (rewrite Pm; right; exact Hm).
+    destruct (Hqd m Hm') as [A B]. split; [exact A|]. cbn. rewrite Hin.
+    pose proof (inv_nodup _ (hinv_inv _ Hi)) as Hnd. rewrite Pm in Hnd.
+    apply stdpp.list.NoDup_cons in Hnd as [Hnn _].
+    rewrite decide_False by (intros ->; contradiction). exact B. }
+  assert (K1 : pass_ok QT p s0 s1).
+  { destruct (pass_ok_soft QT HQT p s s s1 ltac:(split; [exact P|split; [exact Hp|split; [reflexivity|exact Hq]]]) S1) as (A & B & C & D).
+    split; [exact A|split; [exact B|split; [congruence|exact D]]]. }
+  destruct (chain_nc fuel p s0 s1 n K1 Hgn) as [C1 C2].
+  split.
+  - apply nc_rbind; [exact C1|]. intros [[s2 e2] at2] H2. destruct e2 as [e0|]; [apply nc_Ok|].
+    destruct (recomputeChain_spec QT HQT bind_spec_holds fuel p s0 s1 n s2 None at2 K1 Hgn H2) as [[?|?]|K2]; [discriminate|discriminate|].
+    apply (IH p s0 s2 _ K2).
+  - intros s' e at_ always' H. apply rbind_ok in H as ([[s2 e2] at2] & H2 & H).
+    destruct e2 as [e0|]; [injection H as <- <- <- _; apply (C2 s2 (Some e0) at2 H2)|].
+    destruct (recomputeChain_spec QT HQT bind_spec_holds fuel p s0 s1 n s2 None at2 K1 Hgn H2) as [[?|?]|K2]; [discriminate|discriminate|].
+    apply (proj2 (IH p s0 s2 _ K2) s' e at_ always' H).
+Qed.
+
+(** the end of the pass, from the weak invariant only *)
+Lemma requeue_W l : forall s,
+  Wk s ->
+  nocrash (rfold (fun s n => if height (nd s n) =? unset then Ok s else heapAddIfNotPresent s n) l s) /\
+  forall s', rfold (fun s n => if height (nd s n) =? unset then Ok s else heapAddIfNotPresent s n) l s = Ok s' -> wkf s s'.
+Proof.
+  induction l as [|n l IH]; intros s W; simpl; [split; [apply nc_Ok|intros s' [= <-]; apply wkf_refl]|].
+  assert (Step : nocrash (if height (nd s n) =? unset then Ok s else heapAddIfNotPresent s n) /\
+                 forall s1, (if height (nd s n) =? unset then Ok s else heapAddIfNotPresent s n) = Ok s1 -> wkf s s1).
+  { destruct (Z.eqb_spec (height (nd s n)) unset) as [E|E].
+    - split; [apply nc_Ok|intros s1 [= <-]; apply wkf_refl].
+    - split; [|intros s1 H1; apply (wkf_heapAddIfNotPresent _ _ _ H1)].
+      apply nc_heapAddIfNotPresent; [apply (w_heap s W)|]. pose proof (w_h s W n). unfold unset in E. lia. }
+  destruct Step as [St1 St2]. split.
+  - apply nc_rbind; [exact St1|]. intros s1 H1. apply (IH s1), (St2 s1 H1 W).
+  - intros s' H. apply rbind_ok in H as (s1 & H1 & H). eapply wkf_trans; [apply (St2 s1 H1)|].
+    apply (proj2 (IH s1 (proj1 (St2 s1 H1 W))) s' H).
+Qed.
+
+Lemma wkf_setStale s n s' : setStale s n = Ok s' -> wkf s s'.
+Proof.
+  intros H. apply setStale_inv in H as [[_ ->]|[Hu H]]; [apply wkf_refl|]. cbn zeta in H.
+  set (s1 := upd s n (set setAt (fun _ => stabNum s))) in *.
+  assert (W1 : wkf s s1) by (apply wkf_upd; intros y; auto).
+  destruct H as [[_ ->]|[Hm H]]; [exact W1|]. eapply wkf_trans; [exact W1|].
+  apply (wkf_heapAddIfNotPresent s1 n s'). unfold heapAddIfNotPresent.
+  change (inHeap s1 n) with (inHeap s n). rewrite Hm. exact H.
+Qed.
+
+Lemma nc_setStale_W s n : Wk s -> nocrash (setStale s n).
+Proof.
+  intros W. unfold setStale. destruct (Z.eqb_spec (height (nd s n)) unset) as [|Hu]; [apply nc_Ok|].
+  set (s1 := upd s n (set setAt (fun _ => stabNum s))).
+  destruct (inHeap s1 n) eqn:E; [apply nc_Ok|]. apply nc_heapAdd; [apply (w_heap s W)|exact E|].
+  unfold s1. rewrite nd_upd_proj by reflexivity. pose proof (w_h s W n). unfold unset in Hu. lia.
+Qed.
+
+Lemma nc_applyDeferredSets_W s : Wk s -> nocrash (applyDeferredSets s).
+Proof.
+  intros W. unfold applyDeferredSets. apply nc_rbind; [|intros; apply nc_Ok].
+  apply (nc_rfold (fun rest st => Wk st /\ forall v, v ∈ rest -> exists e, nkind (nd st v) = KVar e)).
+  - split; [exact W|]. intros v Hv. apply (w_vars s W v). apply elem_of_app in Hv. tauto.
+  - intros v rest st [Wst Hrest]. destruct (Hrest v ltac:(left)) as [e He].
+    assert (St0 : forall st0 x, stabilizeNode 0 [] st v = Ok (st0, x) -> wkf st st0).
+    { intros st0 x H0. unfold stabilizeNode in H0. rewrite He in H0.
+      destruct (pending (nd st v)); [destruct (_ =? _)|]; apply ok_inv in H0 as [-> _]; try apply wkf_refl.
+      apply wkf_upd. intros y. auto. }
+    split.
+    + apply nc_rbind.
+      * unfold stabilizeNode. rewrite He. destruct (pending (nd st v)); [destruct (_ =? _)|]; apply nc_Ok.
+      * intros [st0 x] H0. apply nc_setStale_W. apply (St0 st0 x H0 Wst).
+    + intros st1 H1. apply rbind_ok in H1 as ([st0 x] & H0 & H1).
+      pose proof (wkf_trans _ _ _ (St0 st0 x H0) (wkf_setStale _ _ _ H1)) as Wf.
+      split; [apply (Wf Wst)|]. intros v' Hv'. destruct (Hrest v' ltac:(right; exact Hv')) as [e' He'].
+      (* kinds are static along these steps *)
+      assert (Hk : nkind (nd st1 v') = nkind (nd st v')).
+      { apply setStale_inv in H1 as [[_ ->]|[_ H1]].
+        - unfold stabilizeNode in H0. rewrite He in H0.
+          destruct (pending (nd st v)); [destruct (_ =? _)|]; apply ok_inv in H0 as [-> _]; try reflexivity.
+          apply nd_upd_proj. reflexivity.
+        - cbn zeta in H1. assert (Hk0 : nkind (nd st0 v') = nkind (nd st v')).
+          { unfold stabilizeNode in H0. rewrite He in H0.
+            destruct (pending (nd st v)); [destruct (_ =? _)|]; apply ok_inv in H0 as [-> _]; try reflexivity.
+            apply nd_upd_proj. reflexivity. }
+          destruct H1 as [[_ ->]|[_ H1]]; [rewrite nd_upd_proj by reflexivity; exact Hk0|].
+          apply heapAdd_inv in H1 as (w & _ & ->).
+          change (nd (upd st0 v (set setAt (fun _ => stabNum st0)) <| heap := w |>) v') with (nd (upd st0 v (set setAt (fun _ => stabNum st0))) v').
+          rewrite nd_upd_proj by reflexivity. exact Hk0. }
+      exists e'. rewrite Hk. exact He'.
+Qed.
+
+Lemma nc_stabilizeEnd_W s e : Wk s -> nocrash (stabilizeEnd s e).
+Proof.
+  intros W. unfold stabilizeEnd. apply nc_rbind; [|intros; apply nc_Ok].
+  apply nc_applyDeferredSets_W.
+  (* the handlers only log *)
+  set (s1 := emit (EvPassEnd (classify e)) s).
+  assert (W1 : Wk s1) by (apply (wkf_emit s _ W)).
+  unfold runUpdateHandlers.
+  assert (G : forall l st, Wk st -> Wk (foldl (fun s k => match obs s !! k with
+                             | Some n => emit (EvObsUpd k (valueOf s n)) s
+                             | None => emit (EvUpd k) s end) st l)).
+  { induction l as [|k l IHl]; intros st Wst; [exact Wst|]. simpl. apply IHl.
+    destruct (obs st !! k); apply (wkf_emit st _ Wst). }
+  assert (Wst : Wk (s1 <| status := 2 |>)).
+  { refine (proj1 (wkf_static s1 _ _ _ _ _ W1)); try reflexivity. intros m. auto. }
+  specialize (G (handlers (s1 <| status := 2 |>)) _ Wst).
+  refine (proj1 (wkf_static _ _ _ _ _ _ G)); try reflexivity. intros m. auto.
+Qed.
+
+Lemma nc_stabilize p cancelled s : Inv s -> plan_ok s p = true -> nocrash (stabilize p cancelled s).
+Proof.
+  intros HI Hp. unfold stabilize.
+  rewrite (q_status s (inv_quiet s HI)). simpl.
+  set (s1 := emit EvPassStart (s <| status := 1 |>)) in *.
+  pose proof (Inv_PInv_start s HI) as P1. fold s1 in P1.
+  assert (SS1 : same_struct s s1) by (apply same_struct_nodes; reflexivity).
+  assert (K1 : pass_ok QT p s1 s1).
+  { split; [exact P1|]. split; [apply (plan_ok_struct s s1 p SS1 Hp)|]. split; [reflexivity|exact I]. }
+  destruct (passLoop_nc (passFuel s1) p s1 s1 [] K1) as [L1 L2].
+  assert (Loop : nocrash (if cancelled && (0 <? Heap.cnt (heap s1)) then Ok (s1, Some ECancelled, 0%nat, [])
+                          else passLoop (passFuel s1) p s1 []) /\
+                 forall s2 e2 at2 always, (if cancelled && (0 <? Heap.cnt (heap s1)) then Ok (s1, Some ECancelled, 0%nat, [])
+                          else passLoop (passFuel s1) p s1 []) = Ok (s2, e2, at2, always) ->
+                   Wk s2 /\ forall m, e2 = Some (EPanic m) -> 0 <= height (nd s2 at2)).
+  { destruct (cancelled && _).
+    - split; [apply nc_Ok|]. intros s2 e2 at2 always [= <- <- _ _]. split; [apply PInv_Wk, P1|discriminate].
+    - split; [exact L1|]. intros s2 e2 at2 always H2. destruct (L2 s2 e2 at2 always H2) as [A B].
+      split; [exact A|]. intros m ->. apply B. discriminate. }
+  destruct Loop as [Lp1 Lp2].
+  apply nc_rbind; [exact Lp1|]. intros [[[s2 e2] at2] always] H2. destruct (Lp2 s2 e2 at2 always H2) as [W2 Hat].
+  destruct (requeue_W always s2 W2) as [R1 R2].
+  apply nc_rbind; [exact R1|]. intros s3 H3. destruct (R2 s3 H3 W2) as [W3 Hh3].
+  assert (Rec : nocrash (match e2 with
+         | Some (EPanic _) =>
+           let s := upd s3 at2 (set recomputedAt (fun _ => 0)) in
+           s <-! heapAddIfNotPresent s at2;
+           Ok (errorHandlers s at2)
+         | _ => Ok s3
+         end) /\ forall s4, (match e2 with
+         | Some (EPanic _) =>
+           let s := upd s3 at2 (set recomputedAt (fun _ => 0)) in
+           s <-! heapAddIfNotPresent s at2;
+           Ok (errorHandlers s at2)
+         | _ => Ok s3
+         end) = Ok s4 -> Wk s4).
+  { destruct e2 as [[| |n|n| | |]|]; try (split; [apply nc_Ok|intros s4 [= <-]; exact W3]).
+    set (s3' := upd s3 at2 (set recomputedAt (fun _ => 0))).
+    assert (W3' : Wk s3') by (refine (proj1 (wkf_upd s3 at2 _ _ W3)); intros y; auto).
+    split.
+    - cbv zeta. apply nc_rbind; [|intros; apply nc_Ok]. apply nc_heapAddIfNotPresent; [apply (w_heap _ W3')|].
+      unfold s3'. rewrite nd_upd_proj by reflexivity. apply Hh3, (Hat n eq_refl).
+    - cbv zeta. intros s4 H4. apply rbind_ok in H4 as (s5 & H5 & [= <-]).
+      apply (wkf_trans _ _ _ (wkf_heapAddIfNotPresent _ _ _ H5) (wkf_errorHandlers s5 at2) W3'). }
+  destruct Rec as [Rc1 Rc2].
+  apply nc_rbind; [exact Rc1|]. intros s4 H4.
+  apply nc_rbind; [apply nc_stabilizeEnd_W, (Rc2 s4 H4)|]. intros; apply nc_Ok.
+Qed.
+
+Theorem nc_step_stabilize s o : Inv s -> op_ok s o = true -> is_stabilize o = true -> nocrash (step s o).
+Proof.
+  intros HI Hok Hg. destruct o; try discriminate; simpl in Hok |- *.
+  - apply nc_stabilize; assumption.
+  - apply nc_stabilize; [exact HI|reflexivity].
+Qed.
+
+Theorem nc_step_new s o : is_new o = true -> nocrash (step s o).
+Proof. intros Hg. destruct o; try discriminate; simpl; apply nc_Ok. Qed.
+
+(** * Crash-freedom of every operation except ParallelStabilize *)
+Theorem nc_step s o :
+  Inv s -> op_ok s o = true -> op_clean s o = true -> is_parstabilize o = false -> nocrash (step s o).
+Proof.
+  intros HI Hok Hcl Hnp.
+  destruct o; try (simpl in Hcl; discriminate); try (simpl in Hnp; discriminate).
+  - simpl. destruct (nkind _); apply nc_Ok.
+  - simpl. destruct (nkind _); apply nc_Ok.
+  - apply nc_step_observe; auto.
+  - apply nc_step_unobserve; auto.
+  - apply nc_step_setvar; auto.
+  - apply nc_step_setvar; auto.
+  - apply nc_step_addinput; auto.
+  - apply nc_step_removeinput; auto.
+  - apply nc_step_stabilize; auto.
+  - apply nc_step_stabilize; auto.
+Qed.
+
+(** * ParallelStabilize: no fault as long as no lhs-change node is in play *)
+Lemma rnp_nc fuel p s n :
+  PInv s -> plan_ok s p = true -> inGraph (nd s n) = true -> nocrash (recomputeNodeParallel fuel p s n).
+Proof.
+  intros P Hp Hg. unfold recomputeNodeParallel.
+  assert (Hst : status s = 1) by apply (pq_status s (p_pq s P)).
+  set (prev := recomputedAt (nd s n)) in *.
+  set (s1 := upd s n (set recomputedAt (fun _ => stabNum s))) in *.
+  assert (S1 : soft s s1).
+  { apply soft_upd; intros x; [repeat split|]. intros Hk (A & B & C). repeat split; cbn; try lia; apply B || apply C. }
+  assert (K0 : pass_ok QT p s s) by (split; [exact P|split; [exact Hp|split; [reflexivity|exact I]]]).
+  assert (Hreg : forall st, soft s st -> inGraph (nd st n) = true).
+  { intros st S. destruct (ss_node _ _ (so_struct _ _ S) n) as (_&_&_&_&_&_&_&_&_&_&->). exact Hg. }
+  pose proof (PInv_of_soft s s1 P S1) as P1.
+  assert (Fail : forall st (e0 : err), Wk st -> 0 <= height (nd st n) ->
+            nocrash (s0 <-! recomputeFailed st n prev; Ok (errorHandlers s0 n, Some e0))).
+  { intros st e0 Wst Hh. apply nc_rbind; [apply nc_recomputeFailed_W; assumption|intros; apply nc_Ok]. }
+  assert (Panic : forall st m, Wk st -> 0 <= height (nd st n) ->
+            nocrash (s0 <-! heapAddIfNotPresent (upd st n (set recomputedAt (fun _ => 0))) n; Ok (errorHandlers s0 n, Some (EPanic m)))).
+  { intros st m Wst Hh. apply nc_rbind; [|intros; apply nc_Ok].
+    apply nc_heapAddIfNotPresent; [apply (w_heap st Wst)|]. rewrite nd_upd_proj by reflexivity. exact Hh. }
+  assert (Good : forall st, soft s st -> Wk st /\ 0 <= height (nd st n)).
+  { intros st S. pose proof (PInv_of_soft s st P S) as Pst. split; [apply PInv_Wk, Pst|apply (PInv_reg_height st n Pst), Hreg, S]. }
+  apply nc_rbind.
+  { destruct (nkind (nd s n)); try apply nc_Ok.
+    apply nc_rbind; [apply nc_invoke; apply (PInv_hreg s1 P1)|]. intros [s3 [e3|]] _; apply nc_Ok. }
+  intros [[s2 e2] cut] H2.
+  assert (S2 : soft s s2).
+  { destruct (nkind (nd s n)) as [| | | | |c| | |] eqn:Ek; try (injection H2 as <- _ _; exact S1).
+    apply rbind_ok in H2 as ([s3 e3] & H3 & H2).
+    assert (Hst1 : status s1 = 1) by (rewrite (so_status _ _ S1); exact Hst).
+    pose proof (invoke_soft p s1 n WCut s3 e3 Hst1 (plan_ok_struct s s1 p (so_struct _ _ S1) Hp) H3) as S3.
+    destruct e3 as [e0|]; injection H2 as <- _ _.
+    - eapply soft_trans; eauto.
+    - eapply soft_trans; [exact S1|]. eapply soft_trans; [exact S3|].
+      apply soft_emit. simpl. apply Hreg. eapply soft_trans; eauto. }
+  destruct (Good s2 S2) as [W2 Hh2].
+  destruct (pass_ok_soft QT HQT p s s s2 K0 S2) as (P2 & Hp2 & _).
+  destruct e2 as [e0|].
+  { destruct e0; try apply (Fail s2 _ W2 Hh2). apply (Panic s2 _ W2 Hh2). }
+  destruct cut; [apply nc_Ok|].
+  apply nc_rbind; [apply (nc_stabilizeNode fuel p s2 n P2 Hp2 (Hreg s2 S2))|].
+  intros [s3 e3] H3. destruct e3 as [e0|].
+  { destruct (stabilizeNode_err_W fuel p s2 n s3 e0 P2 Hp2 (Hreg s2 S2) H3) as [W3 Hh3].
+    destruct e0; try apply (Fail s3 _ W3 Hh3). apply (Panic s3 _ W3 Hh3). }
+  destruct (stabilizeNode_spec QT HQT bind_spec_holds fuel p s2 n s3 None I P2 Hp2 (Hreg s2 S2) H3) as [[?|?]|(P3 & Hp3 & Hn3 & _)]; [discriminate|discriminate|].
+  set (s4 := insert_handler n (upd s3 n (set changedAt (fun _ => stabNum s3)))) in *.
+  assert (S4 : soft s3 s4).
+  { eapply soft_trans; [|apply soft_handlers].
+    apply soft_upd; intros x; [repeat split|]. intros Hk (A & B & C). repeat split; cbn; try lia; apply A || apply C. }
+  pose proof (PInv_of_soft s3 s4 P3 S4) as P4.
+  apply nc_rbind; [|intros; apply nc_Ok].
+  apply (nc_rfold (fun (rest : list nid) st => soft s4 st /\ forall c, c ∈ rest -> inGraph (nd s4 c) = true)).
+  - split; [apply soft_refl|]. intros c Hc.
+    apply (child_registered s4 c n (t_edges _ _ _ (p_t s4 P4)) (t_zero _ _ _ (p_t s4 P4)) Hc).
+  - intros c rest st [Sst Hrest].
+    pose proof (PInv_of_soft s4 st P4 Sst) as Pst.
+    destruct (shouldRecomputeChild st c) eqn:E.
+    + assert (Hcm : inHeap st c = false).
+      { unfold shouldRecomputeChild in E. destruct (inHeap st c); [discriminate|reflexivity]. }
+      split.
+      * apply nc_heapAdd; [apply (t_heap _ _ _ (p_t st Pst))|exact Hcm|].
+        apply (PInv_reg_height st c Pst). destruct (ss_node _ _ (so_struct _ _ Sst) c) as (_&_&_&_&_&_&_&_&_&_&->).
+        apply Hrest. left.
+      * intros st1 H1. split; [eapply soft_trans; [exact Sst|apply (soft_heapAdd st c st1 Hcm H1)]|].
+        intros c' Hc'. apply Hrest. right. exact Hc'.
+    + split; [apply nc_Ok|]. intros st1 [= <-]. split; [exact Sst|]. intros c' Hc'. apply Hrest. right. exact Hc'.
+Qed.
+
+Section par_nc.
+  Context (Q0 : state -> Prop) (HQ0 : forall s s', same_struct s s' -> Q0 s -> Q0 s') (HB0 : bind_spec Q0).
+  (* no lhs-change node is registered *)
+  Hypothesis Hnolhs : forall st n b, Q0 st -> PInv st -> inGraph (nd st n) = true -> nkind (nd st n) <> KBindLhs b.
+
+  Lemma block_nc fuel p s0 : forall l acc,
+    pass_ok Q0 p s0 acc.1.1 ->
+    nocrash (rfold (blockStep fuel p) l acc) /\
+    forall acc', rfold (blockStep fuel p) l acc = Ok acc' -> pass_ok Q0 p s0 acc'.1.1.
+  Proof.
+    induction l as [|m l IH]; intros acc K; simpl; [split; [apply nc_Ok|intros acc' [= <-]; exact K]|].
+    destruct acc as [[st e] al]. cbn [fst snd] in K.
+    assert (Step : nocrash (blockStep fuel p (st, e, al) m) /\
+                   forall acc1, blockStep fuel p (st, e, al) m = Ok acc1 -> pass_ok Q0 p s0 acc1.1.1).
+    { unfold blockStep. destruct (Z.eqb_spec (height (nd st m)) unset) as [Hu|Hu].
+      - split; [apply nc_Ok|intros acc1 [= <-]; exact K].
+      - destruct K as (P & Hp & Hn & Hq).
+        assert (Hg : inGraph (nd st m) = true) by (apply (Inv_hreg st (t_zero _ _ _ (p_t st P)) (t_height _ _ _ (p_t st P)) m Hu)).
+        split.
+        + apply nc_rbind; [apply (rnp_nc fuel p st m P Hp Hg)|]. intros [st' e'] _. apply nc_Ok.
+        + intros acc1 H1. apply rbind_ok in H1 as ([st' e'] & Hr & [= <-]). cbn [fst snd].
+          destruct (recomputeNodeParallel_spec Q0 HQ0 HB0 fuel p st m st' e' Hq P Hp Hg Hr) as [A B].
+          destruct A as [A|(A1 & A2 & A3 & A4)].
+          * exfalso. apply (B (fun b => Hnolhs st m b Hq P Hg) A).
+          * split; [exact A1|split; [exact A2|split; [congruence|exact A4]]]. }
+    destruct Step as [St1 St2]. split.
+    - apply nc_rbind; [exact St1|]. intros acc1 H1. apply (IH acc1 (St2 acc1 H1)).
+    - intros acc' H. apply rbind_ok in H as (acc1 & H1 & H). apply (proj2 (IH acc1 (St2 acc1 H1)) acc' H).
+  Qed.
+
+  Lemma parLoop_nc fuel : forall p s0 s always,
+    pass_ok Q0 p s0 s ->
+    nocrash (parLoop fuel p s always) /\
+    forall s' e always', parLoop fuel p s always = Ok (s', e, always') -> pass_ok Q0 p s0 s'.
+  Proof.
+    induction fuel as [|fuel IH]; intros p s0 s always K; [split; [apply nc_fuel|discriminate]|].
+    rewrite parLoop_S. destruct (Heap.cnt (heap s) <=? 0); [split; [apply nc_Ok|intros s' e always' [= <- _ _]; exact K]|].
+    destruct (Heap.takeMinBlock (heap s)) as [block w] eqn:Etb. cbv zeta.
+    set (sb := s <| heap := w |>) in *.
+    destruct K as (P & Hp & Hn & Hq).
+    destruct (t_heap _ _ _ (p_t s P)) as [Hi Hqd].
+    destruct (takeMinBlock_spec (heap s) block w Hi Etb) as (Hi' & Pm & Hin).
+    assert (S1 : soft s sb).
+    { apply soft_only_heap; [apply only_heap_set|]. intros _ _. split; [exact Hi'|].
+      intros m Hm. assert (Hm' : m ∈ Heap.ids (heap s)) by (rewrite Pm; apply elem_of_app; right; exact Hm).
+      destruct (Hqd m Hm') as [A B]. split; [exact A|]. cbn. rewrite Hin.
+      pose proof (inv_nodup _ (hinv_inv _ Hi)) as Hnd. rewrite Pm in Hnd.
+      apply NoDup_app in Hnd as (_ & Hdis & _).
+      rewrite bool_decide_false by (intros Hx; apply (Hdis m Hx Hm)). exact B. }
+    assert (Kb : pass_ok Q0 p s0 sb).
+    { destruct (pass_ok_soft Q0 HQ0 p s s sb ltac:(split; [exact P|split; [exact Hp|split; [reflexivity|exact Hq]]]) S1) as (A & B & C & D).
+      split; [exact A|split; [exact B|split; [congruence|exact D]]]. }
+    match goal with |- nocrash (rbind (rfold _ ?l ?acc) _) /\ _ =>
+      destruct (block_nc fuel p s0 l acc Kb) as [B1 B2] end.
+    split.
+    - apply nc_rbind; [exact B1|]. intros [[s2 e2] always2] H2. specialize (B2 _ H2). cbn [fst snd] in B2.
+      destruct e2; [apply nc_Ok|apply (IH p s0 s2 always2 B2)].
+    - intros s' e always' H. apply rbind_ok in H as ([[s2 e2] always2] & H2 & H). specialize (B2 _ H2). cbn [fst snd] in B2.
+      destruct e2; [injection H as <- _ _; exact B2|apply (proj2 (IH p s0 s2 always2 B2) s' e always' H)].
+  Qed.
+
+  Lemma nc_parStabilize p s : Inv s -> Q0 s -> plan_ok s p = true -> nocrash (parStabilize p s).
+  Proof.
+    intros HI Hq Hp. unfold parStabilize.
+    rewrite (q_status s (inv_quiet s HI)). simpl.
+    set (s1 := emit EvPassStart (s <| status := 1 |>)) in *.
+    pose proof (Inv_PInv_start s HI) as P1. fold s1 in P1.
+    assert (SS1 : same_struct s s1) by (apply same_struct_nodes; reflexivity).
+    assert (K1 : pass_ok Q0 p s1 s1).
+    { split; [exact P1|]. split; [apply (plan_ok_struct s s1 p SS1 Hp)|]. split; [reflexivity|apply (HQ0 s s1 SS1 Hq)]. }
+    destruct (parLoop_nc (passFuel s1) p s1 s1 [] K1) as [L1 L2].
+    apply nc_rbind; [exact L1|]. intros [[s2 e2] always] H2. destruct (L2 s2 e2 always H2) as (P2 & _).
+    pose proof (PInv_Wk s2 P2) as W2.
+    assert (Rq : forall l st, Wk st ->
+              nocrash (rfold (fun s n => if (height (nd s n) =? unset) || inHeap s n then Ok s else heapAdd s n) l st) /\
+              forall st', rfold (fun s n => if (height (nd s n) =? unset) || inHeap s n then Ok s else heapAdd s n) l st = Ok st' -> Wk st').
+    { induction l as [|n l IHl]; intros st Wst; simpl; [split; [apply nc_Ok|intros st' [= <-]; exact Wst]|].
+      assert (Step : nocrash (if (height (nd st n) =? unset) || inHeap st n then Ok st else heapAdd st n) /\
+                     forall st1, (if (height (nd st n) =? unset) || inHeap st n then Ok st else heapAdd st n) = Ok st1 -> Wk st1).
+      { destruct (Z.eqb_spec (height (nd st n)) unset) as [E|E]; simpl; [split; [apply nc_Ok|intros st1 [= <-]; exact Wst]|].
+        destruct (inHeap st n) eqn:Em; [split; [apply nc_Ok|intros st1 [= <-]; exact Wst]|].
+        split.
+        - apply nc_heapAdd; [apply (w_heap st Wst)|exact Em|]. pose proof (w_h st Wst n). unfold unset in E. lia.
+        - intros st1 H1. refine (proj1 (wkf_heapAddIfNotPresent st n st1 _ Wst)). unfold heapAddIfNotPresent. rewrite Em. exact H1. }
+      destruct Step as [A B]. split.
+      - apply nc_rbind; [exact A|]. intros st1 H1. apply (IHl st1 (B st1 H1)).
+      - intros st' H. apply rbind_ok in H as (st1 & H1 & H). apply (proj2 (IHl st1 (B st1 H1)) st' H). }
+    destruct (Rq always s2 W2) as [R1 R2].
+    apply nc_rbind; [exact R1|]. intros s3 H3.
+    apply nc_rbind; [apply nc_stabilizeEnd_W, (R2 s3 H3)|]. intros; apply nc_Ok.
+  Qed.
+End par_nc.
+
+Theorem nc_step_parstabilize_bindfree s o :
+  Inv s -> binds s = ∅ -> op_ok s o = true -> is_parstabilize o = true -> nocrash (step s o).
+Proof.
+  intros HI Hb Hok Hg. destruct o; try discriminate. simpl in Hok |- *.
+  apply (nc_parStabilize bindfree); auto.
+  - intros a b SS H. unfold bindfree. rewrite (ss_binds _ _ SS). exact H.
+  - apply bind_spec_bindfree.
+  - intros st n b Hq P Hgn Ek.
+    pose proof (p_kinds st P n (has_inGraph st n Hgn)) as K. rewrite Ek in K. destruct K as [_ [r Hr]].
+    unfold bindfree in Hq. rewrite Hq, lookup_empty in Hr. discriminate.
 Qed.
 
 From stdpp Require Import sorting.
@@ -9748,7 +12558,15 @@ Theorem runs_only_while_necessary s l_after e l_before n : Inv s ->
   log s = l_after ++ e :: l_before -> ev_runs e = Some n -> lastNU l_before n = Some true.
 Proof.
   intros HI El He. pose proof (lf_log s (inv_life s HI)) as H. rewrite El in H.
-  apply log_ok_suffix in H. destruct H as [H _]. destruct e; try discriminate; injection He as ->; exact H.
+  apply log_ok_suffix in H. destruct H as [H _]. destruct e; try discriminate; injection He as ->; apply H.
+Qed.
+
+(* C08: once a node has been invalidated, none of its functions runs again *)
+Theorem never_runs_after_invalidation s l_after e l_before n : Inv s ->
+  log s = l_after ++ e :: l_before -> ev_runs e = Some n -> EvInval n ∉ l_before.
+Proof.
+  intros HI El He. pose proof (lf_log s (inv_life s HI)) as H. rewrite El in H.
+  apply log_ok_suffix in H. destruct H as [H _]. destruct e; try discriminate; injection He as ->; apply H.
 Qed.
 
 Theorem registered_iff_last_necessary s n : Inv s -> (inGraph (nd s n) = true <-> lastNU (log s) n = Some true).
@@ -9802,7 +12620,83 @@ Theorem wf_every_boundary_cond mh os s :
   bind_spec (fun _ => True) -> (0 < mh)%nat -> run_clean (init mh) os = Some s -> wfb s = true.
 Proof. intros _. apply wf_every_boundary. Qed.
 
+(** ** C08 over histories *)
+Theorem history_never_runs_after_invalidation mh os s l_after e l_before n :
+  (0 < mh)%nat -> run_clean (init mh) os = Some s ->
+  log s = l_after ++ e :: l_before -> ev_runs e = Some n -> EvInval n ∉ l_before.
+Proof. intros Hmh H. apply never_runs_after_invalidation, (Inv_run_clean mh os s Hmh H). Qed.
+
+(* the swap of a bind, from any state of a pass: between the bind function's event and the return
+   of the lhs-change node's recomputation nothing runs, and every node of the generation being
+   replaced is invalidated (hence, by the theorem above, never runs again) *)
+Theorem swap_log fuel p s b s' :
+  PInv s -> plan_ok s p = true -> nkind (nd s b) = KBindLhs b -> inGraph (nd s b) = true ->
+  b_memo (bd s b) = false ->
+  bindLhsStabilize fuel p s b = Ok (s', None) ->
+  exists x root l1 l2,
+    log s' = l2 ++ EvBindFn b x root :: l1 ++ log s /\
+    Forall (fun ev => ev_runs ev = None) l1 /\ Forall (fun ev => ev_runs ev = None) l2 /\
+    (b_rhs (bd s b) <> None -> forall n, n ∈ b_rhsNodes (bd s b) -> EvInval n ∈ l2).
+Proof.
+  intros P Hp Hk Hg Hnm H.
+  destruct (bind_full_nomemo fuel p s b s' None P Hp Hk Hg Hnm H) as [[?|?]|(_ & _ & _ & _ & _ & L)]; [discriminate|discriminate|].
+  apply L. reflexivity.
+Qed.
+
+(* a memoized bind, from any state of a pass: on a cache hit the cached root becomes the right-hand
+   side, the record is otherwise unchanged and nothing runs; on a miss the function runs once and
+   exactly its root is appended to the cache *)
+Theorem memo_swap_log fuel p s b s' :
+  PInv s -> plan_ok s p = true -> nkind (nd s b) = KBindLhs b -> inGraph (nd s b) = true ->
+  b_memo (bd s b) = true ->
+  bindLhsStabilize fuel p s b = Ok (s', None) -> memo_post s b (bd s b) s'.
+Proof.
+  intros P Hp Hk Hg Hm H.
+  destruct (bind_full_memo_strong fuel p s b s' None P Hp Hk Hg Hm H) as [[?|?]|(_ & _ & _ & _ & _ & L)]; [discriminate|discriminate|].
+  apply L. reflexivity.
+Qed.
+
+(** ** C05: no operation of a clean history faults (ParallelStabilize excepted, see below);
+       running out of the model's fuel is not excluded *)
+Theorem run_no_crash mh os s o :
+  (0 < mh)%nat -> run_clean (init mh) os = Some s ->
+  op_ok s o = true -> op_clean s o = true -> is_parstabilize o = false ->
+  forall c, step s o <> Crash c.
+Proof. intros Hmh H Hok Hcl Hnp. apply (nc_step s o (Inv_run_clean mh os s Hmh H) Hok Hcl Hnp). Qed.
+
+Theorem run_no_crash_par_bindfree mh os s o :
+  (0 < mh)%nat -> forallb op_nobind os = true -> run_clean (init mh) os = Some s ->
+  op_ok s o = true -> is_parstabilize o = true -> forall c, step s o <> Crash c.
+Proof.
+  intros Hmh Hn H Hok Hg. destruct (Inv_run_clean_bindfree mh os s Hmh Hn H) as [HI Hb].
+  apply (nc_step_parstabilize_bindfree s o HI Hb Hok Hg).
+Qed.
+
 (** ** Witnesses *)
+(* after a clean history ParallelStabilize faults: the first bind of a height block is rejected for
+   the height limit while a node waits in the adjust-heights heap; the next bind of the block
+   finds the stale entry below its lower bound and dereferences the nil the scan returns *)
+Definition h_par_crash : list op :=
+  [NewVar 0 false;
+   NewBind [TX; TMap (Aff 1 1) (TMap (Aff 1 1) (TMap (Aff 1 1) TX))] 0%nat;
+   NewBind [TMap (Aff 1 1) (TMap (Aff 1 1) (TMap (Aff 1 1) TX));
+            TMap (Aff 1 1) (TMap (Aff 1 1) (TMap (Aff 1 1) (TMap (Aff 1 1) TX)))] 0%nat;
+   NewMap (Aff 1 1) 2%nat; NewMap (Aff 1 1) 5%nat; Observe 6%nat; Observe 4%nat;
+   Stabilize []; SetVar 0%nat 1].
+
+Theorem par_crash_refuted : exists os s,
+  run_clean (init 8) os = Some s /\ op_ok s (ParStabilize []) = true /\ op_clean s (ParStabilize []) = true /\
+  step s (ParStabilize []) = Crash NilDeref.
+Proof.
+  exists h_par_crash.
+  assert (H : match run_clean (init 8) h_par_crash with
+              | Some s => match step s (ParStabilize []) with Crash NilDeref => true | _ => false end
+              | None => false end = true) by (vm_compute; reflexivity).
+  remember (run_clean (init 8) h_par_crash) as r eqn:E. destruct r as [s|]; [|discriminate H].
+  exists s. split; [reflexivity|]. split; [reflexivity|]. split; [reflexivity|].
+  destruct (step s (ParStabilize [])) as [x|c|]; try discriminate H. destruct c; try discriminate H. reflexivity.
+Qed.
+
 (* an operation rejected for the height limit leaves the state ill-formed (MaxHeight 6) *)
 Definition h_limit : list op :=
   [NewVar 1 false; NewMap (Aff 1 1) 0%nat; NewMap (Aff 1 1) 1%nat; NewMap (Aff 1 1) 2%nat;
@@ -9928,3 +12822,92 @@ Proof.
   apply Nat.eqb_eq in H1. apply bool_decide_eq_true in H2, H3.
   exists s. split; [reflexivity|]. split; [exact H1|]. split; [exact H2|exact H3].
 Qed.
+
+(** * C09: what the memo operations do to the cache; cached subgraphs stay alive *)
+Lemma memo_main_inv s m : Inv s -> isMemoMain s m = true ->
+  exists b, nkind (nd s m) = KBindMain b /\ m = S b /\ is_Some (binds s !! b) /\ b_memo (bd s b) = true.
+Proof.
+  intros HI H. unfold isMemoMain in H. destruct (nodes s !! m) as [y|] eqn:E; [|discriminate].
+  assert (Hh : has s m) by (unfold has; rewrite E; eauto).
+  assert (Hy : nd s m = y) by (unfold nd; rewrite E; reflexivity).
+  destruct (nkind y) eqn:Ek; try discriminate.
+  pose proof (inv_kinds s HI m Hh) as K. rewrite Hy, Ek in K. destruct K as [-> Hb].
+  eexists. rewrite Hy. split; [exact Ek|]. auto.
+Qed.
+
+Theorem purge_spec s m x b s' e :
+  nkind (nd s m) = KBindMain b -> is_Some (binds s !! b) ->
+  step s (PurgeMemo m x) = Ok (s', e) ->
+  e = None /\ nodes s' = nodes s /\ log s' = log s /\
+  (forall b', b' <> b -> bd s' b' = bd s b') /\
+  bd s' b = set b_cache (filter (fun kv => fst kv <> x)) (bd s b) /\
+  (forall kv, kv ∈ b_cache (bd s' b) <-> kv ∈ b_cache (bd s b) /\ fst kv <> x).
+Proof.
+  intros Hk Hb H. simpl in H. rewrite Hk in H. apply ok_inv in H as [-> ->].
+  split; [reflexivity|]. split; [apply nodes_updb|]. split; [apply log_updb|].
+  split; [intros b' Hne; apply bd_updb_ne, Hne|].
+  rewrite (bd_updb_eq s b _ Hb). split; [reflexivity|]. intros kv. cbn. rewrite elem_of_list_filter. tauto.
+Qed.
+
+Theorem clear_spec s m b s' e :
+  nkind (nd s m) = KBindMain b -> is_Some (binds s !! b) ->
+  step s (ClearMemo m) = Ok (s', e) ->
+  e = None /\ nodes s' = nodes s /\ log s' = log s /\
+  (forall b', b' <> b -> bd s' b' = bd s b') /\
+  bd s' b = set b_cache (fun _ => []) (bd s b) /\ b_cache (bd s' b) = [].
+Proof.
+  intros Hk Hb H. simpl in H. rewrite Hk in H. apply ok_inv in H as [-> ->].
+  split; [reflexivity|]. split; [apply nodes_updb|]. split; [apply log_updb|].
+  split; [intros b' Hne; apply bd_updb_ne, Hne|].
+  rewrite (bd_updb_eq s b _ Hb). split; reflexivity.
+Qed.
+
+(* a cached right-hand side exists, is a top-level node and is valid at every boundary: it keeps
+   tracking the inputs it reads while it is parked, whatever rebuilds happen in between *)
+Theorem cached_root_alive s b r x q :
+  Inv s -> binds s !! b = Some r -> (x, Some q) ∈ b_cache r ->
+  has s q /\ scope (nd s q) = None /\ valid (nd s q) = true /\ EvInval q ∉ log s.
+Proof.
+  intros HI Hr Hq. destruct (bw_cache _ _ _ (inv_binds s HI b r Hr) x q Hq) as (A & B & _).
+  pose proof (vo_top s (inv_valid s HI) q B) as V.
+  split; [exact A|]. split; [exact B|]. split; [exact V|].
+  intros Hx. apply (lf_inval s (inv_life s HI) q) in Hx. congruence.
+Qed.
+
+Theorem memo_hit_spec fuel p s b s' i x' root :
+  PInv s -> plan_ok s p = true -> nkind (nd s b) = KBindLhs b -> inGraph (nd s b) = true ->
+  b_memo (bd s b) = true ->
+  list_find (fun kv : Z * option nid => kv.1 = valueOf s (b_lhs (bd s b))) (b_cache (bd s b)) = Some (i, (x', root)) ->
+  bindLhsStabilize fuel p s b = Ok (s', None) ->
+  binds s' = <[b := set b_rhs (fun _ => root) (bd s b)]> (binds s) /\ norun_ext s s'.
+Proof.
+  intros P Hp Hk Hg Hm Ef H. pose proof (memo_swap_log fuel p s b s' P Hp Hk Hg Hm H) as L.
+  unfold memo_post in L. cbv zeta in L. rewrite Ef in L. exact L.
+Qed.
+
+Theorem memo_miss_spec fuel p s b s' :
+  PInv s -> plan_ok s p = true -> nkind (nd s b) = KBindLhs b -> inGraph (nd s b) = true ->
+  b_memo (bd s b) = true ->
+  list_find (fun kv : Z * option nid => kv.1 = valueOf s (b_lhs (bd s b))) (b_cache (bd s b)) = None ->
+  bindLhsStabilize fuel p s b = Ok (s', None) ->
+  let x := valueOf s (b_lhs (bd s b)) in
+  exists root l2,
+    binds s' = <[b := set b_rhs (fun _ => root)
+                   (bd s b <| b_gen := S (b_gen (bd s b)) |> <| b_cache := b_cache (bd s b) ++ [(x, root)] |>)]> (binds s) /\
+    log s' = l2 ++ EvBindFn b x root :: log s /\ Forall (fun ev => ev_runs ev = None) l2.
+Proof.
+  intros P Hp Hk Hg Hm Ef H. pose proof (memo_swap_log fuel p s b s' P Hp Hk Hg Hm H) as L.
+  unfold memo_post in L. cbv zeta in L. rewrite Ef in L. exact L.
+Qed.
+
+Theorem cached_root_alive_history mh os s b r x q :
+  (0 < mh)%nat -> run_clean (init mh) os = Some s ->
+  binds s !! b = Some r -> (x, Some q) ∈ b_cache r ->
+  has s q /\ scope (nd s q) = None /\ valid (nd s q) = true /\ EvInval q ∉ log s.
+Proof. intros Hmh H. apply cached_root_alive, (Inv_run_clean mh os s Hmh H). Qed.
+
+Theorem drain_history mh os s :
+  (0 < mh)%nat -> run_clean (init mh) os = Some s -> obs s = ∅ ->
+  reg s = [] /\ Heap.ids (heap s) = [] /\ numNodes s = 0%Z /\
+  forall n, parents (nd s n) = [] /\ children (nd s n) = [].
+Proof. intros Hmh H. apply drain, (Inv_run_clean mh os s Hmh H). Qed.
